@@ -1,5 +1,28 @@
 (* Proofs about the flat undo / redo model of Crdt/Undo.v and the oracle of Crdt/UndoSpec.v (C12).
-   (header is completed at the end of the development)
+
+   A. inverse_law_holds : inverse_law.
+        THE INVERSE LAW, UNBOUNDED, no added hypothesis: every program of capture steps, undo calls and redo
+        calls (no other origin), started from ustate0 / mirror0, is accepted by the mirror oracle.
+        Method: an abstract representation of the state by LINEAGES (Section "abstract representation"):
+        a sequence is a list of blocks (newest copy first, only the head may be live, the copy sits
+        immediately before the tombstone it re-creates), a map chain is a list of units labelled with the
+        root of their lineage (the redone pointer is the next unit to the right with the same root).  Every
+        concrete operation of Undo.v is shown to be an abstract operation on a concretised state
+        (conc_ins, conc_del, conc_set, conc_rem, conc_redo_seq, conc_redo_map, conc_delete_id, follow_conc).
+        The content is a function `render` of the set of live roots (cont_render).  A stack entry denotes the
+        transformation `tau` on sets of live roots; the run invariant INV says that mu / mr are the renders
+        of the iterated transformations of the current live set (ulist / rlist), that every such set holds at
+        most one root per key (kex), and that the entries are well placed (ent_ok, STK).  uprocess_spec:
+        processing an entry E turns the live set S into tau E S and pushes an entry whose transformation
+        leads back to S (TS, TS_entry); walk_ok: the walk to the right in ItemPtr::redo succeeds.
+      inverse_law_bounded : the exhaustive check that was run BEFORE attempting the proof (kept).
+      tracked_run_invariant : every tracked run ends in a concretised well-formed abstract state.
+   B. undo_redo_keep_foreign_units : with other origins editing (programs may contain AOther), a live unit
+        that another origin inserted is still live after an undo call and after a redo call
+        (frun threads the ids allocated by AOther actions).
+   C. undo_never_touches_other_keys_or_values : for EVERY state and action, every unit survives with the
+        same id and value, and a deleted unit stays deleted.
+   D. non-vacuity examples (ex_passed_over, ex_key_older, ex_key_older2, ex_recreated_range).
 
    Standard library only; every theorem is closed under the global context. *)
 From Coq Require Import List NArith Bool Lia Arith Permutation.
@@ -1404,7 +1427,3689 @@ Example ex_recreated_range_units :
 Proof. vm_compute. reflexivity. Qed.
 
 
+
 (* ---------------------------------------------------------------------------------------------- *)
-Print Assumptions undo_never_touches_other_keys_or_values.
-Print Assumptions undo_redo_keep_foreign_units.
+(* A. the inverse law.  Abstract representation: lineages.
+   A sequence is a list of blocks; a block is one lineage: the newest copy (head) followed by the older members,
+   each pointing at the next newer one; only the head may be live.  A map chain is a list of units annotated with
+   the root (label) of their lineage; the redone pointer of a unit is the next unit to its right with the same
+   root. *)
+
+Record blk := { b_hd : N; b_tl : list N; b_rt : N; b_val : utok; b_live : bool }.
+Fixpoint ctail (h : N) (t : list N) (v : utok) : list uitem :=
+  match t with [] => [] | i :: t' => mk i v true (Some h) :: ctail i t' v end.
+Definition cblk (b : blk) : list uitem :=
+  mk (b_hd b) (b_val b) (negb (b_live b)) None :: ctail (b_hd b) (b_tl b) (b_val b).
+Definition cseq (bs : list blk) : list uitem := flat_map cblk bs.
+Definition b_ids (b : blk) : list N := b_hd b :: b_tl b.
+
+Record aunit := { a_id : N; a_rt : N; a_val : utok; a_del : bool }.
+Fixpoint next_same (r : N) (l : list aunit) : option N :=
+  match l with [] => None | x :: t => if a_rt x =? r then Some (a_id x) else next_same r t end.
+Fixpoint cchain (l : list aunit) : list uitem :=
+  match l with [] => [] | x :: t => mk (a_id x) (a_val x) (a_del x) (next_same (a_rt x) t) :: cchain t end.
+Definition cmap (m : list (N * list aunit)) : list (N * list uitem) := map (fun kc => (fst kc, cchain (snd kc))) m.
+
+Record astate := { a_seq : list blk; a_map : list (N * list aunit) }.
+Definition conc (a : astate) (nx : N) (us rs : list stackitem) : ustate :=
+  {| seqc := cseq (a_seq a); mapc := cmap (a_map a); unext := nx; ustack := us; rstack := rs |}.
+
+(* ---- sequence: concrete operations on a concretised block list ---- *)
+
+Lemma ctail_dead h t v : forall y, In y (ctail h t v) -> u_del y = true.
+Proof. revert h. induction t as [| i t IH]; intros h y; cbn; [intros [] |]. intros [<- | H]; eauto. Qed.
+Lemma ctail_ids h t v : ids (ctail h t v) = t.
+Proof. revert h. induction t as [| i t IH]; intros h; cbn; auto. rewrite IH. reflexivity. Qed.
+Lemma cblk_ids b : ids (cblk b) = b_ids b.
+Proof. unfold cblk, b_ids. cbn. rewrite ctail_ids. reflexivity. Qed.
+Lemma cseq_ids bs : ids (cseq bs) = flat_map b_ids bs.
+Proof. induction bs as [| b r IH]; cbn; auto. unfold cseq in IH. rewrite map_app, IH, ctail_ids. reflexivity. Qed.
+
+Lemma ibv_dead_prefix d l pos x : (forall y, In y d -> u_del y = true) ->
+  insert_before_visible (d ++ l) pos x = d ++ insert_before_visible l pos x.
+Proof.
+  induction d as [| y r IH]; cbn; intros H; auto. rewrite (H y (or_introl eq_refl)). rewrite IH; auto.
+Qed.
+Lemma delvis_dead_prefix d l pos : (forall y, In y d -> u_del y = true) ->
+  delete_visible (d ++ l) pos = (d ++ fst (delete_visible l pos), snd (delete_visible l pos)).
+Proof.
+  induction d as [| y r IH]; cbn; intros H.
+  - destruct (delete_visible l pos); reflexivity.
+  - rewrite (H y (or_introl eq_refl)). rewrite IH; auto.
+Qed.
+Lemma uvisible_app l1 l2 : uvisible (l1 ++ l2) = uvisible l1 ++ uvisible l2.
+Proof. unfold uvisible. rewrite filter_app, map_app. reflexivity. Qed.
+Lemma uvisible_dead d : (forall y, In y d -> u_del y = true) -> uvisible d = [].
+Proof.
+  unfold uvisible. induction d as [| y r IH]; cbn; intros H; auto. rewrite (H y (or_introl eq_refl)). cbn. auto.
+Qed.
+
+Definition newblk (i : N) (v : utok) : blk := {| b_hd := i; b_tl := []; b_rt := i; b_val := v; b_live := true |}.
+Definition kill (b : blk) : blk := {| b_hd := b_hd b; b_tl := b_tl b; b_rt := b_rt b; b_val := b_val b; b_live := false |}.
+Definition recopy (b : blk) (fresh : N) : blk :=
+  {| b_hd := fresh; b_tl := b_hd b :: b_tl b; b_rt := b_rt b; b_val := b_val b; b_live := true |}.
+
+Fixpoint bins (bs : list blk) (pos : nat) (b : blk) : list blk :=
+  match bs with
+  | [] => [b]
+  | y :: r => if b_live y then match pos with O => b :: y :: r | S p => y :: bins r p b end else y :: bins r pos b
+  end.
+Fixpoint bdel (bs : list blk) (pos : nat) : list blk * option N :=
+  match bs with
+  | [] => ([], None)
+  | y :: r => if b_live y then match pos with O => (kill y :: r, Some (b_hd y)) | S p => let '(r', o) := bdel r p in (y :: r', o) end
+              else let '(r', o) := bdel r pos in (y :: r', o)
+  end.
+
+Lemma cseq_cons b r : cseq (b :: r) = cblk b ++ cseq r.
+Proof. reflexivity. Qed.
+Lemma cblk_uvisible b : uvisible (cblk b) = if b_live b then [b_val b] else [].
+Proof.
+  unfold cblk. change (uvisible ([mk (b_hd b) (b_val b) (negb (b_live b)) None] ++ ctail (b_hd b) (b_tl b) (b_val b)) = if b_live b then [b_val b] else []).
+  rewrite uvisible_app, (uvisible_dead (ctail _ _ _)) by apply ctail_dead.
+  unfold uvisible. cbn. destruct (b_live b); reflexivity.
+Qed.
+Lemma cseq_uvisible bs : uvisible (cseq bs) = map b_val (filter b_live bs).
+Proof.
+  induction bs as [| b r IH]; [reflexivity |]. rewrite cseq_cons, uvisible_app, IH, cblk_uvisible.
+  cbn. destruct (b_live b); reflexivity.
+Qed.
+
+Lemma cseq_ibv bs pos i v :
+  insert_before_visible (cseq bs) pos (mk i v false None) = cseq (bins bs pos (newblk i v)).
+Proof.
+  revert pos. induction bs as [| b r IH]; intros pos; [reflexivity |].
+  rewrite cseq_cons. unfold cblk at 1. cbn [app insert_before_visible u_del mk bins].
+  destruct (b_live b) eqn:L; cbn [negb].
+  - destruct pos as [| p].
+    + rewrite !cseq_cons. unfold cblk at 2. rewrite L. reflexivity.
+    + rewrite ibv_dead_prefix by apply ctail_dead. rewrite IH. rewrite cseq_cons. unfold cblk. rewrite L. reflexivity.
+  - rewrite ibv_dead_prefix by apply ctail_dead. rewrite IH. rewrite cseq_cons. unfold cblk. rewrite L. reflexivity.
+Qed.
+
+Lemma cseq_delvis bs pos :
+  delete_visible (cseq bs) pos = (cseq (fst (bdel bs pos)), snd (bdel bs pos)).
+Proof.
+  revert pos. induction bs as [| b r IH]; intros pos; [reflexivity |].
+  rewrite cseq_cons. unfold cblk at 1. cbn [app delete_visible u_del mk bdel].
+  destruct (b_live b) eqn:L; cbn [negb].
+  - destruct pos as [| p].
+    + cbn [fst snd]. rewrite cseq_cons. reflexivity.
+    + rewrite delvis_dead_prefix by apply ctail_dead. rewrite IH. destruct (bdel r p) as [r' o]. cbn [fst snd].
+      rewrite cseq_cons. unfold cblk. rewrite L. reflexivity.
+  - rewrite delvis_dead_prefix by apply ctail_dead. rewrite IH. destruct (bdel r pos) as [r' o]. cbn [fst snd].
+    rewrite cseq_cons. unfold cblk. rewrite L. reflexivity.
+Qed.
+
+(* ---- generic facts on umark_deleted / redo_in_seq / ufind ---- *)
+Lemma set_del_dead y : u_del y = true -> set_del y = y.
+Proof. destruct y as [i v d r]. cbn. intros ->. reflexivity. Qed.
+Lemma umark_notin l h : ~ In h (ids l) -> umark_deleted l h = l.
+Proof.
+  induction l as [| y r IH]; cbn; intros H; auto. destruct (u_id y =? h) eqn:E.
+  - apply N.eqb_eq in E. exfalso. apply H. left. auto.
+  - rewrite IH; auto.
+Qed.
+Lemma umark_app_notin l1 l2 h : ~ In h (ids l1) -> umark_deleted (l1 ++ l2) h = l1 ++ umark_deleted l2 h.
+Proof.
+  induction l1 as [| y r IH]; cbn; intros H; auto. destruct (u_id y =? h) eqn:E.
+  - apply N.eqb_eq in E. exfalso. apply H. left. auto.
+  - rewrite IH; auto.
+Qed.
+Lemma umark_app_in l1 l2 h : In h (ids l1) -> umark_deleted (l1 ++ l2) h = umark_deleted l1 h ++ l2.
+Proof.
+  induction l1 as [| y r IH]; cbn; intros H; [destruct H |]. destruct (u_id y =? h) eqn:E; auto.
+  destruct H as [H | H]; [apply N.eqb_neq in E; contradiction |]. rewrite IH; auto.
+Qed.
+Lemma umark_dead l h : (forall y, In y l -> u_del y = true) -> umark_deleted l h = l.
+Proof.
+  induction l as [| y r IH]; cbn; intros H; auto. destruct (u_id y =? h).
+  - rewrite set_del_dead; auto.
+  - rewrite IH; auto.
+Qed.
+Lemma redo_seq_app_notin l1 l2 j f : ~ In j (ids l1) ->
+  redo_in_seq (l1 ++ l2) j f = (l1 ++ fst (redo_in_seq l2 j f), snd (redo_in_seq l2 j f)).
+Proof.
+  induction l1 as [| y r IH]; cbn; intros H.
+  - destruct (redo_in_seq l2 j f); reflexivity.
+  - destruct (u_id y =? j) eqn:E.
+    + apply N.eqb_eq in E. exfalso. apply H. left. auto.
+    + rewrite IH; auto.
+Qed.
+Lemma ufind_nodup l y : NoDup (ids l) -> In y l -> ufind l (u_id y) = Some y.
+Proof.
+  induction l as [| z r IH]; cbn; intros ND H; [destruct H |]. inversion ND; subst.
+  destruct H as [-> | H]; [rewrite N.eqb_refl; reflexivity |].
+  destruct (u_id z =? u_id y) eqn:E; auto.
+  apply N.eqb_eq in E. exfalso. apply H2. rewrite E. apply in_map; auto.
+Qed.
+Lemma existsb_id_iff l i : existsb (fun z => u_id z =? i) l = true <-> In i (ids l).
+Proof.
+  rewrite existsb_exists, in_map_iff. split.
+  - intros (x & H & E). apply N.eqb_eq in E. eauto.
+  - intros (x & E & H). exists x. split; auto. apply N.eqb_eq; auto.
+Qed.
+Lemma existsb_id_false l i : ~ In i (ids l) -> existsb (fun z => u_id z =? i) l = false.
+Proof. intros H. destruct (existsb _ l) eqn:E; auto. apply existsb_id_iff in E. contradiction. Qed.
+
+(* ---- sequence: marking and re-creating ---- *)
+Definition bmark (bs : list blk) (h : N) : list blk := map (fun b => if b_hd b =? h then kill b else b) bs.
+Definition bredo (bs : list blk) (j fresh : N) : list blk := map (fun b => if b_hd b =? j then recopy b fresh else b) bs.
+
+Lemma bmark_notin bs h : (forall b, In b bs -> b_hd b <> h) -> bmark bs h = bs.
+Proof.
+  unfold bmark. induction bs as [| b r IH]; cbn; intros H; auto. rewrite IH by (intros; apply H; right; auto).
+  destruct (b_hd b =? h) eqn:E; auto. apply N.eqb_eq in E. exfalso. apply (H b); auto.
+Qed.
+Lemma bredo_notin bs j f : (forall b, In b bs -> b_hd b <> j) -> bredo bs j f = bs.
+Proof.
+  unfold bredo. induction bs as [| b r IH]; cbn; intros H; auto. rewrite IH by (intros; apply H; right; auto).
+  destruct (b_hd b =? j) eqn:E; auto. apply N.eqb_eq in E. exfalso. apply (H b); auto.
+Qed.
+Lemma in_flat_ids b bs i : In b bs -> In i (b_ids b) -> In i (flat_map b_ids bs).
+Proof. intros H1 H2. apply in_flat_map. eauto. Qed.
+
+Lemma cseq_umark bs h : NoDup (flat_map b_ids bs) -> umark_deleted (cseq bs) h = cseq (bmark bs h).
+Proof.
+  induction bs as [| b r IH]; intros ND; [reflexivity |].
+  cbn [flat_map] in ND. pose proof (nodup_app_r _ _ ND) as NDr.
+  rewrite cseq_cons. cbn [bmark map]. fold (bmark r h). rewrite cseq_cons.
+  destruct (b_hd b =? h) eqn:E.
+  - apply N.eqb_eq in E. rewrite umark_app_in by (rewrite cblk_ids; left; auto).
+    rewrite bmark_notin.
+    + f_equal. unfold cblk. cbn. rewrite E, N.eqb_refl. reflexivity.
+    + intros b' Hb' E'. apply (nodup_app_disj _ _ h ND); [left; auto | eapply in_flat_ids; eauto; left; auto].
+  - destruct (in_dec N.eq_dec h (b_tl b)) as [I | NI].
+    + rewrite umark_app_in by (rewrite cblk_ids; right; auto).
+      rewrite bmark_notin.
+      * f_equal. unfold cblk. cbn. rewrite E. f_equal. apply umark_dead. apply ctail_dead.
+      * intros b' Hb' E'. apply (nodup_app_disj _ _ h ND); [right; auto | eapply in_flat_ids; eauto; left; auto].
+    + rewrite umark_app_notin.
+      * rewrite IH; auto.
+      * rewrite cblk_ids. intros [F | F]; [apply N.eqb_neq in E; auto | auto].
+Qed.
+
+Lemma cseq_redo bs j fresh :
+  NoDup (flat_map b_ids bs) -> (exists b, In b bs /\ b_hd b = j /\ b_live b = false) ->
+  redo_in_seq (cseq bs) j fresh = (cseq (bredo bs j fresh), true).
+Proof.
+  induction bs as [| b r IH]; intros ND (b0 & Hb0 & E0 & L0); [destruct Hb0 |].
+  cbn [flat_map] in ND. pose proof (nodup_app_r _ _ ND) as NDr.
+  rewrite cseq_cons. cbn [bredo map]. fold (bredo r j fresh). rewrite cseq_cons.
+  destruct (b_hd b =? j) eqn:E.
+  - apply N.eqb_eq in E. assert (b0 = b) as ->.
+    { destruct Hb0 as [<- | Hb0]; auto. exfalso.
+      apply (nodup_app_disj _ _ j ND); [left; auto | eapply in_flat_ids; eauto; left; auto]. }
+    rewrite bredo_notin.
+    + unfold cblk. cbn. rewrite E, N.eqb_refl, L0. cbn. reflexivity.
+    + intros b' Hb' E'. apply (nodup_app_disj _ _ j ND); [left; auto | eapply in_flat_ids; eauto; left; auto].
+  - destruct Hb0 as [<- | Hb0]; [apply N.eqb_neq in E; contradiction |].
+    rewrite redo_seq_app_notin.
+    + rewrite IH; eauto.
+    + rewrite cblk_ids. intros F. apply (nodup_app_disj _ _ j ND); auto. eapply in_flat_ids; eauto. left; auto.
+Qed.
+
+Lemma bmark_ids bs h : flat_map b_ids (bmark bs h) = flat_map b_ids bs.
+Proof. unfold bmark. induction bs as [| b r IH]; cbn; auto. rewrite IH. destruct (b_hd b =? h); reflexivity. Qed.
+
+
+
+Lemma u_id_mk i v d r : u_id (mk i v d r) = i. Proof. reflexivity. Qed.
+Lemma u_val_mk i v d r : u_val (mk i v d r) = v. Proof. reflexivity. Qed.
+Lemma u_del_mk i v d r : u_del (mk i v d r) = d. Proof. reflexivity. Qed.
+Lemma u_red_mk i v d r : u_red (mk i v d r) = r. Proof. reflexivity. Qed.
+
+(* ---- map chains ---- *)
+Notation aids := (map a_id).
+Definition akill (x : aunit) : aunit := {| a_id := a_id x; a_rt := a_rt x; a_val := a_val x; a_del := true |}.
+Definition cunit (x : aunit) (r : option N) : uitem := mk (a_id x) (a_val x) (a_del x) r.
+
+Lemma u_id_cunit x r : u_id (cunit x r) = a_id x. Proof. reflexivity. Qed.
+Lemma u_red_cunit x r : u_red (cunit x r) = r. Proof. reflexivity. Qed.
+Lemma u_del_cunit x r : u_del (cunit x r) = a_del x. Proof. reflexivity. Qed.
+Lemma u_val_cunit x r : u_val (cunit x r) = a_val x. Proof. reflexivity. Qed.
+
+Fixpoint adel_last (c : list aunit) : list aunit * option N :=
+  match c with
+  | [] => ([], None)
+  | y :: r => match r with
+              | [] => if a_del y then ([y], None) else ([akill y], Some (a_id y))
+              | _ => let '(r', o) := adel_last r in (y :: r', o)
+              end
+  end.
+Fixpoint last_same (r : N) (l : list aunit) : option N :=
+  match l with
+  | [] => None
+  | x :: t => match last_same r t with Some j => Some j | None => if a_rt x =? r then Some (a_id x) else None end
+  end.
+
+Lemma cchain_ids c : ids (cchain c) = aids c.
+Proof. induction c as [| x t IH]; cbn; auto. rewrite IH. reflexivity. Qed.
+Lemma cchain_length c : length (cchain c) = length c.
+Proof. induction c as [| x t IH]; cbn; auto. Qed.
+
+Lemma adel_last_snoc c0 w : adel_last (c0 ++ [w]) = (c0 ++ [if a_del w then w else akill w], if a_del w then None else Some (a_id w)).
+Proof.
+  induction c0 as [| y r IH]; cbn.
+  - destruct (a_del w); reflexivity.
+  - rewrite IH. destruct (r ++ [w]) eqn:E; [destruct r; discriminate | reflexivity].
+Qed.
+Lemma adel_last_nil : adel_last [] = ([], None).
+Proof. reflexivity. Qed.
+
+Lemma next_same_app r l1 l2 : next_same r (l1 ++ l2) = match next_same r l1 with Some i => Some i | None => next_same r l2 end.
+Proof. induction l1 as [| x t IH]; cbn; auto. destruct (a_rt x =? r); auto. Qed.
+
+(* the concrete chain of c0 ++ [w] when only the deletion flag of w changes *)
+Lemma cchain_snoc_flag c0 w w' : a_id w' = a_id w -> a_rt w' = a_rt w -> a_val w' = a_val w ->
+  exists p, cchain (c0 ++ [w]) = p ++ [cunit w None] /\ cchain (c0 ++ [w']) = p ++ [cunit w' None].
+Proof.
+  intros E1 E2 E3. induction c0 as [| y r IH]; cbn.
+  - exists []. split; reflexivity.
+  - destruct IH as (p & A & B). rewrite A, B.
+    exists (mk (a_id y) (a_val y) (a_del y) (next_same (a_rt y) (r ++ [w])) :: p). split; [reflexivity |].
+    rewrite !next_same_app. cbn. rewrite E1, E2. reflexivity.
+Qed.
+
+Lemma cchain_delete_last c : delete_last (cchain c) = (cchain (fst (adel_last c)), snd (adel_last c)).
+Proof.
+  destruct (list_last_case c) as [-> | (c0 & w & ->)]; [reflexivity |].
+  rewrite adel_last_snoc. cbn [fst snd].
+  destruct (a_del w) eqn:D.
+  - destruct (cchain_snoc_flag c0 w w eq_refl eq_refl eq_refl) as (p & A & _). rewrite A.
+    rewrite delete_last_app. unfold cunit. cbn. rewrite D. reflexivity.
+  - destruct (cchain_snoc_flag c0 w (akill w) eq_refl eq_refl eq_refl) as (p & A & B). rewrite A, B.
+    rewrite delete_last_app. unfold cunit. cbn. rewrite D. reflexivity.
+Qed.
+
+Lemma last_same_none_next r l : last_same r l = None -> next_same r l = None.
+Proof.
+  induction l as [| x t IH]; cbn; auto. destruct (last_same r t); [discriminate |].
+  destruct (a_rt x =? r); [discriminate | auto].
+Qed.
+Lemma last_same_some_next r l j : last_same r l = Some j -> exists i, next_same r l = Some i.
+Proof.
+  revert j. induction l as [| x t IH]; intros j; cbn; [discriminate |]. destruct (a_rt x =? r); [intros _; eauto |].
+  destruct (last_same r t) as [j0 |]; [| discriminate]. intros _. apply (IH j0). reflexivity.
+Qed.
+Lemma last_same_in r l j : last_same r l = Some j -> In j (aids l).
+Proof.
+  induction l as [| x t IH]; cbn; [discriminate |]. destruct (last_same r t) as [j' |].
+  - intros H; inversion H; subst. right. auto.
+  - destruct (a_rt x =? r); [| discriminate]. intros H; inversion H; subst. left; auto.
+Qed.
+
+Lemma map_setred_notin (cc : list uitem) j f : ~ In j (ids cc) -> map (fun z => if u_id z =? j then set_red z f else z) cc = cc.
+Proof.
+  induction cc as [| y r IH]; cbn; intros H; auto. destruct (u_id y =? j) eqn:E.
+  - apply N.eqb_eq in E. exfalso. apply H. left; auto.
+  - rewrite IH; auto.
+Qed.
+
+Lemma cchain_snoc c x : NoDup (aids c) ->
+  cchain (c ++ [x]) =
+  match last_same (a_rt x) c with
+  | Some j => map (fun z => if u_id z =? j then set_red z (a_id x) else z) (cchain c)
+  | None => cchain c
+  end ++ [cunit x None].
+Proof.
+  induction c as [| y r IH]; intros ND; [reflexivity |]. inversion ND; subst.
+  cbn [app cchain last_same]. rewrite IH by auto. rewrite next_same_app. cbn [next_same].
+  destruct (last_same (a_rt x) r) as [j |] eqn:LS.
+  - cbn [map app]. f_equal. rewrite u_id_mk.
+    assert (a_id y =? j = false) as ->.
+    { apply N.eqb_neq. intros EQ. subst j. apply H1. eapply last_same_in; eauto. }
+    destruct (a_rt x =? a_rt y) eqn:R.
+    + apply N.eqb_eq in R. rewrite <- R. destruct (last_same_some_next _ _ _ LS) as (i & ->). reflexivity.
+    + destruct (next_same (a_rt y) r); reflexivity.
+  - destruct (a_rt y =? a_rt x) eqn:R.
+    + cbn [map app]. rewrite u_id_mk. rewrite N.eqb_refl. apply N.eqb_eq in R. rewrite R.
+      rewrite (last_same_none_next _ _ LS). rewrite N.eqb_refl.
+      rewrite map_setred_notin; [reflexivity |]. rewrite cchain_ids. auto.
+    + cbn [app]. f_equal. rewrite N.eqb_sym, R. destruct (next_same (a_rt y) r); reflexivity.
+Qed.
+
+Definition amark (c : list aunit) (h : N) : list aunit := map (fun x => if a_id x =? h then akill x else x) c.
+Lemma next_same_amark r c h : next_same r (amark c h) = next_same r c.
+Proof. unfold amark. induction c as [| x t IH]; cbn; auto. rewrite IH. destruct (a_id x =? h); reflexivity. Qed.
+Lemma amark_notin c h : ~ In h (aids c) -> amark c h = c.
+Proof.
+  unfold amark. induction c as [| x t IH]; cbn; intros H; auto. rewrite IH by auto.
+  destruct (a_id x =? h) eqn:E; auto. apply N.eqb_eq in E. exfalso. apply H. left; auto.
+Qed.
+Lemma amark_ids c h : aids (amark c h) = aids c.
+Proof. unfold amark. induction c as [| x t IH]; cbn; auto. rewrite IH. destruct (a_id x =? h); reflexivity. Qed.
+Lemma cchain_umark c h : NoDup (aids c) -> umark_deleted (cchain c) h = cchain (amark c h).
+Proof.
+  induction c as [| x t IH]; intros ND; [reflexivity |]. inversion ND; subst.
+  cbn [cchain umark_deleted]. rewrite u_id_mk. unfold amark. cbn [map]. fold (amark t h).
+  destruct (a_id x =? h) eqn:E.
+  - apply N.eqb_eq in E. subst h. rewrite amark_notin by auto. reflexivity.
+  - cbn [cchain]. rewrite next_same_amark, IH by auto. reflexivity.
+Qed.
+
+Lemma delete_last_map_setred cc j f :
+  delete_last (map (fun z => if u_id z =? j then set_red z f else z) cc) =
+  (map (fun z => if u_id z =? j then set_red z f else z) (fst (delete_last cc)), snd (delete_last cc)).
+Proof.
+  destruct (list_last_case cc) as [-> | (c0 & w & ->)]; [reflexivity |].
+  rewrite map_app. cbn [map]. rewrite !delete_last_app. cbn [fst snd]. rewrite map_app. cbn [map].
+  destruct (u_id w =? j) eqn:E; cbn; destruct (u_del w) eqn:D; cbn; rewrite ?E; reflexivity.
+Qed.
+
+(* ---- key lookup on the concretised map ---- *)
+Fixpoint achain_of (m : list (N * list aunit)) (k : N) : list aunit :=
+  match m with [] => [] | (k', c) :: r => if k' =? k then c else achain_of r k end.
+Fixpoint aset_chain (m : list (N * list aunit)) (k : N) (c : list aunit) : list (N * list aunit) :=
+  match m with
+  | [] => [(k, c)]
+  | (k', c') :: r => if k' =? k then (k, c) :: r else (k', c') :: aset_chain r k c
+  end.
+Lemma cmap_chain_of m k : chain_of (cmap m) k = cchain (achain_of m k).
+Proof. unfold cmap. induction m as [| [k' c] r IH]; cbn; auto. destruct (k' =? k); auto. Qed.
+Lemma cmap_set_chain m k c : set_chain (cmap m) k (cchain c) = cmap (aset_chain m k c).
+Proof. unfold cmap. induction m as [| [k' c'] r IH]; cbn; auto. destruct (k' =? k); cbn; [reflexivity | rewrite IH; reflexivity]. Qed.
+
+(* ---- following redone pointers ---- *)
+Lemma ufollow_mono f items i w : ufollow f items i = Some w -> forall f', (f <= f')%nat -> ufollow f' items i = Some w.
+Proof.
+  revert i. induction f as [| f IH]; intros i H f' L; [discriminate |].
+  destruct f' as [| f']; [lia |]. cbn in *. destruct (ufind items i) as [y |]; [| discriminate].
+  destruct (u_red y); auto. apply IH; auto. lia.
+Qed.
+
+Fixpoint lastu (r : N) (l : list aunit) : option aunit :=
+  match l with
+  | [] => None
+  | x :: t => match lastu r t with Some w => Some w | None => if a_rt x =? r then Some x else None end
+  end.
+Lemma last_same_lastu r l : last_same r l = option_map a_id (lastu r l).
+Proof. induction l as [| x t IH]; cbn; auto. rewrite IH. destruct (lastu r t); cbn; auto. destruct (a_rt x =? r); reflexivity. Qed.
+Lemma lastu_app r l1 l2 : lastu r (l1 ++ l2) = match lastu r l2 with Some w => Some w | None => lastu r l1 end.
+Proof.
+  induction l1 as [| x t IH]; cbn; [destruct (lastu r l2); reflexivity |].
+  rewrite IH. destruct (lastu r l2); reflexivity.
+Qed.
+Lemma lastu_in r l w : lastu r l = Some w -> In w l /\ a_rt w = r.
+Proof.
+  induction l as [| x t IH]; cbn; [discriminate |]. destruct (lastu r t) as [w' |].
+  - intros H; inversion H; subst. destruct (IH eq_refl). auto.
+  - destruct (a_rt x =? r) eqn:E; [| discriminate]. intros H; inversion H; subst. apply N.eqb_eq in E. auto.
+Qed.
+Lemma lastu_none r l : lastu r l = None -> forall z, In z l -> a_rt z <> r.
+Proof.
+  induction l as [| x t IH]; cbn; [intros _ z [] |]. destruct (lastu r t); [discriminate |].
+  destruct (a_rt x =? r) eqn:E; [discriminate |]. intros _ z [<- | H]; [apply N.eqb_neq; auto | apply IH; auto].
+Qed.
+Lemma lastu_none_of r l : (forall z, In z l -> a_rt z <> r) -> lastu r l = None.
+Proof.
+  induction l as [| x t IH]; cbn; intros H; auto. rewrite IH by (intros; apply H; right; auto).
+  destruct (a_rt x =? r) eqn:E; auto. apply N.eqb_eq in E. exfalso. apply (H x); auto.
+Qed.
+Lemma next_same_split r l i : next_same r l = Some i ->
+  exists m1 x' m2, l = m1 ++ x' :: m2 /\ a_id x' = i /\ a_rt x' = r /\ (forall z, In z m1 -> a_rt z <> r).
+Proof.
+  induction l as [| x t IH]; cbn; [discriminate |]. destruct (a_rt x =? r) eqn:E.
+  - intros H; inversion H; subst. apply N.eqb_eq in E. exists [], x, t. repeat split; auto; intros z [].
+  - intros H. destruct (IH H) as (m1 & x' & m2 & -> & A & B & C). exists (x :: m1), x', m2. repeat split; auto.
+    intros z [<- | Hz]; [apply N.eqb_neq; auto | auto].
+Qed.
+Lemma next_same_none r l : next_same r l = None -> forall z, In z l -> a_rt z <> r.
+Proof.
+  induction l as [| x t IH]; cbn; [intros _ z [] |]. destruct (a_rt x =? r) eqn:E; [discriminate |].
+  intros H z [<- | Hz]; [apply N.eqb_neq; auto | auto].
+Qed.
+
+Lemma cchain_suffix l1 l : exists p, cchain (l1 ++ l) = p ++ cchain l /\ ids p = aids l1.
+Proof.
+  induction l1 as [| x t IH]; cbn.
+  - exists []. auto.
+  - destruct IH as (p & -> & E). eexists (_ :: p). split; [reflexivity |]. cbn. rewrite E. reflexivity.
+Qed.
+Lemma cchain_in_mid l1 x l2 : In (cunit x (next_same (a_rt x) l2)) (cchain (l1 ++ x :: l2)).
+Proof.
+  destruct (cchain_suffix l1 (x :: l2)) as (p & -> & _). apply in_or_app. right. left. reflexivity.
+Qed.
+
+Lemma follow_chain items c :
+  (forall y, In y (cchain c) -> ufind items (u_id y) = Some y) ->
+  forall n l1 x l2 w, length l2 = n -> c = l1 ++ x :: l2 -> lastu (a_rt x) (x :: l2) = Some w ->
+  forall f, (n < f)%nat -> ufollow f items (a_id x) = Some (cunit w None).
+Proof.
+  intros HF n. induction n as [n IH] using lt_wf_ind. intros l1 x l2 w Ln -> LW f Lf.
+  destruct f as [| f]; [lia |]. cbn [ufollow].
+  pose proof (HF _ (cchain_in_mid l1 x l2)) as F. rewrite u_id_cunit in F. rewrite F. rewrite u_red_cunit.
+  destruct (next_same (a_rt x) l2) as [i |] eqn:NS.
+  - destruct (next_same_split _ _ _ NS) as (m1 & x' & m2 & -> & A & B & C). subst i.
+    assert (Lm : (length m2 < n)%nat) by (rewrite app_length in Ln; cbn in Ln; lia).
+    apply (IH (length m2) Lm (l1 ++ x :: m1) x' m2 w eq_refl).
+    + rewrite <- app_assoc. reflexivity.
+    + rewrite B. cbn [lastu] in LW. rewrite lastu_app in LW. cbn [lastu] in LW.
+      cbn [lastu]. destruct (lastu (a_rt x) m2) as [w' |]; auto.
+      rewrite B, N.eqb_refl in *. auto.
+    + lia.
+  - cbn [lastu] in LW. rewrite (lastu_none_of _ _ (next_same_none _ _ NS)) in LW. rewrite N.eqb_refl in LW.
+    inversion LW; subst. reflexivity.
+Qed.
+
+Lemma follow_ctail items v : forall t h f0 w,
+  ufollow f0 items h = Some w ->
+  (forall y, In y (ctail h t v) -> ufind items (u_id y) = Some y) ->
+  forall k i, nth_error t k = Some i -> ufollow (f0 + k + 1) items i = Some w.
+Proof.
+  induction t as [| i0 t IH]; intros h f0 w F HF k i Hk; [destruct k; discriminate |].
+  cbn [ctail] in HF.
+  assert (F0 : ufollow (S f0) items i0 = Some w).
+  { cbn [ufollow]. pose proof (HF _ (or_introl eq_refl)) as E. rewrite u_id_mk in E. rewrite E, u_red_mk. exact F. }
+  destruct k as [| k]; cbn in Hk.
+  - inversion Hk; subst. replace (f0 + 0 + 1)%nat with (S f0) by lia. exact F0.
+  - replace (f0 + S k + 1)%nat with (S f0 + k + 1)%nat by lia.
+    eapply IH; eauto. intros y Hy. apply HF. right; auto.
+Qed.
+
+Definition hunit (b : blk) : uitem := mk (b_hd b) (b_val b) (negb (b_live b)) None.
+Lemma follow_blk items b i f :
+  (forall y, In y (cblk b) -> ufind items (u_id y) = Some y) ->
+  In i (b_ids b) -> (length (b_tl b) < f)%nat -> ufollow f items i = Some (hunit b).
+Proof.
+  intros HF Hi Lf.
+  assert (F1 : ufollow 1 items (b_hd b) = Some (hunit b)).
+  { cbn [ufollow]. pose proof (HF (hunit b) (or_introl eq_refl)) as E. unfold hunit in E at 1. rewrite u_id_mk in E.
+    rewrite E. unfold hunit. rewrite u_red_mk. reflexivity. }
+  destruct Hi as [<- | Hi].
+  - eapply ufollow_mono; eauto. lia.
+  - apply In_nth_error in Hi. destruct Hi as (k & Hk).
+    pose proof (follow_ctail items (b_val b) (b_tl b) (b_hd b) 1 (hunit b) F1) as K.
+    eapply ufollow_mono; [eapply K; eauto |].
+    + intros y Hy. apply HF. right. exact Hy.
+    + assert (k < length (b_tl b))%nat by (apply nth_error_Some; congruence). lia.
+Qed.
+
+
+
+(* ---- whole abstract states ---- *)
+Definition aunits (a : astate) : list aunit := flat_map snd (a_map a).
+Definition seq_ids (a : astate) : list N := flat_map b_ids (a_seq a).
+Definition a_ids (a : astate) : list N := seq_ids a ++ aids (aunits a).
+
+Lemma cmap_items m : flat_map snd (cmap m) = flat_map (fun kc => cchain (snd kc)) m.
+Proof. unfold cmap. induction m as [| [k c] r IH]; cbn; auto. rewrite IH. reflexivity. Qed.
+Lemma cmap_ids m : ids (flat_map snd (cmap m)) = aids (flat_map snd m).
+Proof. rewrite cmap_items. induction m as [| [k c] r IH]; cbn; auto. rewrite !map_app, IH, cchain_ids. reflexivity. Qed.
+Lemma conc_all_ids a nx us rs : all_ids (conc a nx us rs) = a_ids a.
+Proof. unfold all_ids, all_items, a_ids, seq_ids, aunits. cbn. rewrite map_app, cseq_ids, cmap_ids. reflexivity. Qed.
+Lemma cmap_keys m : map fst (cmap m) = map fst m.
+Proof. unfold cmap. rewrite map_map. reflexivity. Qed.
+
+Lemma umem_iff i l : umem i l = true <-> In i l.
+Proof.
+  unfold umem. rewrite existsb_exists. split.
+  - intros (x & H & E). apply N.eqb_eq in E. subst. auto.
+  - intros H. exists i. split; auto. apply N.eqb_refl.
+Qed.
+Lemma umem_false i l : umem i l = false <-> ~ In i l.
+Proof. rewrite <- umem_iff. destruct (umem i l); split; intros; try discriminate; auto. exfalso; auto. Qed.
+
+Definition blk_of (a : astate) (i : N) : option blk := find (fun b => umem i (b_ids b)) (a_seq a).
+Definition unit_of (a : astate) (i : N) : option aunit := find (fun x => a_id x =? i) (aunits a).
+Definition rt_of (a : astate) (i : N) : option N :=
+  match blk_of a i with Some b => Some (b_rt b) | None => option_map a_rt (unit_of a i) end.
+Definition roots (a : astate) (l : list N) : list N :=
+  flat_map (fun i => match rt_of a i with Some r => [r] | None => [] end) l.
+Definition live (a : astate) : list N :=
+  map b_rt (filter b_live (a_seq a)) ++ map a_rt (filter (fun x => negb (a_del x)) (aunits a)).
+Definition to_redo_of (E : stackitem) : list N := filter (fun i => negb (umem i (st_ins E))) (st_del E).
+Definition tau (a : astate) (E : stackitem) (S : list N) : list N :=
+  filter (fun r => negb (umem r (roots a (st_ins E)))) S ++ roots a (to_redo_of E).
+Definition render (a : astate) (S : list N) : ucont :=
+  (map b_val (filter (fun b => umem (b_rt b) S) (a_seq a)),
+   flat_map (fun kc => match find (fun x => umem (a_rt x) S) (snd kc) with Some x => [(fst kc, a_val x)] | None => [] end) (a_map a)).
+Definition seteq (S S' : list N) : Prop := forall r, In r S <-> In r S'.
+
+Lemma in_roots a l r : In r (roots a l) <-> exists i, In i l /\ rt_of a i = Some r.
+Proof.
+  unfold roots. rewrite in_flat_map. split.
+  - intros (i & Hi & H). destruct (rt_of a i) as [r' |] eqn:E; [| destruct H]. destruct H as [<- | []]. eauto.
+  - intros (i & Hi & E). exists i. split; auto. rewrite E. left; auto.
+Qed.
+Lemma in_tau a E S r : In r (tau a E S) <->
+  (In r S /\ ~ In r (roots a (st_ins E))) \/ In r (roots a (to_redo_of E)).
+Proof.
+  unfold tau. rewrite in_app_iff, filter_In, negb_true_iff, umem_false. tauto.
+Qed.
+Lemma in_to_redo E i : In i (to_redo_of E) <-> In i (st_del E) /\ ~ In i (st_ins E).
+Proof. unfold to_redo_of. rewrite filter_In, negb_true_iff, umem_false. tauto. Qed.
+
+Lemma seteq_refl S : seteq S S. Proof. intros r; tauto. Qed.
+Lemma seteq_sym S S' : seteq S S' -> seteq S' S. Proof. intros H r; rewrite (H r); tauto. Qed.
+Lemma seteq_trans S1 S2 S3 : seteq S1 S2 -> seteq S2 S3 -> seteq S1 S3.
+Proof. intros H1 H2 r; rewrite (H1 r), (H2 r); tauto. Qed.
+Lemma tau_seteq a E S S' : seteq S S' -> seteq (tau a E S) (tau a E S').
+Proof. intros H r. rewrite !in_tau, (H r). tauto. Qed.
+
+Lemma umem_seteq S S' r : seteq S S' -> umem r S = umem r S'.
+Proof.
+  intros H. destruct (umem r S) eqn:E1, (umem r S') eqn:E2; auto.
+  - apply umem_iff in E1. apply H in E1. apply umem_iff in E1. congruence.
+  - apply umem_iff in E2. apply H in E2. apply umem_iff in E2. congruence.
+Qed.
+Lemma render_seteq a S S' : seteq S S' -> render a S = render a S'.
+Proof.
+  intros H. unfold render. f_equal.
+  - f_equal. apply filter_ext. intros b. apply umem_seteq; auto.
+  - apply flat_map_ext. intros [k c]. cbn.
+    assert (find (fun x => umem (a_rt x) S) c = find (fun x => umem (a_rt x) S') c) as ->; auto.
+    induction c as [| x t IH]; cbn; auto. rewrite (umem_seteq S S' _ H), IH. reflexivity.
+Qed.
+
+Fixpoint incr (l : list N) : Prop := match l with [] => True | i :: t => (forall j, In j t -> i < j) /\ incr t end.
+Lemma incr_snoc l n : incr (l ++ [n]) <-> incr l /\ (forall i, In i l -> i < n).
+Proof.
+  induction l as [| i t IH]; cbn.
+  - split; [intros _; split; auto; intros i [] | intros _; split; auto; intros j []].
+  - rewrite IH. split.
+    + intros (A & B & C). repeat split; auto.
+      * intros j Hj. apply A. apply in_or_app; auto.
+      * intros j [<- | Hj]; auto. apply A. apply in_or_app; right; left; auto.
+    + intros ((A & B) & C). repeat split; auto. intros j Hj. apply in_app_or in Hj. destruct Hj as [Hj | [<- | []]]; auto.
+Qed.
+
+Record WF (a : astate) (nx : N) : Prop := {
+  wf_nodup : NoDup (a_ids a);
+  wf_lt : forall i, In i (a_ids a) -> i < nx;
+  wf_keys : NoDup (map fst (a_map a));
+  wf_rseq : NoDup (map b_rt (a_seq a));
+  wf_rsm : forall b x, In b (a_seq a) -> In x (aunits a) -> b_rt b <> a_rt x;
+  wf_rmap : forall k1 c1 k2 c2 x1 x2, In (k1, c1) (a_map a) -> In (k2, c2) (a_map a) -> In x1 c1 -> In x2 c2 -> a_rt x1 = a_rt x2 -> k1 = k2;
+  wf_rlt : forall r, In r (map b_rt (a_seq a) ++ map a_rt (aunits a)) -> r < nx;
+  wf_clive : forall k c l1 x l2, In (k, c) (a_map a) -> c = l1 ++ x :: l2 -> l2 <> [] -> a_del x = true;
+  wf_cval : forall k c x y, In (k, c) (a_map a) -> In x c -> In y c -> a_rt x = a_rt y -> a_val x = a_val y;
+  wf_incr : forall k c, In (k, c) (a_map a) -> incr (aids c) }.
+
+Lemma in_live a r : In r (live a) <->
+  (exists b, In b (a_seq a) /\ b_live b = true /\ b_rt b = r) \/ (exists x, In x (aunits a) /\ a_del x = false /\ a_rt x = r).
+Proof.
+  unfold live. rewrite in_app_iff, !in_map_iff. split.
+  - intros [(b & E & H) | (x & E & H)]; apply filter_In in H; destruct H as (H & L).
+    + left. eauto.
+    + right. apply negb_true_iff in L. eauto.
+  - intros [(b & H & L & E) | (x & H & L & E)].
+    + left. exists b. split; auto. apply filter_In. auto.
+    + right. exists x. split; auto. apply filter_In. split; auto. rewrite L. reflexivity.
+Qed.
+Lemma in_aunits a x : In x (aunits a) <-> exists k c, In (k, c) (a_map a) /\ In x c.
+Proof.
+  unfold aunits. rewrite in_flat_map. split.
+  - intros ([k c] & H & Hx). eauto.
+  - intros (k & c & H & Hx). exists (k, c). auto.
+Qed.
+
+Lemma achain_of_in m k c : NoDup (map fst m) -> In (k, c) m -> achain_of m k = c.
+Proof.
+  induction m as [| [k' c'] r IH]; cbn; intros ND H; [destruct H |]. inversion ND; subst.
+  destruct H as [H | H].
+  - inversion H; subst. rewrite N.eqb_refl. reflexivity.
+  - destruct (k' =? k) eqn:E; auto. apply N.eqb_eq in E. subst. exfalso. apply H2.
+    change k with (fst (k, c)). apply in_map; auto.
+Qed.
+Lemma flat_keys_ext {X} (G : list aunit -> N -> list X) m0 m :
+  (forall k c, In (k, c) m -> achain_of m0 k = c) ->
+  flat_map (fun k => G (achain_of m0 k) k) (map fst m) = flat_map (fun kc => G (snd kc) (fst kc)) m.
+Proof.
+  induction m as [| [k c] r IH]; cbn; intros H; auto. rewrite (H k c) by auto. rewrite IH; auto.
+Qed.
+
+Lemma umap_value_cchain m k : umap_value (cmap m) k =
+  match rev (achain_of m k) with x :: _ => if a_del x then None else Some (a_val x) | [] => None end.
+Proof.
+  unfold umap_value. rewrite cmap_chain_of.
+  destruct (list_last_case (achain_of m k)) as [-> | (c0 & w & ->)]; [reflexivity |].
+  destruct (cchain_snoc_flag c0 w w eq_refl eq_refl eq_refl) as (p & -> & _).
+  rewrite !rev_app_distr. cbn. reflexivity.
+Qed.
+
+Lemma live_chain_last a nx k c x : WF a nx -> In (k, c) (a_map a) -> In x c -> a_del x = false -> exists c0, c = c0 ++ [x].
+Proof.
+  intros W H Hx L. apply in_split in Hx. destruct Hx as (l1 & l2 & ->).
+  destruct l2 as [| y l2]; [eauto |]. exfalso.
+  rewrite (wf_clive _ _ W k _ l1 x (y :: l2) H eq_refl) in L; discriminate.
+Qed.
+
+Lemma flat_map_ext_in' {X Y} (f g : X -> list Y) l : (forall x, In x l -> f x = g x) -> flat_map f l = flat_map g l.
+Proof. induction l as [| x t IH]; cbn; intros H; auto. rewrite H, IH; auto. Qed.
+Lemma find_none_iff' {X} (f : X -> bool) l : (forall x, In x l -> f x = false) -> find f l = None.
+Proof. induction l as [| x t IH]; cbn; intros H; auto. rewrite H, IH; auto. Qed.
+
+Definition entry_of (kc : N * list aunit) : list (N * utok) :=
+  match rev (snd kc) with x :: _ => if a_del x then [] else [(fst kc, a_val x)] | [] => [] end.
+Lemma live_entries_gen m0 m :
+  (forall k c, In (k, c) m -> achain_of m0 k = c) ->
+  flat_map (fun k => match umap_value (cmap m0) k with Some v => [(k, v)] | None => [] end) (map fst m) = flat_map entry_of m.
+Proof.
+  induction m as [| [k c] r IH]; cbn [map flat_map]; intros H; auto.
+  rewrite IH by (intros; apply H; right; auto). f_equal.
+  cbn [fst]. rewrite umap_value_cchain, (H k c) by (left; auto). unfold entry_of. cbn [fst snd].
+  destruct (rev c) as [| x t]; auto. destruct (a_del x); reflexivity.
+Qed.
+Lemma live_entries_conc a nx us rs : NoDup (map fst (a_map a)) ->
+  live_entries (conc a nx us rs) = flat_map entry_of (a_map a).
+Proof.
+  intros ND. unfold live_entries, keys_of. cbn [mapc conc]. rewrite cmap_keys.
+  apply live_entries_gen. intros; apply achain_of_in; auto.
+Qed.
+
+Lemma cont_render a nx us rs : WF a nx -> cont (conc a nx us rs) = render a (live a).
+Proof.
+  intros W. unfold cont, render. f_equal.
+  - cbn [seqc conc]. rewrite cseq_uvisible. f_equal. apply filter_ext_in. intros b Hb.
+    destruct (b_live b) eqn:L; symmetry.
+    + apply umem_iff. apply in_live. left. eauto.
+    + apply umem_false. intros F. apply in_live in F. destruct F as [(b' & Hb' & L' & E) | (x & Hx & _ & E)].
+      * assert (b' = b) as ->; [| congruence].
+        pose proof (wf_rseq _ _ W) as ND. clear - ND Hb Hb' E. induction (a_seq a) as [| z t IH]; [destruct Hb |].
+        cbn in ND. inversion ND; subst. destruct Hb as [-> | Hb], Hb' as [-> | Hb']; auto.
+        -- exfalso. apply H1. rewrite <- E. apply in_map; auto.
+        -- exfalso. apply H1. rewrite E. apply in_map; auto.
+      * apply (wf_rsm _ _ W b x Hb Hx). auto.
+  - rewrite live_entries_conc by apply (wf_keys _ _ W).
+    apply flat_map_ext_in'. intros [k c] Hkc. unfold entry_of. cbn [fst snd].
+    destruct (list_last_case c) as [-> | (c0 & w & ->)]; [reflexivity |].
+    rewrite rev_app_distr. cbn [rev app].
+    destruct (a_del w) eqn:D.
+    + (* every unit of the chain is dead: no root of the chain is live *)
+      assert (find (fun x => umem (a_rt x) (live a)) (c0 ++ [w]) = None) as ->; auto.
+      apply find_none_iff'. intros x Hx. apply umem_false. intros F. apply in_live in F.
+      destruct F as [(b & Hb & _ & E) | (x' & Hx' & L' & E)].
+      * apply (wf_rsm _ _ W b x Hb); auto. apply in_aunits. eauto.
+      * apply in_aunits in Hx'. destruct Hx' as (k' & c' & Hc' & Hx').
+        assert (k' = k) as -> by (eapply (wf_rmap _ _ W); eauto).
+        assert (c' = c0 ++ [w]) as ->.
+        { rewrite <- (achain_of_in _ _ _ (wf_keys _ _ W) Hc'), <- (achain_of_in _ _ _ (wf_keys _ _ W) Hkc). reflexivity. }
+        destruct (live_chain_last _ _ _ _ _ W Hkc Hx' L') as (c1 & E1). apply app_inj_tail in E1. destruct E1 as (_ & <-). congruence.
+    + destruct (find (fun x => umem (a_rt x) (live a)) (c0 ++ [w])) as [x |] eqn:F.
+      * apply find_some in F. destruct F as (Hx & F). apply umem_iff in F. apply in_live in F.
+        destruct F as [(b & Hb & _ & E) | (x' & Hx' & L' & E)].
+        -- exfalso. apply (wf_rsm _ _ W b x Hb); auto. apply in_aunits. eauto.
+        -- apply in_aunits in Hx'. destruct Hx' as (k' & c' & Hc' & Hx').
+           assert (k' = k) as -> by (eapply (wf_rmap _ _ W); eauto).
+           assert (c' = c0 ++ [w]) as ->.
+           { rewrite <- (achain_of_in _ _ _ (wf_keys _ _ W) Hc'), <- (achain_of_in _ _ _ (wf_keys _ _ W) Hkc). reflexivity. }
+           destruct (live_chain_last _ _ _ _ _ W Hkc Hx' L') as (c1 & E1). apply app_inj_tail in E1. destruct E1 as (_ & <-).
+           rewrite (wf_cval _ _ W k _ x w Hkc Hx Hx'); auto.
+      * exfalso. eapply find_none in F; [| apply in_or_app; right; left; reflexivity].
+        apply umem_false in F. apply F. apply in_live. right. exists w. split; auto.
+        apply in_aunits. exists k, (c0 ++ [w]). split; auto. apply in_or_app; right; left; auto.
+Qed.
+
+
+
+(* ---- heads of lineages ---- *)
+Definition seq_head (bs : list blk) (h r : N) (lv : bool) : Prop :=
+  exists b, In b bs /\ b_hd b = h /\ b_rt b = r /\ b_live b = lv.
+Definition chain_head (c : list aunit) (h r : N) (lv : bool) : Prop :=
+  exists l1 x l2, c = l1 ++ x :: l2 /\ a_id x = h /\ a_rt x = r /\ a_del x = negb lv /\ (forall z, In z l2 -> a_rt z <> r).
+Definition map_head (m : list (N * list aunit)) (h r : N) (lv : bool) : Prop :=
+  exists k c, In (k, c) m /\ chain_head c h r lv.
+Definition is_head (a : astate) (h r : N) (lv : bool) : Prop :=
+  seq_head (a_seq a) h r lv \/ map_head (a_map a) h r lv.
+
+(* ---- the four abstract operations ---- *)
+Definition akill_id (a : astate) (h : N) : astate :=
+  {| a_seq := bmark (a_seq a) h; a_map := map (fun kc => (fst kc, amark (snd kc) h)) (a_map a) |}.
+Definition ains (a : astate) (pos : nat) (i : N) (v : utok) : astate :=
+  {| a_seq := bins (a_seq a) pos (newblk i v); a_map := a_map a |}.
+Definition acopy_seq (a : astate) (j f : N) : astate :=
+  {| a_seq := bredo (a_seq a) j f; a_map := a_map a |}.
+Definition aappend (a : astate) (k : N) (x : aunit) : astate :=
+  {| a_seq := a_seq a; a_map := aset_chain (a_map a) k (achain_of (a_map a) k ++ [x]) |}.
+
+(* ---- generic list facts about the sequence operations ---- *)
+Lemma in_bins bs pos b b' : In b' (bins bs pos b) <-> b' = b \/ In b' bs.
+Proof.
+  revert pos. induction bs as [| y r IH]; intros pos; cbn.
+  - intuition.
+  - destruct (b_live y).
+    + destruct pos as [| p]; cbn; [intuition |]. rewrite IH. intuition.
+    + cbn. rewrite IH. intuition.
+Qed.
+Lemma in_bmark bs h b' : In b' (bmark bs h) <-> exists b, In b bs /\ b' = (if b_hd b =? h then kill b else b).
+Proof. unfold bmark. rewrite in_map_iff. split; intros (b & A & B); exists b; auto. Qed.
+Lemma in_bredo bs j f b' : In b' (bredo bs j f) <-> exists b, In b bs /\ b' = (if b_hd b =? j then recopy b f else b).
+Proof. unfold bredo. rewrite in_map_iff. split; intros (b & A & B); exists b; auto. Qed.
+
+Lemma seq_head_bins bs pos i v h r lv :
+  seq_head (bins bs pos (newblk i v)) h r lv <-> seq_head bs h r lv \/ (h = i /\ r = i /\ lv = true).
+Proof.
+  unfold seq_head. split.
+  - intros (b & Hb & A & B & C). apply in_bins in Hb. destruct Hb as [-> | Hb]; [right; cbn in *; auto | left; eauto].
+  - intros [(b & Hb & A) | (-> & -> & ->)].
+    + exists b. split; auto. apply in_bins; auto.
+    + exists (newblk i v). split; [apply in_bins; auto | cbn; auto].
+Qed.
+Lemma seq_head_bmark bs h' h r lv :
+  seq_head (bmark bs h') h r lv <-> (seq_head bs h r lv /\ h <> h') \/ (h = h' /\ lv = false /\ exists lv0, seq_head bs h r lv0).
+Proof.
+  unfold seq_head. split.
+  - intros (b' & Hb & A & B & C). apply in_bmark in Hb. destruct Hb as (b & Hb & ->).
+    destruct (b_hd b =? h') eqn:E.
+    + apply N.eqb_eq in E. cbn in *. right. repeat split; try congruence. exists (b_live b), b. auto.
+    + apply N.eqb_neq in E. left. split; [eauto | congruence].
+  - intros [((b & Hb & A & B & C) & NE) | (-> & -> & lv0 & b & Hb & A & B & C)].
+    + exists b. split; auto. apply in_bmark. exists b. split; auto.
+      destruct (b_hd b =? h') eqn:E; auto. apply N.eqb_eq in E. congruence.
+    + exists (kill b). split; [| cbn; auto]. apply in_bmark. exists b. split; auto. rewrite A, N.eqb_refl. reflexivity.
+Qed.
+Lemma seq_head_bredo bs j f h r lv :
+  seq_head (bredo bs j f) h r lv <-> (seq_head bs h r lv /\ h <> j) \/ (h = f /\ lv = true /\ exists lv0, seq_head bs j r lv0).
+Proof.
+  unfold seq_head. split.
+  - intros (b' & Hb & A & B & C). apply in_bredo in Hb. destruct Hb as (b & Hb & ->).
+    destruct (b_hd b =? j) eqn:E.
+    + apply N.eqb_eq in E. cbn in *. right. repeat split; try congruence. exists (b_live b), b. auto.
+    + apply N.eqb_neq in E. left. split; [eauto | congruence].
+  - intros [((b & Hb & A & B & C) & NE) | (-> & -> & lv0 & b & Hb & A & B & C)].
+    + exists b. split; auto. apply in_bredo. exists b. split; auto.
+      destruct (b_hd b =? j) eqn:E; auto. apply N.eqb_eq in E. congruence.
+    + exists (recopy b f). split; [| cbn; auto]. apply in_bredo. exists b. split; auto. rewrite A, N.eqb_refl. reflexivity.
+Qed.
+
+Lemma amark_rt_in c h z : In z (amark c h) -> exists z0, In z0 c /\ a_rt z = a_rt z0 /\ a_id z = a_id z0.
+Proof.
+  unfold amark. rewrite in_map_iff. intros (z0 & <- & H). exists z0. split; auto. destruct (a_id z0 =? h); auto.
+Qed.
+Lemma chain_head_amark c h' h r lv :
+  chain_head (amark c h') h r lv <-> (chain_head c h r lv /\ h <> h') \/ (h = h' /\ lv = false /\ exists lv0, chain_head c h r lv0).
+Proof.
+  unfold chain_head. split.
+  - intros (l1 & x & l2 & E & A & B & C & D). unfold amark in E.
+    apply map_eq_app in E. destruct E as (m1 & m2 & -> & E1 & E2).
+    apply map_eq_cons in E2. destruct E2 as (x0 & m3 & -> & E2 & E3). subst l1 l2 x.
+    assert (D' : forall z, In z m3 -> a_rt z <> r).
+    { intros z Hz. pose proof (D _ (in_map (fun x => if a_id x =? h' then akill x else x) m3 z Hz)) as K.
+      destruct (a_id z =? h'); exact K. }
+    destruct (a_id x0 =? h') eqn:E.
+    + apply N.eqb_eq in E. cbn in *. right. split; [congruence |]. split.
+      * destruct lv; [cbn in C; discriminate | reflexivity].
+      * exists (negb (a_del x0)), m1, x0, m3. rewrite negb_involutive. repeat split; auto.
+    + apply N.eqb_neq in E. left. split; [| congruence]. exists m1, x0, m3. repeat split; auto.
+  - intros [((l1 & x & l2 & -> & A & B & C & D) & NE) | (-> & -> & lv0 & l1 & x & l2 & -> & A & B & C & D)].
+    + exists (amark l1 h'), x, (amark l2 h'). unfold amark. rewrite map_app. cbn [map].
+      assert (a_id x =? h' = false) as -> by (apply N.eqb_neq; congruence). repeat split; auto.
+      intros z Hz. apply amark_rt_in in Hz. destruct Hz as (z0 & Hz0 & -> & _). auto.
+    + exists (amark l1 h'), (akill x), (amark l2 h'). unfold amark. rewrite map_app. cbn [map].
+      assert (a_id x =? h' = true) as -> by (apply N.eqb_eq; congruence). repeat split; auto.
+      intros z Hz. apply amark_rt_in in Hz. destruct Hz as (z0 & Hz0 & -> & _). auto.
+Qed.
+
+Lemma chain_head_snoc c x h r lv :
+  chain_head (c ++ [x]) h r lv <-> (chain_head c h r lv /\ r <> a_rt x) \/ (h = a_id x /\ r = a_rt x /\ a_del x = negb lv).
+Proof.
+  unfold chain_head. split.
+  - intros (l1 & y & l2 & E & A & B & C & D).
+    destruct (list_last_case l2) as [-> | (l2' & w & ->)].
+    + apply app_inj_tail in E. destruct E as (-> & ->). right. auto.
+    + rewrite app_comm_cons, app_assoc in E. apply app_inj_tail in E. destruct E as (-> & ->).
+      left. split.
+      * exists l1, y, l2'. repeat split; auto. intros z Hz. apply D. apply in_or_app; auto.
+      * intros F. apply (D w); [apply in_or_app; right; left; auto | auto].
+  - intros [((l1 & y & l2 & -> & A & B & C & D) & NE) | (-> & -> & C)].
+    + exists l1, y, (l2 ++ [x]). rewrite <- app_assoc. repeat split; auto.
+      intros z Hz. apply in_app_or in Hz. destruct Hz as [Hz | [<- | []]]; auto.
+    + exists c, x, []. repeat split; auto; intros z [].
+Qed.
+
+Lemma in_aset_chain m k c' k0 c0 : NoDup (map fst m) ->
+  (In (k0, c0) (aset_chain m k c') <-> (k0 = k /\ c0 = c') \/ (k0 <> k /\ In (k0, c0) m)).
+Proof.
+  induction m as [| [k1 c1] r IH]; cbn; intros ND.
+  - split; [intros [H | []]; inversion H; auto | intros [(-> & ->) | (_ & [])]; auto].
+  - inversion ND; subst. destruct (k1 =? k) eqn:E.
+    + apply N.eqb_eq in E. subst k1. cbn. split.
+      * intros [H | H]; [inversion H; auto |]. right. split; auto. intros ->. apply H1.
+        change k with (fst (k, c0)). apply in_map; auto.
+      * intros [(-> & ->) | (NE & [H | H])]; auto. inversion H; subst. contradiction.
+    + apply N.eqb_neq in E. cbn. rewrite IH by auto. split.
+      * intros [H | [H | H]]; auto; [inversion H; subst; auto | tauto].
+      * intros [H | (NE & [H | H])]; auto.
+Qed.
+Lemma aset_chain_keys m k c : map fst (aset_chain m k c) = if existsb (N.eqb k) (map fst m) then map fst m else map fst m ++ [k].
+Proof.
+  induction m as [| [k1 c1] r IH]; cbn; auto. rewrite (N.eqb_sym k k1). destruct (k1 =? k) eqn:E; cbn.
+  - apply N.eqb_eq in E. subst. reflexivity.
+  - rewrite IH. destruct (existsb (N.eqb k) (map fst r)); reflexivity.
+Qed.
+Lemma achain_of_notin m k : ~ In k (map fst m) -> achain_of m k = [].
+Proof.
+  induction m as [| [k1 c1] r IH]; cbn; intros H; auto. destruct (k1 =? k) eqn:E.
+  - apply N.eqb_eq in E. exfalso. apply H. left; auto.
+  - apply IH. intros F. apply H. right; auto.
+Qed.
+Lemma achain_of_some m k : In k (map fst m) -> In (k, achain_of m k) m.
+Proof.
+  induction m as [| [k1 c1] r IH]; cbn; intros H; [destruct H |]. destruct (k1 =? k) eqn:E.
+  - apply N.eqb_eq in E. subst. left; auto.
+  - right. apply IH. destruct H as [H | H]; auto. apply N.eqb_neq in E. contradiction.
+Qed.
+
+(* chain_head of the empty chain is impossible *)
+Lemma chain_head_nil h r lv : ~ chain_head [] h r lv.
+Proof. intros (l1 & x & l2 & E & _). destruct l1; discriminate. Qed.
+
+Lemma map_head_chain m k h r lv : NoDup (map fst m) ->
+  (map_head m h r lv <-> chain_head (achain_of m k) h r lv \/ (exists k' c, In (k', c) m /\ k' <> k /\ chain_head c h r lv)).
+Proof.
+  intros ND. unfold map_head. split.
+  - intros (k' & c & H & CH). destruct (N.eq_dec k' k) as [-> | NE].
+    + left. rewrite (achain_of_in _ _ _ ND H). auto.
+    + right. eauto.
+  - intros [CH | (k' & c & H & _ & CH)]; [| eauto].
+    destruct (in_dec N.eq_dec k (map fst m)) as [I | NI].
+    + exists k, (achain_of m k). split; auto. apply achain_of_some; auto.
+    + rewrite achain_of_notin in CH by auto. destruct (chain_head_nil _ _ _ CH).
+Qed.
+
+Lemma map_head_aset m k c' h r lv : NoDup (map fst m) ->
+  (map_head (aset_chain m k c') h r lv <-> chain_head c' h r lv \/ (exists k' c, In (k', c) m /\ k' <> k /\ chain_head c h r lv)).
+Proof.
+  intros ND. unfold map_head. split.
+  - intros (k' & c & H & CH). apply in_aset_chain in H; auto. destruct H as [(-> & ->) | (NE & H)]; [left; auto | right; eauto].
+  - intros [CH | (k' & c & H & NE & CH)].
+    + exists k, c'. split; auto. apply in_aset_chain; auto.
+    + exists k', c. split; auto. apply in_aset_chain; auto.
+Qed.
+
+Lemma map_head_amark m h' h r lv :
+  map_head (map (fun kc => (fst kc, amark (snd kc) h')) m) h r lv <->
+  (map_head m h r lv /\ h <> h') \/ (h = h' /\ lv = false /\ exists lv0, map_head m h r lv0).
+Proof.
+  unfold map_head. split.
+  - intros (k & c' & H & CH). apply in_map_iff in H. destruct H as ([k0 c] & E & H). cbn in E. inversion E; subst.
+    apply chain_head_amark in CH. destruct CH as [(CH & NE) | (-> & -> & lv0 & CH)]; [left | right]; eauto 8.
+  - intros [((k & c & H & CH) & NE) | (-> & -> & lv0 & k & c & H & CH)].
+    + exists k, (amark c h'). split; [apply in_map_iff; exists (k, c); auto | apply chain_head_amark; auto].
+    + exists k, (amark c h'). split; [apply in_map_iff; exists (k, c); auto | apply chain_head_amark; eauto].
+Qed.
+
+(* ---- is_head under the four operations ---- *)
+Lemma is_head_kill a h' h r lv :
+  is_head (akill_id a h') h r lv <-> (is_head a h r lv /\ h <> h') \/ (h = h' /\ lv = false /\ exists lv0, is_head a h r lv0).
+Proof.
+  unfold is_head, akill_id. cbn [a_seq a_map]. rewrite seq_head_bmark, map_head_amark. split.
+  - intros [[(A & B) | (A & B & lv0 & C)] | [(A & B) | (A & B & lv0 & C)]]; eauto 8.
+  - intros [([A | A] & B) | (A & B & lv0 & [C | C])]; eauto 8.
+Qed.
+Lemma is_head_ains a pos i v h r lv :
+  is_head (ains a pos i v) h r lv <-> is_head a h r lv \/ (h = i /\ r = i /\ lv = true).
+Proof. unfold is_head, ains. cbn [a_seq a_map]. rewrite seq_head_bins. tauto. Qed.
+Lemma is_head_acopy_seq a j f h r lv :
+  is_head (acopy_seq a j f) h r lv <->
+  (seq_head (a_seq a) h r lv /\ h <> j) \/ (h = f /\ lv = true /\ exists lv0, seq_head (a_seq a) j r lv0) \/ map_head (a_map a) h r lv.
+Proof. unfold is_head, acopy_seq. cbn [a_seq a_map]. rewrite seq_head_bredo. tauto. Qed.
+Lemma is_head_aappend a k x h r lv : NoDup (map fst (a_map a)) ->
+  (is_head (aappend a k x) h r lv <->
+   seq_head (a_seq a) h r lv \/
+   (chain_head (achain_of (a_map a) k) h r lv /\ r <> a_rt x) \/ (h = a_id x /\ r = a_rt x /\ a_del x = negb lv) \/
+   (exists k' c, In (k', c) (a_map a) /\ k' <> k /\ chain_head c h r lv)).
+Proof.
+  intros ND. unfold is_head, aappend. cbn [a_seq a_map]. rewrite map_head_aset by auto. rewrite chain_head_snoc. tauto.
+Qed.
+
+
+
+(* ---- the root of an id ---- *)
+Definition has_rt (a : astate) (i r : N) : Prop :=
+  (exists b, In b (a_seq a) /\ In i (b_ids b) /\ b_rt b = r) \/ (exists x, In x (aunits a) /\ a_id x = i /\ a_rt x = r).
+
+Lemma in_seq_ids a i : In i (seq_ids a) <-> exists b, In b (a_seq a) /\ In i (b_ids b).
+Proof. unfold seq_ids. rewrite in_flat_map. tauto. Qed.
+Lemma in_a_ids a i : In i (a_ids a) <-> exists r, has_rt a i r.
+Proof.
+  unfold a_ids, has_rt. rewrite in_app_iff, in_seq_ids, in_map_iff. split.
+  - intros [(b & A & B) | (x & A & B)]; [exists (b_rt b); left; eauto | exists (a_rt x); right; eauto].
+  - intros (r & [(b & A & B & C) | (x & A & B & C)]); [left; eauto | right; eauto].
+Qed.
+
+Lemma nodup_flat_unique {X} (f : X -> list N) l x y i :
+  NoDup (flat_map f l) -> In x l -> In y l -> In i (f x) -> In i (f y) -> x = y.
+Proof.
+  induction l as [| z t IH]; cbn; intros ND Hx Hy Ix Iy; [destruct Hx |].
+  destruct Hx as [<- | Hx], Hy as [<- | Hy]; auto.
+  - exfalso. apply (nodup_app_disj _ _ i ND); auto. apply in_flat_map; eauto.
+  - exfalso. apply (nodup_app_disj _ _ i ND); auto. apply in_flat_map; eauto.
+  - apply IH; auto. eapply nodup_app_r; eauto.
+Qed.
+Lemma nodup_map_unique {X} (f : X -> N) l x y : NoDup (map f l) -> In x l -> In y l -> f x = f y -> x = y.
+Proof.
+  induction l as [| z t IH]; cbn; intros ND Hx Hy E; [destruct Hx |]. inversion ND; subst.
+  destruct Hx as [<- | Hx], Hy as [<- | Hy]; auto.
+  - exfalso. apply H1. rewrite E. apply in_map; auto.
+  - exfalso. apply H1. rewrite <- E. apply in_map; auto.
+Qed.
+
+Lemma has_rt_unique a i r r' : NoDup (a_ids a) -> has_rt a i r -> has_rt a i r' -> r = r'.
+Proof.
+  unfold a_ids. intros ND [(b & A & B & C) | (x & A & B & C)] [(b' & A' & B' & C') | (x' & A' & B' & C')].
+  - assert (b = b') by (eapply (nodup_flat_unique b_ids); eauto; eapply nodup_app_l; eauto). congruence.
+  - exfalso. apply (nodup_app_disj _ _ i ND); [apply in_seq_ids; eauto | rewrite <- B'; apply in_map; auto].
+  - exfalso. apply (nodup_app_disj _ _ i ND); [apply in_seq_ids; eauto | rewrite <- B; apply in_map; auto].
+  - assert (x = x') by (eapply (nodup_map_unique a_id); eauto; [eapply nodup_app_r; eauto | congruence]). congruence.
+Qed.
+
+Lemma rt_of_has a i r : rt_of a i = Some r -> has_rt a i r.
+Proof.
+  unfold rt_of, blk_of, unit_of. destruct (find _ (a_seq a)) as [b |] eqn:F.
+  - intros H; inversion H; subst. apply find_some in F. destruct F as (A & B). apply umem_iff in B. left. eauto.
+  - destruct (find _ (aunits a)) as [x |] eqn:G; cbn; [| discriminate]. intros H; inversion H; subst.
+    apply find_some in G. destruct G as (A & B). apply N.eqb_eq in B. right. eauto.
+Qed.
+Lemma rt_of_none a i : rt_of a i = None -> ~ In i (a_ids a).
+Proof.
+  unfold rt_of, blk_of, unit_of. destruct (find _ (a_seq a)) as [b |] eqn:F; [discriminate |].
+  destruct (find _ (aunits a)) as [x |] eqn:G; cbn; [discriminate |]. intros _ H. apply in_a_ids in H.
+  destruct H as (r & [(b & A & B & C) | (x & A & B & C)]).
+  - eapply find_none in F; eauto. apply umem_false in F. contradiction.
+  - eapply find_none in G; eauto. apply N.eqb_neq in G. contradiction.
+Qed.
+Lemma has_rt_of a i r : NoDup (a_ids a) -> has_rt a i r -> rt_of a i = Some r.
+Proof.
+  intros ND H. destruct (rt_of a i) as [r' |] eqn:E.
+  - f_equal. eapply has_rt_unique; eauto. apply rt_of_has; auto.
+  - exfalso. apply (rt_of_none _ _ E). apply in_a_ids. eauto.
+Qed.
+
+(* has_rt under the operations *)
+Lemma has_rt_kill a h i r : has_rt (akill_id a h) i r <-> has_rt a i r.
+Proof.
+  unfold has_rt, akill_id, aunits. cbn [a_seq a_map]. split.
+  - intros [(b' & A & B & C) | (x' & A & B & C)].
+    + apply in_bmark in A. destruct A as (b & A & ->). left. exists b. destruct (b_hd b =? h); auto.
+    + apply in_flat_map in A. destruct A as ([k c'] & A & A'). apply in_map_iff in A. destruct A as ([k0 c] & E & A).
+      cbn in E. inversion E; subst. cbn in A'. apply amark_rt_in in A'. destruct A' as (z0 & Hz & E1 & E2).
+      right. exists z0. split; [apply in_flat_map; exists (k, c); auto | split; congruence].
+  - intros [(b & A & B & C) | (x & A & B & C)].
+    + left. exists (if b_hd b =? h then kill b else b). split; [apply in_bmark; eauto |]. destruct (b_hd b =? h); auto.
+    + apply in_flat_map in A. destruct A as ([k c] & A & A'). cbn in A'.
+      right. exists (if a_id x =? h then akill x else x). split.
+      * apply in_flat_map. exists (k, amark c h). split; [apply in_map_iff; exists (k, c); auto |].
+        cbn. unfold amark. apply (in_map (fun x => if a_id x =? h then akill x else x)); auto.
+      * destruct (a_id x =? h); auto.
+Qed.
+Lemma has_rt_ains a pos n v i r : has_rt (ains a pos n v) i r <-> has_rt a i r \/ (i = n /\ r = n).
+Proof.
+  unfold has_rt, ains. cbn [a_seq a_map]. unfold aunits at 1. cbn [a_map]. fold (aunits a). split.
+  - intros [(b & A & B & C) | H]; [| left; right; auto]. apply in_bins in A. destruct A as [-> | A].
+    + cbn in B, C. destruct B as [<- | []]. right; auto.
+    + left. left. eauto.
+  - intros [[(b & A & B & C) | H] | (-> & ->)].
+    + left. exists b. split; auto. apply in_bins; auto.
+    + right; auto.
+    + left. exists (newblk n v). split; [apply in_bins; auto | cbn; auto].
+Qed.
+Lemma has_rt_acopy_seq a j f i r :
+  has_rt (acopy_seq a j f) i r <-> has_rt a i r \/ (i = f /\ exists lv, seq_head (a_seq a) j r lv).
+Proof.
+  unfold has_rt, acopy_seq. cbn [a_seq a_map]. unfold aunits at 1. cbn [a_map]. fold (aunits a). split.
+  - intros [(b' & A & B & C) | H]; [| left; right; auto]. apply in_bredo in A. destruct A as (b & A & ->).
+    destruct (b_hd b =? j) eqn:E.
+    + apply N.eqb_eq in E. cbn in B, C. destruct B as [<- | B].
+      * right. split; auto. exists (b_live b), b. auto.
+      * left. left. exists b. auto.
+    + left. left. eauto.
+  - intros [[(b & A & B & C) | H] | (-> & lv & b & A & B & C & D)].
+    + left. exists (if b_hd b =? j then recopy b f else b). split; [apply in_bredo; eauto |].
+      destruct (b_hd b =? j); auto; try (cbn; split; auto; right; exact B).
+    + right; auto.
+    + left. exists (recopy b f). split; [apply in_bredo; exists b; split; auto; rewrite B, N.eqb_refl; auto | cbn; auto].
+Qed.
+Lemma in_aunits_aappend a k x0 x : NoDup (map fst (a_map a)) ->
+  (In x (aunits (aappend a k x0)) <-> In x (aunits a) \/ x = x0).
+Proof.
+  intros ND. rewrite !in_aunits. unfold aappend. cbn [a_map]. split.
+  - intros (k' & c & A & B). apply in_aset_chain in A; auto. destruct A as [(-> & ->) | (NE & A)].
+    + apply in_app_or in B. destruct B as [B | [<- | []]]; auto. left.
+      destruct (in_dec N.eq_dec k (map fst (a_map a))) as [I | NI].
+      * exists k, (achain_of (a_map a) k). split; auto. apply achain_of_some; auto.
+      * rewrite achain_of_notin in B by auto. destruct B.
+    + left. eauto.
+  - intros [(k' & c & A & B) | ->].
+    + destruct (N.eq_dec k' k) as [-> | NE].
+      * exists k, (achain_of (a_map a) k ++ [x0]). split; [apply in_aset_chain; auto |].
+        apply in_or_app. left. rewrite (achain_of_in _ _ _ ND A). auto.
+      * exists k', c. split; auto. apply in_aset_chain; auto.
+    + exists k, (achain_of (a_map a) k ++ [x0]). split; [apply in_aset_chain; auto | apply in_or_app; right; left; auto].
+Qed.
+Lemma has_rt_aappend a k x0 i r : NoDup (map fst (a_map a)) ->
+  (has_rt (aappend a k x0) i r <-> has_rt a i r \/ (i = a_id x0 /\ r = a_rt x0)).
+Proof.
+  intros ND. unfold has_rt. change (a_seq (aappend a k x0)) with (a_seq a). split.
+  - intros [H | (x & A & B & C)]; [left; left; auto |]. apply in_aunits_aappend in A; auto.
+    destruct A as [A | ->]; [left; right; eauto | right; auto].
+  - intros [[H | (x & A & B & C)] | (-> & ->)]; [left; auto | |].
+    + right. exists x. split; auto. apply in_aunits_aappend; auto.
+    + right. exists x0. split; auto. apply in_aunits_aappend; auto.
+Qed.
+
+
+
+(* ---- concrete operations on concretised states ---- *)
+Lemma nodup_seq_ids a : NoDup (a_ids a) -> NoDup (flat_map b_ids (a_seq a)).
+Proof. unfold a_ids, seq_ids. apply nodup_app_l. Qed.
+Lemma nodup_map_ids a : NoDup (a_ids a) -> NoDup (aids (aunits a)).
+Proof. unfold a_ids. apply nodup_app_r. Qed.
+Lemma nodup_chain_in (m : list (N * list aunit)) k c : NoDup (aids (flat_map snd m)) -> In (k, c) m -> NoDup (aids c).
+Proof.
+  induction m as [| [k' c'] r IH]; cbn; intros ND H; [destruct H |]. rewrite map_app in ND.
+  destruct H as [H | H]; [inversion H; subst; eapply nodup_app_l; eauto | apply IH; auto; eapply nodup_app_r; eauto].
+Qed.
+Lemma nodup_achain a k : NoDup (a_ids a) -> NoDup (aids (achain_of (a_map a) k)).
+Proof.
+  intros ND. destruct (in_dec N.eq_dec k (map fst (a_map a))) as [I | NI].
+  - eapply nodup_chain_in; [apply nodup_map_ids; eauto | apply achain_of_some; eauto].
+  - rewrite achain_of_notin by auto. constructor.
+Qed.
+
+Lemma conc_delete_id a nx us rs h : NoDup (a_ids a) ->
+  delete_id (conc a nx us rs) h = conc (akill_id a h) nx us rs.
+Proof.
+  intros ND. unfold delete_id, conc, akill_id. cbn [seqc mapc unext ustack rstack a_seq a_map]. f_equal.
+  - apply cseq_umark. apply nodup_seq_ids; auto.
+  - pose proof (nodup_map_ids _ ND) as NDm. unfold aunits in NDm. unfold cmap. rewrite !map_map. cbn [fst snd].
+    apply map_ext_in. intros [k c] H. cbn [fst snd]. f_equal. apply cchain_umark. eapply nodup_chain_in; eauto.
+Qed.
+
+Lemma nvisible_cseq bs : nvisible (cseq bs) = length (filter b_live bs).
+Proof. unfold nvisible. rewrite cseq_uvisible, map_length. reflexivity. Qed.
+
+Lemma conc_ins a nx us rs pos v :
+  do_call (conc a nx us rs) (CIns pos v) =
+  (conc (ains a (Nat.min pos (length (filter b_live (a_seq a)))) nx v) (nx + 1) us rs, {| e_ins := [nx]; e_del := [] |}).
+Proof.
+  unfold do_call, conc, ains. cbn [seqc mapc unext ustack rstack a_seq a_map]. rewrite nvisible_cseq, cseq_ibv. reflexivity.
+Qed.
+
+(* bdel is a kill of the head it reports *)
+Lemma bdel_spec bs pos : NoDup (flat_map b_ids bs) ->
+  match snd (bdel bs pos) with
+  | Some h => fst (bdel bs pos) = bmark bs h /\ seq_head bs h (match find (fun b => b_hd b =? h) bs with Some b => b_rt b | None => 0 end) true
+  | None => fst (bdel bs pos) = bs
+  end.
+Proof.
+  revert pos. induction bs as [| b r IH]; intros pos ND; [reflexivity |].
+  cbn [flat_map] in ND. pose proof (nodup_app_r _ _ ND) as NDr.
+  assert (HN : forall h, In h (map b_hd r) -> b_hd b <> h).
+  { intros h Hh E. apply in_map_iff in Hh. destruct Hh as (b' & E' & Hb').
+    apply (nodup_app_disj _ _ h ND); [left; auto | eapply in_flat_ids; eauto; left; auto]. }
+  cbn [bdel]. destruct (b_live b) eqn:L.
+  - destruct pos as [| p].
+    + cbn [fst snd]. split.
+      * unfold bmark. cbn [map]. rewrite N.eqb_refl. f_equal. fold (bmark r (b_hd b)). symmetry. apply bmark_notin.
+        intros b' Hb' E. apply (HN (b_hd b)); auto. rewrite <- E. apply in_map; auto.
+      * cbn [find]. rewrite N.eqb_refl. exists b. split; [left; auto | auto].
+    + specialize (IH p NDr). destruct (bdel r p) as [r' o]. cbn [fst snd] in *. destruct o as [h |]; [| congruence].
+      destruct IH as (-> & SH). assert (b_hd b <> h).
+      { destruct SH as (b' & Hb' & E' & _). apply HN. rewrite <- E'. apply in_map; auto. }
+      split.
+      * unfold bmark. cbn [map]. apply N.eqb_neq in H. rewrite H. reflexivity.
+      * cbn [find]. apply N.eqb_neq in H. rewrite H. destruct SH as (b' & Hb' & A). exists b'. split; [right; auto | auto].
+  - specialize (IH pos NDr). destruct (bdel r pos) as [r' o]. cbn [fst snd] in *. destruct o as [h |]; [| congruence].
+    destruct IH as (-> & SH). assert (b_hd b <> h).
+    { destruct SH as (b' & Hb' & E' & _). apply HN. rewrite <- E'. apply in_map; auto. }
+    split.
+    + unfold bmark. cbn [map]. apply N.eqb_neq in H. rewrite H. reflexivity.
+    + cbn [find]. apply N.eqb_neq in H. rewrite H. destruct SH as (b' & Hb' & A). exists b'. split; [right; auto | auto].
+Qed.
+
+Definition akill_opt (a : astate) (o : option N) : astate := match o with Some h => akill_id a h | None => a end.
+Definition dels (o : option N) : list N := match o with Some i => [i] | None => [] end.
+Definition newunit (i : N) (v : utok) : aunit := {| a_id := i; a_rt := i; a_val := v; a_del := false |}.
+
+Lemma amark_map_notin (m : list (N * list aunit)) h : ~ In h (aids (flat_map snd m)) ->
+  map (fun kc => (fst kc, amark (snd kc) h)) m = m.
+Proof.
+  induction m as [| [k c] r IH]; cbn [map fst snd flat_map]; intros H; auto. rewrite map_app in H.
+  rewrite IH by (intros F; apply H; apply in_or_app; auto).
+  rewrite amark_notin by (intros F; apply H; apply in_or_app; auto). reflexivity.
+Qed.
+Lemma amark_map_set (m : list (N * list aunit)) k h :
+  NoDup (map fst m) -> NoDup (aids (flat_map snd m)) -> In h (aids (achain_of m k)) ->
+  map (fun kc => (fst kc, amark (snd kc) h)) m = aset_chain m k (amark (achain_of m k) h).
+Proof.
+  induction m as [| [k' c] r IH]; cbn [map fst snd flat_map achain_of aset_chain]; intros NK ND H; [destruct H |]. inversion NK; subst. rewrite map_app in ND.
+  destruct (k' =? k) eqn:E.
+  - apply N.eqb_eq in E. subst k'. f_equal. apply amark_map_notin. intros F. apply (nodup_app_disj _ _ h ND); auto.
+  - rewrite IH; auto; [| eapply nodup_app_r; eauto].
+    rewrite amark_notin; auto. intros F. apply (nodup_app_disj _ _ h ND); auto.
+    destruct (in_dec N.eq_dec k (map fst r)) as [I | NI].
+    + apply achain_of_some in I. apply in_map_iff in H. destruct H as (x & <- & Hx).
+      apply in_map. apply in_flat_map. exists (k, achain_of r k). auto.
+    + rewrite achain_of_notin in H by auto. destruct H.
+Qed.
+Lemma bmark_not_head bs h : ~ In h (flat_map b_ids bs) -> bmark bs h = bs.
+Proof. intros H. apply bmark_notin. intros b Hb E. apply H. eapply in_flat_ids; eauto. left; auto. Qed.
+
+Lemma akill_seq_only a h : NoDup (a_ids a) -> In h (seq_ids a) ->
+  akill_id a h = {| a_seq := bmark (a_seq a) h; a_map := a_map a |}.
+Proof.
+  intros ND H. unfold akill_id. f_equal. apply amark_map_notin. intros F. apply (nodup_app_disj _ _ h ND); auto.
+Qed.
+Lemma akill_map_only a k h : NoDup (a_ids a) -> NoDup (map fst (a_map a)) -> In h (aids (achain_of (a_map a) k)) ->
+  akill_id a h = {| a_seq := a_seq a; a_map := aset_chain (a_map a) k (amark (achain_of (a_map a) k) h) |}.
+Proof.
+  intros ND NK H. unfold akill_id. f_equal.
+  - apply bmark_not_head. intros F. apply (nodup_app_disj _ _ h ND); auto.
+    destruct (in_dec N.eq_dec k (map fst (a_map a))) as [I | NI].
+    + apply achain_of_some in I. apply in_map_iff in H. destruct H as (x & <- & Hx). apply in_map.
+      apply in_flat_map. exists (k, achain_of (a_map a) k). auto.
+    + rewrite achain_of_notin in H by auto. destruct H.
+  - apply amark_map_set; auto. apply nodup_map_ids; auto.
+Qed.
+
+Lemma conc_del a nx us rs pos : NoDup (a_ids a) ->
+  let o := snd (bdel (a_seq a) pos) in
+  do_call (conc a nx us rs) (CDel pos) = (conc (akill_opt a o) nx us rs, {| e_ins := []; e_del := dels o |})
+  /\ (forall h, o = Some h -> exists r, seq_head (a_seq a) h r true).
+Proof.
+  intros ND o. pose proof (bdel_spec (a_seq a) pos (nodup_seq_ids _ ND)) as K. fold o in K.
+  unfold do_call. cbn [seqc conc]. rewrite cseq_delvis. fold o. split.
+  - destruct o as [h |].
+    + destruct K as (K1 & K2). cbn [akill_opt dels]. rewrite akill_seq_only; auto.
+      * rewrite K1. reflexivity.
+      * destruct K2 as (b & Hb & E & _). apply in_seq_ids. exists b. split; auto. left; auto.
+    + rewrite K. reflexivity.
+  - intros h E. rewrite E in K. destruct K as (_ & K). eauto.
+Qed.
+
+Lemma adel_last_spec c : NoDup (aids c) ->
+  match snd (adel_last c) with
+  | Some h => fst (adel_last c) = amark c h /\ exists c0 w, c = c0 ++ [w] /\ a_id w = h /\ a_del w = false
+  | None => fst (adel_last c) = c
+  end.
+Proof.
+  intros ND. destruct (list_last_case c) as [-> | (c0 & w & ->)]; [reflexivity |].
+  rewrite adel_last_snoc. cbn [fst snd]. destruct (a_del w) eqn:D; [reflexivity |]. split; [| eauto].
+  unfold amark. rewrite map_app. cbn [map]. rewrite N.eqb_refl. f_equal.
+  fold (amark c0 (a_id w)). symmetry. apply amark_notin.
+  rewrite map_app in ND. intros F. apply (nodup_app_disj _ _ (a_id w) ND); auto. left; auto.
+Qed.
+
+Lemma achain_of_aset m k c : achain_of (aset_chain m k c) k = c.
+Proof. induction m as [| [k' c'] r IH]; cbn; [rewrite N.eqb_refl; auto |]. destruct (k' =? k) eqn:E; cbn; [rewrite N.eqb_refl | rewrite E]; auto. Qed.
+Lemma aset_aset m k c1 c2 : aset_chain (aset_chain m k c1) k c2 = aset_chain m k c2.
+Proof. induction m as [| [k' c'] r IH]; cbn; [rewrite N.eqb_refl; auto |]. destruct (k' =? k) eqn:E; cbn; [rewrite N.eqb_refl | rewrite E, IH]; auto. Qed.
+
+Lemma conc_rem a nx us rs k : NoDup (a_ids a) -> NoDup (map fst (a_map a)) ->
+  let o := snd (adel_last (achain_of (a_map a) k)) in
+  do_call (conc a nx us rs) (CRem k) = (conc (akill_opt a o) nx us rs, {| e_ins := []; e_del := dels o |}).
+Proof.
+  intros ND NK o. pose proof (adel_last_spec _ (nodup_achain a k ND)) as K. fold o in K.
+  unfold do_call. cbn [mapc conc]. rewrite cmap_chain_of, cchain_delete_last. fold o.
+  destruct o as [h |]; [| reflexivity]. destruct K as (K1 & c0 & w & K2 & K3 & K4). cbn [akill_opt dels].
+  rewrite (akill_map_only a k h); auto.
+  - rewrite K1, cmap_set_chain. reflexivity.
+  - rewrite K2, map_app. apply in_or_app. right. left. auto.
+Qed.
+
+
+
+Lemma last_same_fresh r c : (forall x, In x c -> a_rt x <> r) -> last_same r c = None.
+Proof. intros H. rewrite last_same_lastu, (lastu_none_of _ _ H). reflexivity. Qed.
+
+Lemma conc_set a nx us rs k v : NoDup (a_ids a) -> NoDup (map fst (a_map a)) -> (forall x, In x (aunits a) -> a_rt x <> nx) ->
+  let o := snd (adel_last (achain_of (a_map a) k)) in
+  do_call (conc a nx us rs) (CSet k v) =
+  (conc (aappend (akill_opt a o) k (newunit nx v)) (nx + 1) us rs, {| e_ins := [nx]; e_del := dels o |}).
+Proof.
+  intros ND NK NR o. pose proof (adel_last_spec _ (nodup_achain a k ND)) as K. fold o in K.
+  unfold do_call. cbn [mapc conc]. rewrite cmap_chain_of, cchain_delete_last. fold o.
+  set (c := achain_of (a_map a) k) in *. set (c1 := fst (adel_last c)) in *.
+  assert (NR1 : forall x, In x c1 -> a_rt x <> nx).
+  { assert (forall x, In x c -> a_rt x <> nx) as NRc.
+    { intros x Hx. apply NR. destruct (in_dec N.eq_dec k (map fst (a_map a))) as [I | NI].
+      - apply in_aunits. exists k, c. split; auto. apply achain_of_some; auto.
+      - unfold c in Hx. rewrite achain_of_notin in Hx by auto. destruct Hx. }
+    destruct o as [h |].
+    - destruct K as (-> & _). intros x Hx. apply amark_rt_in in Hx. destruct Hx as (z & Hz & -> & _). auto.
+    - rewrite K. auto. }
+  assert (ND1 : NoDup (aids c1)).
+  { destruct o as [h |]; [destruct K as (-> & _); rewrite amark_ids | rewrite K]; apply nodup_achain; auto. }
+  assert (E : cchain c1 ++ [mk nx v false None] = cchain (c1 ++ [newunit nx v])).
+  { rewrite cchain_snoc by auto. cbn [a_rt newunit]. rewrite last_same_fresh by auto. reflexivity. }
+  cbn [unext seqc ustack rstack conc]. rewrite E, cmap_set_chain.
+  assert (EA : aappend (akill_opt a o) k (newunit nx v) = {| a_seq := a_seq a; a_map := aset_chain (a_map a) k (c1 ++ [newunit nx v]) |}).
+  { unfold aappend. destruct o as [h |]; cbn [akill_opt a_seq a_map].
+    - destruct K as (K1 & c0 & w & K2 & K3 & K4).
+      assert (Hh : In h (aids (achain_of (a_map a) k))) by (fold c; rewrite K2, map_app; apply in_or_app; right; left; auto).
+      rewrite (akill_map_only a k h ND NK Hh).
+      cbn [a_seq a_map]. rewrite achain_of_aset, aset_aset. fold c. rewrite <- K1. reflexivity.
+    - fold c. rewrite <- K. reflexivity. }
+  rewrite EA. reflexivity.
+Qed.
+
+(* ---- items of a concretised state ---- *)
+Lemma conc_all_items a nx us rs : all_items (conc a nx us rs) = cseq (a_seq a) ++ flat_map (fun kc => cchain (snd kc)) (a_map a).
+Proof. unfold all_items. cbn [seqc mapc conc]. rewrite cmap_items. reflexivity. Qed.
+Lemma in_items_blk a nx us rs b y : In b (a_seq a) -> In y (cblk b) -> In y (all_items (conc a nx us rs)).
+Proof. intros H1 H2. rewrite conc_all_items. apply in_or_app. left. unfold cseq. apply in_flat_map. eauto. Qed.
+Lemma in_items_chain a nx us rs k c y : In (k, c) (a_map a) -> In y (cchain c) -> In y (all_items (conc a nx us rs)).
+Proof. intros H1 H2. rewrite conc_all_items. apply in_or_app. right. apply in_flat_map. exists (k, c). auto. Qed.
+Lemma ufind_conc a nx us rs y : NoDup (a_ids a) -> In y (all_items (conc a nx us rs)) ->
+  ufind (all_items (conc a nx us rs)) (u_id y) = Some y.
+Proof. intros ND H. apply ufind_nodup; auto. change (NoDup (all_ids (conc a nx us rs))). rewrite conc_all_ids. auto. Qed.
+
+Lemma in_cchain c y : In y (cchain c) -> exists l1 x l2, c = l1 ++ x :: l2 /\ y = cunit x (next_same (a_rt x) l2).
+Proof.
+  induction c as [| x t IH]; cbn; [intros [] |]. intros [<- | H].
+  - exists [], x, t. auto.
+  - destruct (IH H) as (l1 & x' & l2 & -> & ->). exists (x :: l1), x', l2. auto.
+Qed.
+Lemma next_same_none_of r l : (forall z, In z l -> a_rt z <> r) -> next_same r l = None.
+Proof.
+  induction l as [| x t IH]; cbn; intros H; auto. destruct (a_rt x =? r) eqn:E.
+  - apply N.eqb_eq in E. exfalso. apply (H x); auto.
+  - apply IH. intros; apply H; right; auto.
+Qed.
+Lemma in_ctail h t v y : In y (ctail h t v) -> u_del y = true /\ In (u_id y) t.
+Proof.
+  revert h. induction t as [| i t IH]; intros h; cbn; [intros [] |]. intros [<- | H]; [cbn; auto |].
+  destruct (IH _ H). auto.
+Qed.
+
+Lemma conc_redo_seq a nx us rs j td s1 s2 : NoDup (a_ids a) -> (exists r, seq_head (a_seq a) j r false) ->
+  redo_item (conc a nx us rs) j td s1 s2 = (conc (acopy_seq a j nx) (nx + 1) us rs, true, {| e_ins := [nx]; e_del := [] |}).
+Proof.
+  intros ND (r & b & Hb & E & R & L). unfold redo_item.
+  assert (F : ufind (all_items (conc a nx us rs)) j = Some (hunit b)).
+  { rewrite <- E. change (b_hd b) with (u_id (hunit b)). apply ufind_conc; auto. eapply in_items_blk; eauto. left; reflexivity. }
+  rewrite F. unfold hunit at 1. rewrite u_red_mk. cbn [seqc conc].
+  assert (existsb (fun z => u_id z =? j) (cseq (a_seq a)) = true) as ->.
+  { apply existsb_id_iff. rewrite cseq_ids. eapply in_flat_ids; eauto. left; auto. }
+  rewrite cseq_redo; [reflexivity | apply nodup_seq_ids; auto | eauto].
+Qed.
+
+Lemma redo_in_maps_cmap (m : list (N * list aunit)) k c j f td s1 s2 :
+  NoDup (map fst m) -> NoDup (aids (flat_map snd m)) -> In (k, c) m -> In j (aids c) ->
+  redo_in_maps (cmap m) j f td s1 s2 = option_map (fun cc' => set_chain (cmap m) k cc') (redo_in_chain (cchain c) j f td s1 s2).
+Proof.
+  induction m as [| [k' c'] r IH]; intros NK ND H Hj; [destruct H |].
+  cbn [map fst] in NK. apply NoDup_cons_iff in NK. destruct NK as (NK1 & NK2). cbn [flat_map snd] in ND. rewrite map_app in ND.
+  change (cmap ((k', c') :: r)) with ((k', cchain c') :: cmap r). cbn [redo_in_maps set_chain].
+  destruct H as [H | H].
+  - inversion H; subst. rewrite N.eqb_refl.
+    assert (existsb (fun y => u_id y =? j) (cchain c) = true) as -> by (apply existsb_id_iff; rewrite cchain_ids; auto).
+    destruct (redo_in_chain _ _ _ _ _ _); reflexivity.
+  - assert (NE : k' <> k) by (intros ->; apply NK1; change k with (fst (k, c)); apply in_map; auto).
+    apply N.eqb_neq in NE. rewrite NE.
+    assert (existsb (fun y => u_id y =? j) (cchain c') = false) as ->.
+    { apply existsb_id_false. rewrite cchain_ids. intros F. apply (nodup_app_disj _ _ j ND); auto.
+      apply in_map_iff in Hj. destruct Hj as (x & <- & Hx). apply in_map. apply in_flat_map. exists (k, c). auto. }
+    rewrite IH; auto; [| eapply nodup_app_r; eauto]. destruct (redo_in_chain _ _ _ _ _ _); reflexivity.
+Qed.
+
+Lemma last_same_amark r c h : last_same r (amark c h) = last_same r c.
+Proof. unfold amark. induction c as [| x t IH]; cbn; auto. rewrite IH. destruct (a_id x =? h); reflexivity. Qed.
+Lemma last_same_mid l1 x l2 : (forall z, In z l2 -> a_rt z <> a_rt x) -> last_same (a_rt x) (l1 ++ x :: l2) = Some (a_id x).
+Proof.
+  intros H. rewrite last_same_lastu, lastu_app. cbn [lastu]. rewrite (lastu_none_of _ _ H), N.eqb_refl. reflexivity.
+Qed.
+
+Definition copyunit (x : aunit) (f : N) : aunit := {| a_id := f; a_rt := a_rt x; a_val := a_val x; a_del := false |}.
+
+Lemma redo_in_chain_cchain l1 x l2 f td s1 s2 :
+  let c := l1 ++ x :: l2 in
+  NoDup (aids c) -> (forall z, In z l2 -> a_rt z <> a_rt x) ->
+  walk_right (S (length (cchain c))) (cchain c) (a_id x) td s1 s2 = true ->
+  redo_in_chain (cchain c) (a_id x) f td s1 s2 = Some (cchain (fst (adel_last c) ++ [copyunit x f])).
+Proof.
+  intros c ND HL W. unfold redo_in_chain.
+  assert (F : ufind (cchain c) (a_id x) = Some (cunit x None)).
+  { change (a_id x) with (u_id (cunit x None)). apply ufind_nodup; [rewrite cchain_ids; auto |].
+    rewrite <- (next_same_none_of (a_rt x) l2 HL). apply cchain_in_mid. }
+  rewrite F, W. rewrite delete_last_map_setred, cchain_delete_last. cbn [fst snd].
+  pose proof (adel_last_spec c ND) as K. f_equal.
+  assert (ND1 : NoDup (aids (fst (adel_last c)))).
+  { destruct (snd (adel_last c)); [destruct K as (-> & _); rewrite amark_ids | rewrite K]; auto. }
+  rewrite cchain_snoc by auto. cbn [a_rt copyunit].
+  assert (last_same (a_rt x) (fst (adel_last c)) = Some (a_id x)) as ->.
+  { destruct (snd (adel_last c)); [destruct K as (-> & _); rewrite last_same_amark | rewrite K]; apply last_same_mid; auto. }
+  reflexivity.
+Qed.
+
+Lemma aappend_kill_eq a k x0 : NoDup (a_ids a) -> NoDup (map fst (a_map a)) ->
+  let c := achain_of (a_map a) k in
+  aappend (akill_opt a (snd (adel_last c))) k x0 = {| a_seq := a_seq a; a_map := aset_chain (a_map a) k (fst (adel_last c) ++ [x0]) |}.
+Proof.
+  intros ND NK c. pose proof (adel_last_spec _ (nodup_achain a k ND)) as K. fold c in K.
+  unfold aappend. destruct (snd (adel_last c)) as [h |]; cbn [akill_opt a_seq a_map].
+  - destruct K as (K1 & c0 & w & K2 & K3 & K4).
+    assert (Hh : In h (aids (achain_of (a_map a) k))) by (fold c; rewrite K2, map_app; apply in_or_app; right; left; auto).
+    rewrite (akill_map_only a k h ND NK Hh).
+    cbn [a_seq a_map]. rewrite achain_of_aset, aset_aset. fold c. rewrite <- K1. reflexivity.
+  - fold c. rewrite K. reflexivity.
+Qed.
+
+Lemma gone_spec s s' i :
+  In i (map u_id (filter (fun z => negb (existsb (fun w => u_id w =? u_id z) (filter (fun z => negb (u_del z)) (all_items s'))))
+                         (filter (fun z => negb (u_del z)) (all_items s)))) <->
+  livein (all_items s) i /\ ~ livein (all_items s') i.
+Proof.
+  rewrite in_map_iff. split.
+  - intros (z & <- & H). apply filter_In in H. destruct H as (H & G). apply filter_In in H. destruct H as (H & L).
+    apply negb_true_iff in L. split; [exists z; auto |].
+    intros (w & Hw & E & Lw). apply negb_true_iff in G. rewrite <- not_true_iff_false in G. apply G.
+    apply existsb_exists. exists w. split; [apply filter_In; split; auto; rewrite Lw; auto | apply N.eqb_eq; auto].
+  - intros ((z & H & E & L) & NL). exists z. split; auto. apply filter_In. split; [apply filter_In; split; auto; rewrite L; auto |].
+    apply negb_true_iff. rewrite <- not_true_iff_false. intros G. apply existsb_exists in G. destruct G as (w & Hw & Ew).
+    apply filter_In in Hw. destruct Hw as (Hw & Lw). apply negb_true_iff in Lw. apply N.eqb_eq in Ew.
+    apply NL. exists w. repeat split; auto. congruence.
+Qed.
+
+Lemma livein_conc a nx us rs i : WF a nx ->
+  (livein (all_items (conc a nx us rs)) i <-> exists r, is_head a i r true).
+Proof.
+  intros W. rewrite conc_all_items. split.
+  - intros (y & Hy & E & L). apply in_app_or in Hy. destruct Hy as [Hy | Hy].
+    + unfold cseq in Hy. apply in_flat_map in Hy. destruct Hy as (b & Hb & Hy). destruct Hy as [<- | Hy].
+      * cbn in E, L. apply negb_false_iff in L. exists (b_rt b). left. exists b. auto.
+      * apply in_ctail in Hy. destruct Hy as (D & _). congruence.
+    + apply in_flat_map in Hy. destruct Hy as ([k c] & Hc & Hy). cbn [snd] in Hy.
+      apply in_cchain in Hy. destruct Hy as (l1 & x & l2 & -> & ->). rewrite u_id_cunit in E. rewrite u_del_cunit in L.
+      exists (a_rt x). right. exists k, (l1 ++ x :: l2). split; auto. exists l1, x, l2. repeat split; auto.
+      destruct l2 as [| z l2]; [intros z [] |]. rewrite (wf_clive _ _ W k _ l1 x (z :: l2) Hc eq_refl) in L; discriminate.
+  - intros (r & [(b & Hb & E & R & L) | (k & c & Hc & l1 & x & l2 & -> & E & R & D & HL)]).
+    + exists (hunit b). split; [| unfold hunit; cbn; rewrite L; auto].
+      apply in_or_app. left. unfold cseq. apply in_flat_map. exists b. split; auto. left; reflexivity.
+    + exists (cunit x (next_same (a_rt x) l2)). split; [| rewrite u_id_cunit, u_del_cunit; auto].
+      apply in_or_app. right. apply in_flat_map. exists (k, l1 ++ x :: l2). split; auto. apply cchain_in_mid.
+Qed.
+
+Lemma conc_redo_map a nx us rs td s1 s2 k l1 x l2 :
+  let c := l1 ++ x :: l2 in
+  NoDup (a_ids a) -> NoDup (map fst (a_map a)) -> In (k, c) (a_map a) ->
+  (forall z, In z l2 -> a_rt z <> a_rt x) ->
+  walk_right (S (length (cchain c))) (cchain c) (a_id x) td s1 s2 = true ->
+  let a' := aappend (akill_opt a (snd (adel_last c))) k (copyunit x nx) in
+  exists e, redo_item (conc a nx us rs) (a_id x) td s1 s2 = (conc a' (nx + 1) us rs, true, e) /\ e_ins e = [nx] /\
+    (forall i, In i (e_del e) <-> livein (all_items (conc a nx us rs)) i /\ ~ livein (all_items (conc a' (nx + 1) us rs)) i).
+Proof.
+  intros c ND NK Hc HL W a'. unfold redo_item.
+  assert (NDc : NoDup (aids c)) by (eapply nodup_chain_in; [apply nodup_map_ids; eauto | eauto]).
+  assert (Hx : In (cunit x None) (cchain c)).
+  { rewrite <- (next_same_none_of (a_rt x) l2 HL). apply cchain_in_mid. }
+  assert (F : ufind (all_items (conc a nx us rs)) (a_id x) = Some (cunit x None)).
+  { change (a_id x) with (u_id (cunit x None)). apply ufind_conc; auto. eapply in_items_chain; eauto. }
+  rewrite F. rewrite u_red_cunit. cbn [seqc mapc unext conc].
+  assert (Hj : In (a_id x) (aids c)) by (unfold c; rewrite map_app; apply in_or_app; right; left; auto).
+  assert (existsb (fun z => u_id z =? a_id x) (cseq (a_seq a)) = false) as ->.
+  { apply existsb_id_false. rewrite cseq_ids. intros F'. apply (nodup_app_disj _ _ (a_id x) ND); auto.
+    apply in_map_iff in Hj. destruct Hj as (y & <- & Hy). apply in_map. apply in_flat_map. exists (k, c). auto. }
+  rewrite (redo_in_maps_cmap (a_map a) k c); auto; [| apply nodup_map_ids; auto].
+  pose proof (redo_in_chain_cchain l1 x l2 nx td s1 s2 NDc HL W) as RC. cbv zeta in RC. fold c in RC. rewrite RC. cbn [option_map ustack rstack conc].
+  rewrite cmap_set_chain.
+  assert (EA : a' = {| a_seq := a_seq a; a_map := aset_chain (a_map a) k (fst (adel_last c) ++ [copyunit x nx]) |}).
+  { unfold a'. rewrite <- (achain_of_in _ _ _ NK Hc). apply aappend_kill_eq; auto. }
+  eexists. split.
+  { rewrite EA. reflexivity. }
+  split; [reflexivity |].
+  intros i. cbn [e_del]. rewrite EA. apply gone_spec.
+Qed.
+
+Lemma lastu_split r l w : lastu r l = Some w -> exists m1 m2, l = m1 ++ w :: m2 /\ a_rt w = r /\ (forall z, In z m2 -> a_rt z <> r).
+Proof.
+  induction l as [| x t IH]; cbn; [discriminate |]. destruct (lastu r t) as [w' |] eqn:L.
+  - intros H; inversion H; subst. destruct (IH eq_refl) as (m1 & m2 & -> & A & B). exists (x :: m1), m2. auto.
+  - destruct (a_rt x =? r) eqn:E; [| discriminate]. intros H; inversion H; subst. apply N.eqb_eq in E.
+    exists [], t. repeat split; auto. apply lastu_none; auto.
+Qed.
+Lemma length_flat_in {X Y} (f : X -> list Y) l x : In x l -> (length (f x) <= length (flat_map f l))%nat.
+Proof.
+  induction l as [| y t IH]; cbn; intros H; [destruct H |]. rewrite app_length. destruct H as [-> | H]; [lia |].
+  specialize (IH H). lia.
+Qed.
+
+Lemma ctail_ids_len h t v : length (ctail h t v) = length t.
+Proof. rewrite <- (ctail_ids h t v) at 2. rewrite map_length. reflexivity. Qed.
+
+Lemma follow_conc a nx us rs i r : NoDup (a_ids a) -> has_rt a i r ->
+  exists h lv w, is_head a h r lv /\
+    ufollow (S (length (all_items (conc a nx us rs)))) (all_items (conc a nx us rs)) i = Some w /\ u_id w = h /\ u_del w = negb lv.
+Proof.
+  intros ND [(b & Hb & Hi & R) | (x & Hx & Hi & R)].
+  - exists (b_hd b), (b_live b), (hunit b). split; [left; exists b; auto |]. split; [| split; reflexivity].
+    apply follow_blk; auto.
+    + intros y Hy. apply ufind_conc; auto. eapply in_items_blk; eauto.
+    + rewrite conc_all_items, app_length. pose proof (length_flat_in cblk _ _ Hb) as L. unfold cblk at 1 in L. cbn [length] in L.
+      rewrite ctail_ids_len in L. unfold cseq. lia.
+  - apply in_aunits in Hx. destruct Hx as (k & c & Hc & Hx). apply in_split in Hx. destruct Hx as (l1 & l2 & ->).
+    destruct (lastu (a_rt x) (x :: l2)) as [w0 |] eqn:LU.
+    2:{ exfalso. apply (lastu_none _ _ LU x); auto. left; auto. }
+    exists (a_id w0), (negb (a_del w0)), (cunit w0 None). split; [| split; [| split; [reflexivity | rewrite u_del_cunit, negb_involutive; reflexivity]]].
+    + right. exists k, (l1 ++ x :: l2). split; auto. destruct (lastu_split _ _ _ LU) as (m1 & m2 & E & A & B).
+      exists (l1 ++ m1), w0, m2. rewrite E, <- app_assoc, negb_involutive. subst r. repeat split; auto.
+    + subst i. eapply (follow_chain _ (l1 ++ x :: l2)); [| reflexivity | reflexivity | exact LU |].
+      * intros y Hy. apply ufind_conc; auto. eapply in_items_chain; eauto.
+      * rewrite conc_all_items, app_length.
+        pose proof (length_flat_in (fun kc : N * list aunit => cchain (snd kc)) _ _ Hc) as L. cbn [snd] in L.
+        rewrite cchain_length, app_length in L. cbn [length] in L. lia.
+Qed.
+
+
+
+(* ---- heads are unique ---- *)
+Lemma chain_head_lastu c h r lv : chain_head c h r lv -> exists x, lastu r c = Some x /\ a_id x = h /\ a_del x = negb lv.
+Proof.
+  intros (l1 & x & l2 & -> & A & B & C & D). exists x. split; auto.
+  rewrite lastu_app. cbn [lastu]. rewrite (lastu_none_of _ _ D), B, N.eqb_refl. reflexivity.
+Qed.
+Lemma chain_head_in c h r lv : chain_head c h r lv -> exists x, In x c /\ a_id x = h /\ a_rt x = r /\ a_del x = negb lv.
+Proof. intros (l1 & x & l2 & -> & A & B & C & D). exists x. split; auto. apply in_or_app; right; left; auto. Qed.
+
+Lemma is_head_has_rt a h r lv : is_head a h r lv -> has_rt a h r.
+Proof.
+  intros [(b & Hb & A & B & C) | (k & c & Hc & CH)].
+  - left. exists b. split; auto. split; auto. left; auto.
+  - apply chain_head_in in CH. destruct CH as (x & Hx & A & B & C). right. exists x. split; auto. apply in_aunits. eauto.
+Qed.
+
+Lemma is_head_unique_root a nx h h' r lv lv' : WF a nx -> is_head a h r lv -> is_head a h' r lv' -> h = h' /\ lv = lv'.
+Proof.
+  intros W [(b & Hb & A & B & C) | (k & c & Hc & CH)] [(b' & Hb' & A' & B' & C') | (k' & c' & Hc' & CH')].
+  - assert (b = b') by (eapply (nodup_map_unique b_rt); eauto; [apply (wf_rseq _ _ W) | congruence]). subst. split; congruence.
+  - exfalso. apply chain_head_in in CH'. destruct CH' as (x & Hx & _ & R & _).
+    apply (wf_rsm _ _ W b x Hb); [apply in_aunits; eauto | congruence].
+  - exfalso. apply chain_head_in in CH. destruct CH as (x & Hx & _ & R & _).
+    apply (wf_rsm _ _ W b' x Hb'); [apply in_aunits; eauto | congruence].
+  - pose proof (chain_head_in _ _ _ _ CH) as (x & Hx & _ & R & _). pose proof (chain_head_in _ _ _ _ CH') as (x' & Hx' & _ & R' & _).
+    assert (k = k') by (eapply (wf_rmap _ _ W); eauto; congruence). subst k'.
+    assert (c = c') by (rewrite <- (achain_of_in _ _ _ (wf_keys _ _ W) Hc), <- (achain_of_in _ _ _ (wf_keys _ _ W) Hc'); reflexivity). subst c'.
+    apply chain_head_lastu in CH, CH'. destruct CH as (y & L & E1 & E2). destruct CH' as (y' & L' & E1' & E2').
+    rewrite L in L'. inversion L'; subst y'. split; [congruence |].
+    destruct lv, lv'; auto; cbn in *; congruence.
+Qed.
+Lemma is_head_unique_id a nx h r r' lv lv' : WF a nx -> is_head a h r lv -> is_head a h r' lv' -> r = r' /\ lv = lv'.
+Proof.
+  intros W H H'. assert (r = r') by (eapply has_rt_unique; [apply (wf_nodup _ _ W) | eapply is_head_has_rt; eauto | eapply is_head_has_rt; eauto]).
+  subst r'. split; auto. eapply is_head_unique_root; eauto.
+Qed.
+
+Lemma live_is_head a nx r : WF a nx -> (In r (live a) <-> exists h, is_head a h r true).
+Proof.
+  intros W. rewrite in_live. split.
+  - intros [(b & Hb & L & R) | (x & Hx & L & R)].
+    + exists (b_hd b). left. exists b. auto.
+    + apply in_aunits in Hx. destruct Hx as (k & c & Hc & Hx).
+      destruct (live_chain_last _ _ _ _ _ W Hc Hx L) as (c0 & ->).
+      exists (a_id x). right. exists k, (c0 ++ [x]). split; auto. exists c0, x, []. repeat split; auto; intros z [].
+  - intros (h & [(b & Hb & A & B & C) | (k & c & Hc & CH)]).
+    + left. eauto.
+    + apply chain_head_in in CH. destruct CH as (x & Hx & A & B & C). right. exists x. split; [apply in_aunits; eauto | auto].
+Qed.
+
+Lemma kill_dead b : b_live b = false -> kill b = b.
+Proof. destruct b as [h t r v l]. cbn. intros ->. reflexivity. Qed.
+Lemma akill_dead x : a_del x = true -> akill x = x.
+Proof. destruct x as [i r v d]. cbn. intros ->. reflexivity. Qed.
+
+(* killing an id that is not a live head changes nothing *)
+Lemma akill_noop a nx h : WF a nx -> (forall r, ~ is_head a h r true) -> akill_id a h = a.
+Proof.
+  intros W NH. destruct a as [bs m]. unfold akill_id. cbn [a_seq a_map] in *. f_equal.
+  - unfold bmark. rewrite <- (map_id bs) at 2. apply map_ext_in. intros b Hb.
+    destruct (b_hd b =? h) eqn:E; auto. apply N.eqb_eq in E. apply kill_dead.
+    destruct (b_live b) eqn:L; auto. exfalso. apply (NH (b_rt b)). left. exists b. auto.
+  - rewrite <- (map_id m) at 2. apply map_ext_in. intros [k c] Hc. cbn [fst snd]. f_equal.
+    unfold amark. rewrite <- (map_id c) at 2. apply map_ext_in. intros x Hx.
+    destruct (a_id x =? h) eqn:E; auto. apply N.eqb_eq in E. apply akill_dead.
+    destruct (a_del x) eqn:L; auto. exfalso.
+    destruct (live_chain_last _ _ _ _ _ W Hc Hx L) as (c0 & ->).
+    apply (NH (a_rt x)). right. exists k, (c0 ++ [x]). split; auto. exists c0, x, []. repeat split; auto; intros z [].
+Qed.
+
+(* ---- well-formedness under the four operations ---- *)
+Lemma akill_ids a h : a_ids (akill_id a h) = a_ids a.
+Proof.
+  unfold a_ids, seq_ids, aunits, akill_id. cbn [a_seq a_map]. rewrite bmark_ids. f_equal.
+  induction (a_map a) as [| [k c] r IH]; cbn [map flat_map fst snd]; auto. rewrite !map_app, IH, amark_ids. reflexivity.
+Qed.
+Lemma bmark_rts bs h : map b_rt (bmark bs h) = map b_rt bs.
+Proof. unfold bmark. rewrite map_map. apply map_ext. intros b. destruct (b_hd b =? h); reflexivity. Qed.
+Lemma in_map_kill a h k c' : In (k, c') (a_map (akill_id a h)) <-> exists c, In (k, c) (a_map a) /\ c' = amark c h.
+Proof.
+  unfold akill_id. cbn [a_map]. rewrite in_map_iff. split.
+  - intros ([k0 c] & E & H). cbn in E. inversion E; subst. eauto.
+  - intros (c & H & ->). exists (k, c). auto.
+Qed.
+Lemma in_amark c h x' : In x' (amark c h) <-> exists x, In x c /\ x' = (if a_id x =? h then akill x else x).
+Proof. unfold amark. rewrite in_map_iff. split; intros (x & A & B); exists x; auto. Qed.
+
+Lemma WF_kill a nx h : WF a nx -> WF (akill_id a h) nx.
+Proof.
+  intros W. constructor.
+  - rewrite akill_ids. apply (wf_nodup _ _ W).
+  - rewrite akill_ids. apply (wf_lt _ _ W).
+  - unfold akill_id. cbn [a_map]. rewrite map_map. cbn [fst]. apply (wf_keys _ _ W).
+  - unfold akill_id. cbn [a_seq]. rewrite bmark_rts. apply (wf_rseq _ _ W).
+  - intros b' x' Hb Hx. cbn [a_seq akill_id] in Hb. apply in_bmark in Hb. destruct Hb as (b & Hb & ->).
+    apply in_aunits in Hx. destruct Hx as (k & c' & Hc & Hx). apply in_map_kill in Hc. destruct Hc as (c & Hc & ->).
+    apply in_amark in Hx. destruct Hx as (x & Hx & ->).
+    assert (b_rt b <> a_rt x) by (apply (wf_rsm _ _ W b x Hb); apply in_aunits; eauto).
+    destruct (b_hd b =? h), (a_id x =? h); auto.
+  - intros k1 c1 k2 c2 x1 x2 H1 H2 I1 I2 E. apply in_map_kill in H1, H2. destruct H1 as (d1 & H1 & ->). destruct H2 as (d2 & H2 & ->).
+    apply in_amark in I1, I2. destruct I1 as (y1 & I1 & ->). destruct I2 as (y2 & I2 & ->).
+    apply (wf_rmap _ _ W k1 d1 k2 d2 y1 y2); auto. destruct (a_id y1 =? h), (a_id y2 =? h); auto.
+  - intros r Hr. apply (wf_rlt _ _ W). apply in_app_or in Hr. apply in_or_app. destruct Hr as [Hr | Hr].
+    + left. cbn [a_seq akill_id] in Hr. rewrite bmark_rts in Hr. auto.
+    + right. apply in_map_iff in Hr. destruct Hr as (x' & <- & Hx). apply in_aunits in Hx. destruct Hx as (k & c' & Hc & Hx).
+      apply in_map_kill in Hc. destruct Hc as (c & Hc & ->). apply in_amark in Hx. destruct Hx as (x & Hx & ->).
+      replace (a_rt (if a_id x =? h then akill x else x)) with (a_rt x) by (destruct (a_id x =? h); auto).
+      apply in_map. apply in_aunits. eauto.
+  - intros k c' l1 x' l2 Hc E NE. apply in_map_kill in Hc. destruct Hc as (c & Hc & ->).
+    unfold amark in E. apply map_eq_app in E. destruct E as (m1 & m2 & -> & E1 & E2).
+    apply map_eq_cons in E2. destruct E2 as (x & m3 & -> & E2 & E3). subst x'.
+    assert (a_del x = true).
+    { apply (wf_clive _ _ W k _ m1 x m3 Hc eq_refl). intros ->. apply NE. subst l2. reflexivity. }
+    destruct (a_id x =? h); auto.
+  - intros k c' x' y' Hc Hx Hy E. apply in_map_kill in Hc. destruct Hc as (c & Hc & ->).
+    apply in_amark in Hx, Hy. destruct Hx as (x & Hx & ->). destruct Hy as (y & Hy & ->).
+    assert (a_val x = a_val y) by (apply (wf_cval _ _ W k c x y); auto; destruct (a_id x =? h), (a_id y =? h); auto).
+    destruct (a_id x =? h), (a_id y =? h); auto.
+  - intros k c' Hc. apply in_map_kill in Hc. destruct Hc as (c & Hc & ->). rewrite amark_ids. apply (wf_incr _ _ W k c Hc).
+Qed.
+
+Lemma bins_perm {X} (f : blk -> list X) bs pos b : Permutation (flat_map f (bins bs pos b)) (f b ++ flat_map f bs).
+Proof.
+  revert pos. induction bs as [| y r IH]; intros pos; cbn.
+  - apply Permutation_refl.
+  - destruct (b_live y).
+    + destruct pos as [| p]; cbn; [apply Permutation_refl |].
+      eapply perm_trans; [apply Permutation_app_head, IH |]. rewrite !app_assoc. apply Permutation_app_tail, Permutation_app_comm.
+    + cbn. eapply perm_trans; [apply Permutation_app_head, IH |]. rewrite !app_assoc. apply Permutation_app_tail, Permutation_app_comm.
+Qed.
+Lemma flat_map_single {X Y} (f : X -> Y) l : flat_map (fun x => [f x]) l = map f l.
+Proof. induction l; cbn; congruence. Qed.
+
+Lemma WF_ains a nx pos v : WF a nx -> WF (ains a pos nx v) (nx + 1).
+Proof.
+  intros W. pose proof (wf_lt _ _ W) as LT. pose proof (wf_rlt _ _ W) as RLT.
+  assert (PI : Permutation (a_ids (ains a pos nx v)) (nx :: a_ids a)).
+  { unfold a_ids, seq_ids, ains. cbn [a_seq a_map]. unfold aunits at 1. cbn [a_map]. fold (aunits a).
+    eapply perm_trans; [apply Permutation_app_tail, bins_perm |]. cbn. apply Permutation_refl. }
+  assert (PR : Permutation (map b_rt (bins (a_seq a) pos (newblk nx v))) (nx :: map b_rt (a_seq a))).
+  { rewrite <- !flat_map_single. eapply perm_trans; [apply bins_perm |]. cbn. apply Permutation_refl. }
+  constructor.
+  - eapply Permutation_NoDup; [apply Permutation_sym, PI |]. constructor; [| apply (wf_nodup _ _ W)].
+    intros F. apply LT in F. lia.
+  - intros i Hi. eapply Permutation_in in Hi; [| apply PI]. destruct Hi as [<- | Hi]; [lia | apply LT in Hi; lia].
+  - apply (wf_keys _ _ W).
+  - cbn [a_seq ains]. eapply Permutation_NoDup; [apply Permutation_sym, PR |]. constructor; [| apply (wf_rseq _ _ W)].
+    intros F. assert (nx < nx) by (apply RLT; apply in_or_app; auto). lia.
+  - intros b x Hb Hx. cbn [a_seq ains] in Hb. apply in_bins in Hb. destruct Hb as [-> | Hb]; [| apply (wf_rsm _ _ W); auto].
+    cbn. intros E. assert (nx < nx) by (apply RLT; apply in_or_app; right; rewrite E; apply in_map; auto). lia.
+  - apply (wf_rmap _ _ W).
+  - intros r Hr. apply in_app_or in Hr. destruct Hr as [Hr | Hr].
+    + cbn [a_seq ains] in Hr. eapply Permutation_in in Hr; [| apply PR]. destruct Hr as [<- | Hr]; [lia |].
+      assert (r < nx) by (apply RLT; apply in_or_app; auto). lia.
+    + assert (r < nx) by (apply RLT; apply in_or_app; auto). lia.
+  - apply (wf_clive _ _ W).
+  - apply (wf_cval _ _ W).
+  - apply (wf_incr _ _ W).
+Qed.
+
+Lemma bredo_perm bs j f : NoDup (flat_map b_ids bs) -> (exists b, In b bs /\ b_hd b = j) ->
+  Permutation (flat_map b_ids (bredo bs j f)) (f :: flat_map b_ids bs).
+Proof.
+  induction bs as [| b r IH]; intros ND (b0 & Hb0 & E0); [destruct Hb0 |].
+  cbn [flat_map] in ND. unfold bredo. cbn [map flat_map]. fold (bredo r j f).
+  destruct (b_hd b =? j) eqn:E.
+  - apply N.eqb_eq in E. rewrite bredo_notin; [cbn; apply Permutation_refl |].
+    intros b' Hb' E'. apply (nodup_app_disj _ _ j ND); [left; auto | eapply in_flat_ids; eauto; left; auto].
+  - destruct Hb0 as [<- | Hb0]; [apply N.eqb_neq in E; contradiction |].
+    eapply perm_trans; [apply Permutation_app_head, IH; eauto; eapply nodup_app_r; eauto |].
+    apply Permutation_sym, Permutation_middle.
+Qed.
+Lemma bredo_rts bs j f : map b_rt (bredo bs j f) = map b_rt bs.
+Proof. unfold bredo. rewrite map_map. apply map_ext. intros b. destruct (b_hd b =? j); reflexivity. Qed.
+
+Lemma WF_acopy_seq a nx j : WF a nx -> (exists b, In b (a_seq a) /\ b_hd b = j) -> WF (acopy_seq a j nx) (nx + 1).
+Proof.
+  intros W HJ. pose proof (wf_lt _ _ W) as LT. pose proof (wf_rlt _ _ W) as RLT.
+  assert (PI : Permutation (a_ids (acopy_seq a j nx)) (nx :: a_ids a)).
+  { unfold a_ids, seq_ids, acopy_seq. cbn [a_seq a_map]. unfold aunits at 1. cbn [a_map]. fold (aunits a).
+    eapply perm_trans; [apply Permutation_app_tail, bredo_perm; auto; apply nodup_seq_ids, (wf_nodup _ _ W) |]. apply Permutation_refl. }
+  constructor.
+  - eapply Permutation_NoDup; [apply Permutation_sym, PI |]. constructor; [| apply (wf_nodup _ _ W)].
+    intros F. apply LT in F. lia.
+  - intros i Hi. eapply Permutation_in in Hi; [| apply PI]. destruct Hi as [<- | Hi]; [lia | apply LT in Hi; lia].
+  - apply (wf_keys _ _ W).
+  - cbn [a_seq acopy_seq]. rewrite bredo_rts. apply (wf_rseq _ _ W).
+  - intros b' x Hb Hx. cbn [a_seq acopy_seq] in Hb. apply in_bredo in Hb. destruct Hb as (b & Hb & ->).
+    assert (b_rt b <> a_rt x) by (apply (wf_rsm _ _ W); auto). destruct (b_hd b =? j); auto.
+  - apply (wf_rmap _ _ W).
+  - intros r Hr. cbn [a_seq acopy_seq] in Hr. rewrite bredo_rts in Hr. apply RLT in Hr. lia.
+  - apply (wf_clive _ _ W).
+  - apply (wf_cval _ _ W).
+  - apply (wf_incr _ _ W).
+Qed.
+
+Lemma aset_snoc_perm (m : list (N * list aunit)) k x0 :
+  Permutation (flat_map snd (aset_chain m k (achain_of m k ++ [x0]))) (x0 :: flat_map snd m).
+Proof.
+  induction m as [| [k' c'] r IH]; cbn [aset_chain achain_of flat_map snd app]; [apply Permutation_refl |].
+  destruct (k' =? k); cbn [flat_map snd].
+  - rewrite <- app_assoc. apply Permutation_sym. apply (Permutation_middle c' (flat_map snd r) x0).
+  - eapply perm_trans; [apply Permutation_app_head, IH |]. apply Permutation_sym, Permutation_middle.
+Qed.
+
+Lemma in_chain_aappend a k x0 k' c' x : NoDup (map fst (a_map a)) ->
+  In (k', c') (a_map (aappend a k x0)) -> In x c' -> (exists c, In (k', c) (a_map a) /\ In x c) \/ (k' = k /\ x = x0).
+Proof.
+  intros NK Hc Hx. unfold aappend in Hc. cbn [a_map] in Hc. apply in_aset_chain in Hc; auto.
+  destruct Hc as [(-> & ->) | (NE & Hc)]; [| eauto].
+  apply in_app_or in Hx. destruct Hx as [Hx | [<- | []]]; auto. left.
+  destruct (in_dec N.eq_dec k (map fst (a_map a))) as [I | NI].
+  - exists (achain_of (a_map a) k). split; auto. apply achain_of_some; auto.
+  - rewrite achain_of_notin in Hx by auto. destruct Hx.
+Qed.
+
+Lemma WF_aappend a nx k x0 : WF a nx ->
+  (forall y, In y (achain_of (a_map a) k) -> a_del y = true) -> a_id x0 = nx ->
+  (a_rt x0 = nx \/ exists y, In y (achain_of (a_map a) k) /\ a_rt y = a_rt x0 /\ a_val y = a_val x0) ->
+  WF (aappend a k x0) (nx + 1).
+Proof.
+  intros W DEAD EI RT. pose proof (wf_lt _ _ W) as LT. pose proof (wf_rlt _ _ W) as RLT. pose proof (wf_keys _ _ W) as NK.
+  set (c := achain_of (a_map a) k) in *.
+  assert (INC : forall y, In y c -> In y (aunits a) /\ In (k, c) (a_map a)).
+  { intros y Hy. destruct (in_dec N.eq_dec k (map fst (a_map a))) as [I | NI].
+    - apply achain_of_some in I. fold c in I. split; auto. apply in_aunits. eauto.
+    - unfold c in Hy. rewrite achain_of_notin in Hy by auto. destruct Hy. }
+  assert (PI : Permutation (a_ids (aappend a k x0)) (nx :: a_ids a)).
+  { unfold a_ids, seq_ids, aappend. cbn [a_seq a_map]. unfold aunits at 1. cbn [a_map]. fold (aunits a).
+    eapply perm_trans; [apply Permutation_app_head, Permutation_map, aset_snoc_perm |]. cbn [map]. rewrite EI.
+    apply Permutation_sym, Permutation_middle. }
+  assert (RX : a_rt x0 < nx + 1).
+  { destruct RT as [-> | (y & Hy & E & _)]; [lia |]. rewrite <- E.
+    assert (a_rt y < nx) by (apply RLT; apply in_or_app; right; apply in_map; apply (INC y Hy)). lia. }
+  constructor.
+  - eapply Permutation_NoDup; [apply Permutation_sym, PI |]. constructor; [| apply (wf_nodup _ _ W)].
+    intros F. apply LT in F. lia.
+  - intros i Hi. eapply Permutation_in in Hi; [| apply PI]. destruct Hi as [<- | Hi]; [lia | apply LT in Hi; lia].
+  - unfold aappend. cbn [a_map]. rewrite aset_chain_keys. destruct (existsb (N.eqb k) (map fst (a_map a))) eqn:EX; auto.
+    apply nodup_app; auto; [repeat constructor; intros [] |]. intros x Hx [E | []]. subst x.
+    rewrite <- not_true_iff_false in EX. apply EX. apply existsb_exists. exists k. split; auto. apply N.eqb_refl.
+  - apply (wf_rseq _ _ W).
+  - intros b x Hb Hx. cbn [a_seq aappend] in Hb. apply in_aunits_aappend in Hx; auto.
+    destruct Hx as [Hx | ->]; [apply (wf_rsm _ _ W); auto |].
+    destruct RT as [-> | (y & Hy & E & _)].
+    + intros F. assert (nx < nx) by (apply RLT; apply in_or_app; left; rewrite <- F; apply in_map; auto). lia.
+    + rewrite <- E. apply (wf_rsm _ _ W); auto. apply (INC y Hy).
+  - intros k1 c1 k2 c2 x1 x2 H1 H2 I1 I2 E.
+    destruct (in_chain_aappend _ _ _ _ _ _ NK H1 I1) as [(d1 & G1 & J1) | (-> & ->)];
+      destruct (in_chain_aappend _ _ _ _ _ _ NK H2 I2) as [(d2 & G2 & J2) | (-> & ->)]; auto.
+    + eapply (wf_rmap _ _ W); eauto.
+    + destruct RT as [RT | (y & Hy & Ey & _)].
+      * exfalso. assert (a_rt x1 < nx) by (apply RLT; apply in_or_app; right; apply in_map; apply in_aunits; eauto). lia.
+      * apply (wf_rmap _ _ W k1 d1 k c x1 y); auto; [apply (INC y Hy) | congruence].
+    + destruct RT as [RT | (y & Hy & Ey & _)].
+      * exfalso. assert (a_rt x2 < nx) by (apply RLT; apply in_or_app; right; apply in_map; apply in_aunits; eauto). lia.
+      * symmetry. apply (wf_rmap _ _ W k2 d2 k c x2 y); auto; [apply (INC y Hy) | congruence].
+  - intros r Hr. apply in_app_or in Hr. destruct Hr as [Hr | Hr].
+    + assert (r < nx) by (apply RLT; apply in_or_app; auto). lia.
+    + apply in_map_iff in Hr. destruct Hr as (x & <- & Hx). apply in_aunits_aappend in Hx; auto. destruct Hx as [Hx | ->]; auto.
+      assert (a_rt x < nx) by (apply RLT; apply in_or_app; right; apply in_map; auto). lia.
+  - intros k' c' l1 x l2 Hc E NE. unfold aappend in Hc. cbn [a_map] in Hc. apply in_aset_chain in Hc; auto.
+    destruct Hc as [(-> & ->) | (NEk & Hc)]; [| eapply (wf_clive _ _ W); eauto].
+    apply DEAD. fold c in E. destruct (list_last_case l2) as [-> | (l2' & w & ->)]; [contradiction |].
+    rewrite app_comm_cons, app_assoc in E. apply app_inj_tail in E. destruct E as (-> & _). apply in_or_app; right; left; auto.
+  - intros k' c' x y Hc Hx Hy E.
+    destruct (in_chain_aappend _ _ _ _ _ _ NK Hc Hx) as [(d1 & G1 & J1) | (-> & ->)];
+      destruct (in_chain_aappend _ _ _ _ _ _ NK Hc Hy) as [(d2 & G2 & J2) | (EK & ->)]; auto.
+    + assert (d1 = d2) by (rewrite <- (achain_of_in _ _ _ NK G1), <- (achain_of_in _ _ _ NK G2); reflexivity). subst d2.
+      eapply (wf_cval _ _ W); eauto.
+    + subst k'. destruct RT as [RT | (y & Hy0 & Ey & Ev)].
+      * exfalso. assert (a_rt x < nx) by (apply RLT; apply in_or_app; right; apply in_map; apply in_aunits; eauto). lia.
+      * rewrite <- Ev. assert (d1 = c) by (rewrite <- (achain_of_in _ _ _ NK G1); reflexivity). subst d1.
+        apply (wf_cval _ _ W k c x y); auto. congruence.
+    + destruct RT as [RT | (y0 & Hy0 & Ey & Ev)].
+      * exfalso. assert (a_rt y < nx) by (apply RLT; apply in_or_app; right; apply in_map; apply in_aunits; eauto). lia.
+      * rewrite <- Ev. assert (d2 = c) by (rewrite <- (achain_of_in _ _ _ NK G2); reflexivity). subst d2.
+        apply (wf_cval _ _ W k c y0 y); auto. congruence.
+  - intros k' c' Hc. unfold aappend in Hc. cbn [a_map] in Hc. apply in_aset_chain in Hc; auto.
+    destruct Hc as [(-> & ->) | (NEk & Hc)]; [| eapply (wf_incr _ _ W); eauto]. fold c.
+    rewrite map_app. cbn [map]. apply incr_snoc. split.
+    + destruct (in_dec N.eq_dec k (map fst (a_map a))) as [I | NI].
+      * apply (wf_incr _ _ W k c). apply achain_of_some in I. auto.
+      * unfold c. rewrite achain_of_notin by auto. exact I.
+    + intros i Hi. rewrite EI. apply LT. unfold a_ids. apply in_or_app. right.
+      apply in_map_iff in Hi. destruct Hi as (y & <- & Hy). apply in_map. apply (INC y Hy).
+Qed.
+
+
+
+(* ---- extension of an abstract state: what later states preserve ---- *)
+Record AX (X : list N) (a : astate) (nx : N) (a' : astate) (nx' : N) : Prop := {
+  ax_nx : nx <= nx';
+  ax_rt : forall i r, has_rt a i r -> has_rt a' i r;
+  ax_rt_new : forall i r, has_rt a' i r -> has_rt a i r \/ nx <= i;
+  ax_render : forall S, (forall r, In r S -> r < nx) -> render a' S = render a S;
+  ax_ids : forall k, exists extra, aids (achain_of (a_map a') k) = aids (achain_of (a_map a) k) ++ extra /\ forall i, In i extra -> nx <= i;
+  ax_crt : forall k x, In x (achain_of (a_map a') k) -> a_rt x < nx -> exists y, In y (achain_of (a_map a) k) /\ a_rt y = a_rt x;
+  ax_heads : forall h r, is_head a h r false -> In h X \/ is_head a' h r false }.
+
+Lemma AX_refl a nx : AX [] a nx a nx.
+Proof.
+  constructor; auto; try lia.
+  - intros k. exists []. rewrite app_nil_r. split; auto. intros i [].
+  - intros k x Hx _. eauto.
+Qed.
+Lemma AX_trans X1 X2 a1 n1 a2 n2 a3 n3 : AX X1 a1 n1 a2 n2 -> AX X2 a2 n2 a3 n3 -> AX (X1 ++ X2) a1 n1 a3 n3.
+Proof.
+  intros [p1 p2 p3 p4 p5 p6 p7] [q1 q2 q3 q4 q5 q6 q7]. constructor.
+  - lia.
+  - auto.
+  - intros i r H. destruct (q3 i r H) as [H' | H']; [| right; lia]. destruct (p3 i r H'); auto.
+  - intros S HS. rewrite q4, p4; auto. intros r Hr. apply HS in Hr. lia.
+  - intros k. destruct (p5 k) as (e1 & E1 & F1). destruct (q5 k) as (e2 & E2 & F2). exists (e1 ++ e2).
+    rewrite E2, E1, app_assoc. split; auto. intros i Hi. apply in_app_or in Hi. destruct Hi as [Hi | Hi]; [auto | apply F2 in Hi; lia].
+  - intros k x Hx L. destruct (q6 k x Hx) as (y & Hy & Ey); [lia |]. destruct (p6 k y Hy) as (z & Hz & Ez); [rewrite Ey; auto |].
+    exists z. split; auto. congruence.
+  - intros h r H. destruct (p7 h r H) as [I | H']; [left; apply in_or_app; auto |].
+    destruct (q7 h r H') as [I | H'']; [left; apply in_or_app; auto | auto].
+Qed.
+Lemma AX_weaken X X' a n a' n' : AX X a n a' n' -> incl X X' -> AX X' a n a' n'.
+Proof. intros [p1 p2 p3 p4 p5 p6 p7] I. constructor; auto. intros h r H. destruct (p7 h r H); auto. Qed.
+
+(* render ignores liveness flags and copies *)
+Lemma render_seq_ext (bs bs' : list blk) S :
+  map (fun b => (b_rt b, b_val b)) bs' = map (fun b => (b_rt b, b_val b)) bs ->
+  map b_val (filter (fun b => umem (b_rt b) S) bs') = map b_val (filter (fun b => umem (b_rt b) S) bs).
+Proof.
+  revert bs'. induction bs as [| b r IH]; intros bs' E; destruct bs' as [| b' r']; try discriminate; auto.
+  cbn in E. inversion E. cbn. rewrite H0. destruct (umem (b_rt b) S); cbn; rewrite ?H1, IH; auto.
+Qed.
+Lemma find_rt_ext (c c' : list aunit) S :
+  map (fun x => (a_rt x, a_val x)) c' = map (fun x => (a_rt x, a_val x)) c ->
+  option_map a_val (find (fun x => umem (a_rt x) S) c') = option_map a_val (find (fun x => umem (a_rt x) S) c).
+Proof.
+  revert c'. induction c as [| x t IH]; intros c' E; destruct c' as [| x' t']; try discriminate; auto.
+  cbn in E. inversion E. cbn. rewrite H0. destruct (umem (a_rt x) S); cbn; [congruence | auto].
+Qed.
+Definition rentry (S : list N) (kc : N * list aunit) : list (N * utok) :=
+  match find (fun x => umem (a_rt x) S) (snd kc) with Some x => [(fst kc, a_val x)] | None => [] end.
+Lemma rentry_alt S kc : rentry S kc = match option_map a_val (find (fun x => umem (a_rt x) S) (snd kc)) with Some v => [(fst kc, v)] | None => [] end.
+Proof. unfold rentry. destruct (find _ (snd kc)); reflexivity. Qed.
+Lemma render_unfold a S : render a S = (map b_val (filter (fun b => umem (b_rt b) S) (a_seq a)), flat_map (rentry S) (a_map a)).
+Proof. reflexivity. Qed.
+
+Lemma achain_of_map_amark (m : list (N * list aunit)) h k :
+  achain_of (map (fun kc => (fst kc, amark (snd kc) h)) m) k = amark (achain_of m k) h.
+Proof. induction m as [| [k' c] r IH]; cbn [map achain_of fst snd]; auto. destruct (k' =? k); auto. Qed.
+
+Lemma AX_kill a nx h : AX [] a nx (akill_id a h) nx.
+Proof.
+  constructor.
+  - lia.
+  - intros i r. apply has_rt_kill.
+  - intros i r H. left. apply has_rt_kill in H. auto.
+  - intros S _. rewrite !render_unfold. f_equal.
+    + apply render_seq_ext. unfold akill_id, bmark. cbn [a_seq]. rewrite map_map. apply map_ext.
+      intros b. destruct (b_hd b =? h); reflexivity.
+    + unfold akill_id. cbn [a_map]. rewrite flat_map_concat_map, map_map, <- flat_map_concat_map.
+      apply flat_map_ext. intros [k c]. rewrite !rentry_alt. cbn [fst snd].
+      rewrite (find_rt_ext c (amark c h)); auto. unfold amark. rewrite map_map. apply map_ext.
+      intros x. destruct (a_id x =? h); reflexivity.
+  - intros k. exists []. rewrite app_nil_r. split; [| intros i []]. unfold akill_id. cbn [a_map].
+    rewrite achain_of_map_amark, amark_ids. reflexivity.
+  - intros k x Hx _. unfold akill_id in Hx. cbn [a_map] in Hx. rewrite achain_of_map_amark in Hx.
+    apply amark_rt_in in Hx. destruct Hx as (z & Hz & E & _). eauto.
+  - intros h0 r H. right. apply is_head_kill. destruct (N.eq_dec h0 h) as [-> | NE]; [right; eauto | left; auto].
+Qed.
+
+Lemma filter_bins (P : blk -> bool) bs pos b : P b = false -> filter P (bins bs pos b) = filter P bs.
+Proof.
+  intros HP. revert pos. induction bs as [| y r IH]; intros pos; cbn; [rewrite HP; auto |].
+  destruct (b_live y).
+  - destruct pos as [| p]; cbn; [rewrite HP; auto | rewrite IH; auto].
+  - cbn. rewrite IH; auto.
+Qed.
+
+Lemma AX_ains a nx pos v : AX [] a nx (ains a pos nx v) (nx + 1).
+Proof.
+  constructor.
+  - lia.
+  - intros i r H. apply has_rt_ains. auto.
+  - intros i r H. apply has_rt_ains in H. destruct H as [H | (-> & _)]; [auto | right; lia].
+  - intros S HS. rewrite !render_unfold. f_equal. cbn [a_seq ains]. rewrite filter_bins; auto.
+    cbn. apply umem_false. intros F. apply HS in F. lia.
+  - intros k. exists []. rewrite app_nil_r. split; auto. intros i [].
+  - intros k x Hx _. eauto.
+  - intros h r H. right. apply is_head_ains. auto.
+Qed.
+
+Lemma AX_acopy_seq a nx j : AX [j] a nx (acopy_seq a j nx) (nx + 1).
+Proof.
+  constructor.
+  - lia.
+  - intros i r H. apply has_rt_acopy_seq. auto.
+  - intros i r H. apply has_rt_acopy_seq in H. destruct H as [H | (-> & _)]; [auto | right; lia].
+  - intros S _. rewrite !render_unfold. f_equal. apply render_seq_ext. unfold acopy_seq, bredo. cbn [a_seq].
+    rewrite map_map. apply map_ext. intros b. destruct (b_hd b =? j); reflexivity.
+  - intros k. exists []. rewrite app_nil_r. split; auto. intros i [].
+  - intros k x Hx _. eauto.
+  - intros h r H. destruct (N.eq_dec h j) as [-> | NE]; [left; left; auto | right].
+    apply is_head_acopy_seq. destruct H as [H | H]; [left; auto | right; right; auto].
+Qed.
+
+Lemma achain_of_aset_other m k c k' : k' <> k -> achain_of (aset_chain m k c) k' = achain_of m k'.
+Proof.
+  intros NE. induction m as [| [k1 c1] r IH]; cbn.
+  - assert (k =? k' = false) as -> by (apply N.eqb_neq; auto). reflexivity.
+  - destruct (k1 =? k) eqn:E; cbn.
+    + apply N.eqb_eq in E. subst k1. assert (k =? k' = false) as -> by (apply N.eqb_neq; auto). reflexivity.
+    + destruct (k1 =? k'); auto.
+Qed.
+Lemma find_snoc {X} (f : X -> bool) l x : find f (l ++ [x]) = match find f l with Some y => Some y | None => if f x then Some x else None end.
+Proof. induction l as [| y t IH]; cbn; auto. destruct (f y); auto. Qed.
+Lemma flat_rentry_aset m k c' S :
+  option_map a_val (find (fun x => umem (a_rt x) S) c') = option_map a_val (find (fun x => umem (a_rt x) S) (achain_of m k)) ->
+  flat_map (rentry S) (aset_chain m k c') = flat_map (rentry S) m.
+Proof.
+  induction m as [| [k1 c1] r IH]; cbn [aset_chain achain_of flat_map]; intros H.
+  - rewrite rentry_alt. cbn [fst snd]. rewrite H. reflexivity.
+  - destruct (k1 =? k) eqn:E; cbn [flat_map].
+    + apply N.eqb_eq in E. subst k1. f_equal. rewrite !rentry_alt. cbn [fst snd]. rewrite H. reflexivity.
+    + rewrite IH; auto.
+Qed.
+
+Lemma AX_aappend X a nx k x0 : NoDup (map fst (a_map a)) -> a_id x0 = nx ->
+  (a_rt x0 = nx \/ exists y, In y (achain_of (a_map a) k) /\ a_rt y = a_rt x0 /\ a_val y = a_val x0) ->
+  (forall h, is_head a h (a_rt x0) false -> In h X) ->
+  AX X a nx (aappend a k x0) (nx + 1).
+Proof.
+  intros NK EI RT HX. constructor.
+  - lia.
+  - intros i r H. apply has_rt_aappend; auto.
+  - intros i r H. apply has_rt_aappend in H; auto. destruct H as [H | (-> & _)]; [auto | right; lia].
+  - intros S HS. rewrite !render_unfold. f_equal. unfold aappend. cbn [a_map]. apply flat_rentry_aset.
+    rewrite find_snoc. destruct (find _ (achain_of (a_map a) k)) as [y |] eqn:F; auto.
+    destruct (umem (a_rt x0) S) eqn:M; auto. exfalso. apply umem_iff in M.
+    destruct RT as [RT | (y & Hy & Ey & _)].
+    + apply HS in M. lia.
+    + eapply find_none in F; eauto. apply umem_false in F. apply F. rewrite Ey. auto.
+  - intros k'. unfold aappend. cbn [a_map]. destruct (N.eq_dec k' k) as [-> | NE].
+    + rewrite achain_of_aset. exists [nx]. rewrite map_app. cbn. rewrite EI. split; auto. intros i [<- | []]. lia.
+    + rewrite achain_of_aset_other by auto. exists []. rewrite app_nil_r. split; auto. intros i [].
+  - intros k' x Hx L. unfold aappend in Hx. cbn [a_map] in Hx. destruct (N.eq_dec k' k) as [-> | NE].
+    + rewrite achain_of_aset in Hx. apply in_app_or in Hx. destruct Hx as [Hx | [<- | []]]; [eauto |].
+      destruct RT as [RT | (y & Hy & Ey & _)]; [lia | eauto].
+    + rewrite achain_of_aset_other in Hx by auto. eauto.
+  - intros h r H. destruct (N.eq_dec r (a_rt x0)) as [-> | NE]; [left; auto | right].
+    apply is_head_aappend; auto. destruct H as [H | H]; [left; auto |]. right.
+    apply (map_head_chain _ k) in H; auto. destruct H as [H | H]; [left; auto | right; right; auto].
+Qed.
+
+
+
+(* ---- births and deaths of lineages ---- *)
+Definition birth (a : astate) (nx : N) (a' : astate) (r0 : N) : Prop :=
+  (forall h r lv, is_head a' h r lv <-> (is_head a h r lv /\ r <> r0) \/ (h = nx /\ r = r0 /\ lv = true)) /\
+  (forall i r, has_rt a' i r <-> has_rt a i r \/ (i = nx /\ r = r0)).
+
+Lemma birth_live a nx a' n' r0 : WF a nx -> WF a' n' -> birth a nx a' r0 -> ~ In r0 (live a) ->
+  forall r, In r (live a') <-> In r (live a) \/ r = r0.
+Proof.
+  intros W W' (BH & _) NL r. rewrite (live_is_head _ _ _ W'), (live_is_head _ _ _ W). split.
+  - intros (h & H). apply BH in H. destruct H as [(H & _) | (_ & -> & _)]; eauto.
+  - intros [(h & H) | ->].
+    + exists h. apply BH. left. split; auto. intros ->. apply NL. apply (live_is_head _ _ _ W). eauto.
+    + exists nx. apply BH. right. auto.
+Qed.
+
+Lemma kill_live a nx h rh : WF a nx -> is_head a h rh true ->
+  forall r, In r (live (akill_id a h)) <-> In r (live a) /\ r <> rh.
+Proof.
+  intros W H r. rewrite (live_is_head _ _ _ (WF_kill _ _ h W)), (live_is_head _ _ _ W). split.
+  - intros (h' & H'). apply is_head_kill in H'. destruct H' as [(H' & NE) | (_ & F & _)]; [| discriminate].
+    split; [eauto |]. intros ->. destruct (is_head_unique_root _ _ _ _ _ _ _ W H H'). congruence.
+  - intros ((h' & H') & NE). exists h'. apply is_head_kill. left. split; auto. intros ->.
+    destruct (is_head_unique_id _ _ _ _ _ _ _ W H H'). congruence.
+Qed.
+
+(* births: the three operations *)
+Lemma birth_ains a nx pos v : WF a nx -> birth a nx (ains a pos nx v) nx.
+Proof.
+  intros W. split.
+  - intros h r lv. rewrite is_head_ains. split.
+    + intros [H | H]; auto. left. split; auto. intros ->.
+      apply is_head_has_rt in H. assert (nx < nx); [| lia]. apply (wf_rlt _ _ W).
+      destruct H as [(b & A & B & C) | (x & A & B & C)]; apply in_or_app; [left | right]; rewrite <- C; apply in_map; auto.
+    + intros [(H & _) | H]; auto.
+  - intros i r. apply has_rt_ains.
+Qed.
+
+Lemma birth_acopy_seq a nx j rj : WF a nx -> seq_head (a_seq a) j rj false -> birth a nx (acopy_seq a j nx) rj.
+Proof.
+  intros W SH. assert (HJ : is_head a j rj false) by (left; auto). split.
+  - intros h r lv. rewrite is_head_acopy_seq. split.
+    + intros [(H & NE) | [(-> & -> & lv0 & H) | H]].
+      * left. split; [left; auto |]. intros ->. destruct (is_head_unique_root _ _ _ _ _ _ _ W HJ (or_introl H)). congruence.
+      * right. destruct (is_head_unique_id _ _ _ _ _ _ _ W HJ (or_introl H)). auto.
+      * left. split; [right; auto |]. intros ->. destruct H as (k & c & Hc & CH). apply chain_head_in in CH.
+        destruct CH as (x & Hx & _ & R & _). destruct SH as (b & Hb & _ & R' & _).
+        apply (wf_rsm _ _ W b x Hb); [apply in_aunits; eauto | congruence].
+    + intros [([H | H] & NE) | (-> & -> & ->)].
+      * left. split; auto. intros ->. destruct (is_head_unique_id _ _ _ _ _ _ _ W HJ (or_introl H)). congruence.
+      * right; right; auto.
+      * right; left. split; auto. split; auto. eauto.
+  - intros i r. rewrite has_rt_acopy_seq. split.
+    + intros [H | (-> & lv & H)]; auto. right. destruct (is_head_unique_id _ _ _ _ _ _ _ W HJ (or_introl H)). auto.
+    + intros [H | (-> & ->)]; auto. right. split; auto. eauto.
+Qed.
+
+Lemma birth_aappend a nx k x0 : WF a nx -> a_id x0 = nx -> a_del x0 = false ->
+  (a_rt x0 = nx \/ exists y, In y (achain_of (a_map a) k) /\ a_rt y = a_rt x0) ->
+  birth a nx (aappend a k x0) (a_rt x0).
+Proof.
+  intros W EI LV RT. pose proof (wf_keys _ _ W) as NK. split.
+  - intros h r lv. rewrite is_head_aappend by auto. split.
+    + intros [H | [(H & NE) | [(-> & -> & D) | (k' & c & Hc & NE & H)]]].
+      * left. split; [left; auto |]. intros ->. destruct H as (b & Hb & _ & R & _).
+        destruct RT as [RT | (y & Hy & Ey)].
+        -- assert (nx < nx); [| lia]. apply (wf_rlt _ _ W). apply in_or_app. left. rewrite <- RT, <- R. apply in_map; auto.
+        -- apply (wf_rsm _ _ W b y Hb); [| congruence].
+           destruct (in_dec N.eq_dec k (map fst (a_map a))) as [I | NI];
+             [apply in_aunits; exists k, (achain_of (a_map a) k); split; auto; apply achain_of_some; auto | rewrite achain_of_notin in Hy by auto; destruct Hy].
+      * left. split; auto. right. apply (map_head_chain _ k); auto.
+      * right. rewrite LV in D. destruct lv; auto; discriminate.
+      * left. split; [right; exists k', c; auto |]. intros ->. apply chain_head_in in H. destruct H as (x & Hx & _ & R & _).
+        destruct RT as [RT | (y & Hy & Ey)].
+        -- assert (nx < nx); [| lia]. apply (wf_rlt _ _ W). apply in_or_app. right. rewrite <- RT, <- R. apply in_map. apply in_aunits; eauto.
+        -- apply NE. destruct (in_dec N.eq_dec k (map fst (a_map a))) as [I | NI]; [| rewrite achain_of_notin in Hy by auto; destruct Hy].
+           apply (wf_rmap _ _ W k' c k (achain_of (a_map a) k) x y); auto; [apply achain_of_some; auto | congruence].
+    + intros [([H | H] & NE) | (-> & -> & ->)].
+      * left; auto.
+      * apply (map_head_chain _ k) in H; auto. destruct H as [H | H]; [right; left; auto | right; right; right; auto].
+      * right; right; left. rewrite LV. auto.
+  - intros i r. rewrite has_rt_aappend by auto. rewrite EI. tauto.
+Qed.
+
+(* ---- summary of a transaction in progress: from (a0, nx0) to (a, nx) with effect e ---- *)
+Record TS (X : list N) (a0 : astate) (nx0 : N) (a : astate) (nx : N) (e : ueff) : Prop := {
+  ts_ax : AX X a0 nx0 a nx;
+  ts_wf : WF a nx;
+  ts_in : forall i, In i (e_ins e) -> nx0 <= i < nx;
+  ts_new : forall i r, has_rt a i r -> nx0 <= i -> In i (e_ins e);
+  ts_dh : forall j, In j (e_del e) -> exists r, is_head a j r false;
+  ts_c : forall n, In n (e_ins e) -> (forall r, ~ is_head a n r true) -> In n (e_del e);
+  ts_hd : forall i r h lv, In i (e_ins e) -> has_rt a i r -> is_head a h r lv -> In h (e_ins e);
+  ts_1 : forall i r, In i (e_ins e) -> has_rt a i r -> ~ In r (live a0);
+  ts_2 : forall r, In r (live a) -> In r (live a0) \/ exists i, In i (e_ins e) /\ has_rt a i r;
+  ts_3 : forall r, In r (live a0) -> ~ In r (live a) -> exists j, In j (e_del e) /\ ~ In j (e_ins e) /\ has_rt a j r;
+  ts_4 : forall j, In j (e_del e) -> ~ In j (e_ins e) -> exists r, has_rt a j r /\ In r (live a0) /\ ~ In r (live a);
+  ts_n4 : forall X0 k, In X0 (e_del e) -> ~ In X0 (e_ins e) -> In X0 (aids (achain_of (a_map a) k)) ->
+          forall i, In i (aids (achain_of (a_map a) k)) -> i < nx0 -> i <= X0;
+  ts_wf0 : WF a0 nx0 }.
+
+Lemma TS_init a nx : WF a nx -> TS [] a nx a nx eff0.
+Proof.
+  intros W. constructor; cbn; auto; try (intros; contradiction).
+  - apply AX_refl.
+  - intros i r H L. apply (wf_lt _ _ W) in H0 || idtac. assert (i < nx); [| lia]. apply (wf_lt _ _ W). apply in_a_ids. eauto.
+Qed.
+
+Lemma has_rt_lt a nx i r : WF a nx -> has_rt a i r -> i < nx.
+Proof. intros W H. apply (wf_lt _ _ W). apply in_a_ids. eauto. Qed.
+
+Lemma TS_birth X Xop a0 nx0 a nx e a' r0 e' :
+  TS X a0 nx0 a nx e -> WF a' (nx + 1) -> AX Xop a nx a' (nx + 1) -> birth a nx a' r0 ->
+  ~ In r0 (live a0) -> ~ In r0 (live a) -> (forall j, In j Xop -> ~ In j (e_del e)) ->
+  (forall i, In i (e_ins e') <-> In i (e_ins e) \/ i = nx) -> (forall i, In i (e_del e') <-> In i (e_del e)) ->
+  TS (X ++ Xop) a0 nx0 a' (nx + 1) e'.
+Proof.
+  intros T W' A B N0 N1 NX EI ED. pose proof (ts_wf _ _ _ _ _ _ T) as W. destruct B as (BH & BR).
+  pose proof (birth_live a nx a' (nx + 1) r0 W W' (conj BH BR) N1) as BL.
+  assert (NXK : forall r, ~ has_rt a nx r) by (intros r H; apply (has_rt_lt _ _ _ _ W) in H; lia).
+  constructor.
+  - eapply AX_trans; eauto. apply (ts_ax _ _ _ _ _ _ T).
+  - auto.
+  - intros i Hi. apply EI in Hi. destruct Hi as [Hi | ->].
+    + apply (ts_in _ _ _ _ _ _ T) in Hi. lia.
+    + pose proof (ax_nx _ _ _ _ _ (ts_ax _ _ _ _ _ _ T)). lia.
+  - intros i r H L. apply EI. apply BR in H. destruct H as [H | (-> & _)]; auto. left. eapply (ts_new _ _ _ _ _ _ T); eauto.
+  - intros j Hj. apply ED in Hj. destruct (ts_dh _ _ _ _ _ _ T j Hj) as (r & H). exists r.
+    destruct (ax_heads _ _ _ _ _ A j r H) as [F | H']; auto. exfalso. apply (NX j F Hj).
+  - intros n Hn NL. apply ED. apply EI in Hn. destruct Hn as [Hn | ->].
+    + apply (ts_c _ _ _ _ _ _ T n Hn). intros r H. apply (NL r). apply BH. left. split; auto.
+      intros ->. apply N1. apply (live_is_head _ _ _ W). eauto.
+    + exfalso. apply (NL r0). apply BH. right. auto.
+  - intros i r h lv Hi HR HH. apply EI. apply BH in HH. destruct HH as [(HH & NE) | (-> & _)]; auto. left.
+    apply BR in HR. destruct HR as [HR | (_ & ->)]; [| contradiction].
+    apply EI in Hi. destruct Hi as [Hi | ->]; [| destruct (NXK _ HR)]. eapply (ts_hd _ _ _ _ _ _ T); eauto.
+  - intros i r Hi HR. apply BR in HR. destruct HR as [HR | (-> & ->)]; auto.
+    apply EI in Hi. destruct Hi as [Hi | ->]; [| destruct (NXK _ HR)]. eapply (ts_1 _ _ _ _ _ _ T); eauto.
+  - intros r Hr. apply BL in Hr. destruct Hr as [Hr | ->].
+    + destruct (ts_2 _ _ _ _ _ _ T r Hr) as [H | (i & Hi & H)]; auto. right. exists i. split; [apply EI; auto | apply BR; auto].
+    + right. exists nx. split; [apply EI; auto | apply BR; auto].
+  - intros r Hr NL. destruct (ts_3 _ _ _ _ _ _ T r Hr) as (j & Hj & NJ & H).
+    + intros F. apply NL. apply BL. auto.
+    + exists j. split; [apply ED; auto |]. split; [| apply BR; auto].
+      intros F. apply EI in F. destruct F as [F | ->]; [auto | destruct (NXK _ H)].
+  - intros j Hj NJ. apply ED in Hj. destruct (ts_4 _ _ _ _ _ _ T j Hj) as (r & H & L0 & NL).
+    + intros F. apply NJ. apply EI. auto.
+    + exists r. split; [apply BR; auto |]. split; auto. intros F. apply BL in F. destruct F as [F | ->]; auto.
+  - intros X0 k HX NI IX i Hi Li. apply ED in HX.
+    assert (NI' : ~ In X0 (e_ins e)) by (intros F; apply NI; apply EI; auto).
+    destruct (ax_ids _ _ _ _ _ A k) as (extra & EQ & EX). rewrite EQ in IX, Hi.
+    pose proof (ax_nx _ _ _ _ _ (ts_ax _ _ _ _ _ _ T)) as LE.
+    assert (X0 < nx). { destruct (ts_dh _ _ _ _ _ _ T X0 HX) as (r & H). apply is_head_has_rt in H. eapply has_rt_lt; eauto. }
+    apply in_app_or in IX. destruct IX as [IX | IX]; [| apply EX in IX; lia].
+    apply in_app_or in Hi. destruct Hi as [Hi | Hi]; [| apply EX in Hi; lia].
+    eapply (ts_n4 _ _ _ _ _ _ T); eauto.
+  - apply (ts_wf0 _ _ _ _ _ _ T).
+Qed.
+
+Lemma chain_last_max a nx k c x : WF a nx -> In (k, c) (a_map a) -> In x c -> a_del x = false ->
+  forall i, In i (aids c) -> i <= a_id x.
+Proof.
+  intros W Hc Hx L i Hi. destruct (live_chain_last _ _ _ _ _ W Hc Hx L) as (c0 & ->).
+  pose proof (wf_incr _ _ W k _ Hc) as INC. rewrite map_app in INC, Hi. cbn [map] in INC, Hi.
+  apply incr_snoc in INC. destruct INC as (_ & INC). apply in_app_or in Hi. destruct Hi as [Hi | [<- | []]]; [apply INC in Hi |]; lia.
+Qed.
+Lemma chain_of_id a k c i : NoDup (a_ids a) -> NoDup (map fst (a_map a)) -> In (k, c) (a_map a) -> In i (aids c) ->
+  forall k', In i (aids (achain_of (a_map a) k')) -> k' = k.
+Proof.
+  intros ND NK Hc Hi k' Hi'. destruct (in_dec N.eq_dec k' (map fst (a_map a))) as [I | NI]; [| rewrite achain_of_notin in Hi' by auto; destruct Hi'].
+  apply achain_of_some in I. pose proof (nodup_map_ids _ ND) as NDm. unfold aunits in NDm. rewrite flat_map_concat_map, concat_map, map_map, <- flat_map_concat_map in NDm.
+  assert ((k', achain_of (a_map a) k') = (k, c)) as E by (eapply (nodup_flat_unique (fun kc => aids (snd kc))); eauto).
+  inversion E; auto.
+Qed.
+
+Lemma TS_kill X a0 nx0 a nx e h rh e' :
+  TS X a0 nx0 a nx e -> is_head a h rh true ->
+  (forall i, In i (e_ins e') <-> In i (e_ins e)) -> (forall i, In i (e_del e') <-> In i (e_del e) \/ i = h) ->
+  TS X a0 nx0 (akill_id a h) nx e'.
+Proof.
+  intros T HH EI ED. pose proof (ts_wf _ _ _ _ _ _ T) as W. pose proof (WF_kill _ _ h W) as W'.
+  pose proof (kill_live a nx h rh W HH) as KL.
+  constructor.
+  - rewrite <- (app_nil_r X). eapply AX_trans; [apply (ts_ax _ _ _ _ _ _ T) | apply AX_kill].
+  - auto.
+  - intros i Hi. apply EI in Hi. apply (ts_in _ _ _ _ _ _ T); auto.
+  - intros i r H L. apply EI. apply has_rt_kill in H. eapply (ts_new _ _ _ _ _ _ T); eauto.
+  - intros j Hj. apply ED in Hj. destruct Hj as [Hj | ->].
+    + destruct (ts_dh _ _ _ _ _ _ T j Hj) as (r & H). exists r. apply is_head_kill.
+      destruct (N.eq_dec j h) as [-> | NE]; [right; eauto | left; auto].
+    + exists rh. apply is_head_kill. right. eauto.
+  - intros n Hn NL. apply ED. apply EI in Hn. destruct (N.eq_dec n h) as [-> | NE]; auto. left.
+    apply (ts_c _ _ _ _ _ _ T n Hn). intros r H. apply (NL r). apply is_head_kill. left. auto.
+  - intros i r h0 lv Hi HR HHd. apply EI. apply EI in Hi. apply has_rt_kill in HR. apply is_head_kill in HHd.
+    destruct HHd as [(HHd & _) | (-> & _ & lv0 & HHd)]; eapply (ts_hd _ _ _ _ _ _ T); eauto.
+  - intros i r Hi HR. apply EI in Hi. apply has_rt_kill in HR. eapply (ts_1 _ _ _ _ _ _ T); eauto.
+  - intros r Hr. apply KL in Hr. destruct Hr as (Hr & _).
+    destruct (ts_2 _ _ _ _ _ _ T r Hr) as [H | (i & Hi & H)]; auto. right. exists i. split; [apply EI; auto | apply has_rt_kill; auto].
+  - intros r Hr NL. destruct (in_dec N.eq_dec r (live a)) as [I | NI].
+    + assert (r = rh) as -> by (destruct (N.eq_dec r rh); auto; exfalso; apply NL; apply KL; auto).
+      exists h. split; [apply ED; auto |]. split; [| apply has_rt_kill; eapply is_head_has_rt; eauto].
+      intros F. apply EI in F. apply (ts_1 _ _ _ _ _ _ T h rh F); auto. eapply is_head_has_rt; eauto.
+    + destruct (ts_3 _ _ _ _ _ _ T r Hr NI) as (j & Hj & NJ & H). exists j. split; [apply ED; auto |].
+      split; [intros F; apply NJ; apply EI; auto | apply has_rt_kill; auto].
+  - intros j Hj NJ. assert (NJ' : ~ In j (e_ins e)) by (intros F; apply NJ; apply EI; auto).
+    apply ED in Hj. destruct Hj as [Hj | ->].
+    + destruct (ts_4 _ _ _ _ _ _ T j Hj NJ') as (r & H & L0 & NL). exists r. split; [apply has_rt_kill; auto |]. split; auto.
+      intros F. apply KL in F. tauto.
+    + exists rh. split; [apply has_rt_kill; eapply is_head_has_rt; eauto |].
+      assert (Lh : In rh (live a)) by (apply (live_is_head _ _ _ W); eauto). split.
+      * destruct (ts_2 _ _ _ _ _ _ T rh Lh) as [H | (i & Hi & H)]; auto. exfalso. apply NJ'.
+        eapply (ts_hd _ _ _ _ _ _ T); eauto.
+      * intros F. apply KL in F. tauto.
+  - intros X0 k HX NI IX i Hi Li. assert (NI' : ~ In X0 (e_ins e)) by (intros F; apply NI; apply EI; auto).
+    unfold akill_id in IX, Hi. cbn [a_map] in IX, Hi. rewrite achain_of_map_amark, amark_ids in IX, Hi.
+    apply ED in HX. destruct HX as [HX | ->]; [eapply (ts_n4 _ _ _ _ _ _ T); eauto |].
+    destruct HH as [(b & Hb & E & _) | (k' & c & Hc & CH)].
+    + exfalso. apply (nodup_app_disj _ _ h (wf_nodup _ _ W)).
+      * apply in_seq_ids. exists b. split; auto. left; auto.
+      * destruct (in_dec N.eq_dec k (map fst (a_map a))) as [I | NI2]; [| rewrite achain_of_notin in IX by auto; destruct IX].
+        apply in_map_iff in IX. destruct IX as (y & <- & Hy). apply in_map. apply in_aunits. exists k, (achain_of (a_map a) k). split; auto. apply achain_of_some; auto.
+    + apply chain_head_in in CH. destruct CH as (x & Hx & E & _ & D). cbn in D.
+      assert (k = k') as -> by (eapply (chain_of_id a k' c h); eauto; [apply (wf_nodup _ _ W) | apply (wf_keys _ _ W) | rewrite <- E; apply in_map; auto]).
+      rewrite (achain_of_in _ _ _ (wf_keys _ _ W) Hc) in Hi. rewrite <- E. apply (chain_last_max a nx k' c x W Hc Hx D i Hi).
+  - apply (ts_wf0 _ _ _ _ _ _ T).
+Qed.
+
+
+
+Lemma TS_eff_equiv X a0 nx0 a nx e e' :
+  TS X a0 nx0 a nx e -> (forall i, In i (e_ins e') <-> In i (e_ins e)) -> (forall i, In i (e_del e') <-> In i (e_del e)) ->
+  TS X a0 nx0 a nx e'.
+Proof.
+  intros [t1 t2 t3 t4 t5 t6 t7 t8 t9 t10 t11 t12 t13] EI ED. constructor; auto.
+  - intros i Hi. apply EI in Hi. auto.
+  - intros i r H L. apply EI. eauto.
+  - intros j Hj. apply ED in Hj. auto.
+  - intros n Hn NL. apply ED. apply EI in Hn. auto.
+  - intros i r h lv Hi HR HH. apply EI. apply EI in Hi. eauto.
+  - intros i r Hi. apply EI in Hi. eauto.
+  - intros r Hr. destruct (t9 r Hr) as [H | (i & Hi & H)]; auto. right. exists i. split; auto. apply EI; auto.
+  - intros r Hr NL. destruct (t10 r Hr NL) as (j & Hj & NJ & H). exists j. split; [apply ED; auto |]. split; auto.
+    intros F. apply NJ. apply EI; auto.
+  - intros j Hj NJ. apply ED in Hj. apply t11; auto. intros F. apply NJ. apply EI; auto.
+  - intros X0 k HX NI. apply ED in HX. apply t12; auto. intros F. apply NI. apply EI; auto.
+Qed.
+
+Lemma live_lt a nx r : WF a nx -> In r (live a) -> r < nx.
+Proof.
+  intros W H. apply (wf_rlt _ _ W). apply in_live in H. apply in_or_app.
+  destruct H as [(b & Hb & _ & <-) | (x & Hx & _ & <-)]; [left | right]; apply in_map; auto.
+Qed.
+
+(* all units of the chain are dead once its last unit is *)
+Lemma chain_all_dead a nx k : WF a nx ->
+  (forall h r, ~ (chain_head (achain_of (a_map a) k) h r true)) -> forall y, In y (achain_of (a_map a) k) -> a_del y = true.
+Proof.
+  intros W NH y Hy. destruct (a_del y) eqn:D; auto. exfalso.
+  destruct (in_dec N.eq_dec k (map fst (a_map a))) as [I | NI]; [| rewrite achain_of_notin in Hy by auto; destruct Hy].
+  apply achain_of_some in I. destruct (live_chain_last _ _ _ _ _ W I Hy D) as (c0 & E).
+  apply (NH (a_id y) (a_rt y)). rewrite E. exists c0, y, []. repeat split; auto; intros z [].
+Qed.
+
+Lemma adel_last_head a nx k h : WF a nx -> snd (adel_last (achain_of (a_map a) k)) = Some h ->
+  exists r, is_head a h r true /\ chain_head (achain_of (a_map a) k) h r true.
+Proof.
+  intros W E. pose proof (adel_last_spec _ (nodup_achain a k (wf_nodup _ _ W))) as K. rewrite E in K.
+  destruct K as (_ & c0 & w & EC & EW & D). exists (a_rt w).
+  assert (CH : chain_head (achain_of (a_map a) k) h (a_rt w) true).
+  { rewrite EC. exists c0, w, []. repeat split; auto; intros z []. }
+  split; auto. right. exists k, (achain_of (a_map a) k). split; auto. apply achain_of_some.
+  destruct (in_dec N.eq_dec k (map fst (a_map a))) as [I | NI]; auto. rewrite achain_of_notin in EC by auto. destruct c0; discriminate.
+Qed.
+
+(* after the optional kill of its last unit, the chain of k has no live unit *)
+Lemma akill_opt_dead a nx k : WF a nx ->
+  let o := snd (adel_last (achain_of (a_map a) k)) in
+  forall y, In y (achain_of (a_map (akill_opt a o)) k) -> a_del y = true.
+Proof.
+  intros W o. pose proof (adel_last_spec _ (nodup_achain a k (wf_nodup _ _ W))) as K. fold o in K.
+  destruct o as [h |] eqn:EO; cbn [akill_opt].
+  - destruct K as (_ & c0 & w & EC & EW & D). unfold akill_id. cbn [a_map]. rewrite achain_of_map_amark.
+    intros y Hy. apply in_amark in Hy. destruct Hy as (x & Hx & ->).
+    destruct (a_id x =? h) eqn:E; [reflexivity |]. rewrite EC in Hx. apply in_app_or in Hx. destruct Hx as [Hx | [<- | []]].
+    + destruct (in_dec N.eq_dec k (map fst (a_map a))) as [I | NI]; [| rewrite achain_of_notin in EC by auto; destruct c0; discriminate].
+      apply achain_of_some in I. apply in_split in Hx. destruct Hx as (l1 & l2 & ->).
+      apply (wf_clive _ _ W k _ l1 x (l2 ++ [w]) I); [rewrite EC, <- app_assoc; reflexivity | destruct l2; discriminate].
+    + apply N.eqb_neq in E. contradiction.
+  - apply (chain_all_dead a nx k W). intros h r CH. unfold o in EO.
+    destruct CH as (l1 & x & l2 & EC & A & B & C & D).
+    destruct (in_dec N.eq_dec k (map fst (a_map a))) as [I | NI]; [| rewrite achain_of_notin in EC by auto; destruct l1; discriminate].
+    apply achain_of_some in I. cbn in C.
+    assert (In x (achain_of (a_map a) k)) as Hx by (rewrite EC; apply in_or_app; right; left; auto).
+    destruct (live_chain_last _ _ _ _ _ W I Hx C) as (c0 & EC'). rewrite EC', adel_last_snoc in EO. cbn in EO. rewrite C in EO. discriminate.
+Qed.
+
+Lemma TS_kill_opt X a0 nx0 a nx e o e' :
+  TS X a0 nx0 a nx e -> (forall h, o = Some h -> exists r, is_head a h r true) ->
+  (forall i, In i (e_ins e') <-> In i (e_ins e)) -> (forall i, In i (e_del e') <-> In i (e_del e) \/ In i (dels o)) ->
+  TS X a0 nx0 (akill_opt a o) nx e'.
+Proof.
+  intros T HO EI ED. destruct o as [h |]; cbn [akill_opt dels] in *.
+  - destruct (HO h eq_refl) as (r & H). eapply TS_kill; eauto. intros i. rewrite ED. cbn. intuition.
+  - eapply TS_eff_equiv; eauto. intros i. rewrite ED. cbn. intuition.
+Qed.
+
+Lemma TS_do_call X a0 nx0 a nx e us rs c : TS X a0 nx0 a nx e ->
+  exists a' nx' e2, do_call (conc a nx us rs) c = (conc a' nx' us rs, e2) /\ TS X a0 nx0 a' nx' (eff_app e e2).
+Proof.
+  intros T. pose proof (ts_wf _ _ _ _ _ _ T) as W. pose proof (wf_nodup _ _ W) as ND. pose proof (wf_keys _ _ W) as NK.
+  pose proof (ax_nx _ _ _ _ _ (ts_ax _ _ _ _ _ _ T)) as LE.
+  destruct c as [pos v | pos | k v | k].
+  - (* insert *)
+    rewrite conc_ins. eexists _, _, _. split; [reflexivity |].
+    rewrite <- (app_nil_r X). eapply (TS_birth X [] a0 nx0 a nx e _ nx); [exact T | | | | | | | |].
+    + apply WF_ains; auto.
+    + apply AX_ains.
+    + apply birth_ains; auto.
+    + intros F. apply (live_lt _ _ _ (ts_wf0 _ _ _ _ _ _ T)) in F. lia.
+    + intros F. apply (live_lt _ _ _ W) in F. lia.
+    + intros j [].
+    + intros i. cbn. rewrite in_app_iff. cbn. intuition.
+    + intros i. cbn. rewrite app_nil_r. tauto.
+  - (* delete *)
+    destruct (conc_del a nx us rs pos ND) as (EQ & HO). rewrite EQ. eexists _, _, _. split; [reflexivity |].
+    eapply TS_kill_opt; eauto.
+    + intros h E. destruct (HO h E) as (r & H). exists r. left. auto.
+    + intros i. cbn. rewrite app_nil_r. tauto.
+    + intros i. cbn. rewrite in_app_iff. tauto.
+  - (* set *)
+    rewrite conc_set; auto.
+    2:{ intros x Hx E. assert (a_rt x < nx); [| lia]. apply (wf_rlt _ _ W). apply in_or_app. right. apply in_map; auto. }
+    eexists _, _, _. split; [reflexivity |].
+    set (o := snd (adel_last (achain_of (a_map a) k))).
+    assert (T1 : TS X a0 nx0 (akill_opt a o) nx {| e_ins := e_ins e; e_del := e_del e ++ dels o |}).
+    { eapply TS_kill_opt; eauto.
+      - intros h E. destruct (adel_last_head a nx k h W E) as (r & H & _). eauto.
+      - intros i. cbn. tauto.
+      - intros i. cbn. rewrite in_app_iff. tauto. }
+    pose proof (ts_wf _ _ _ _ _ _ T1) as W1.
+    rewrite <- (app_nil_r X). eapply (TS_birth X [] a0 nx0 _ nx _ _ nx); [apply T1 | | | | | | | |].
+    + apply WF_aappend; auto. apply (akill_opt_dead a nx k W).
+    + apply AX_aappend; auto; [apply (wf_keys _ _ W1) |]. cbn [a_rt newunit]. intros h H. exfalso.
+      apply is_head_has_rt in H. assert (nx < nx); [| lia]. apply (wf_rlt _ _ W1).
+      destruct H as [(b & A & B & C) | (x & A & B & C)]; apply in_or_app; [left | right]; rewrite <- C; apply in_map; auto.
+    + apply (birth_aappend _ nx k (newunit nx v) W1); auto.
+    + intros F. apply (live_lt _ _ _ (ts_wf0 _ _ _ _ _ _ T)) in F. lia.
+    + intros F. apply (live_lt _ _ _ W1) in F. lia.
+    + intros j [].
+    + intros i. cbn. rewrite in_app_iff. cbn. intuition.
+    + intros i. cbn. tauto.
+  - (* remove *)
+    rewrite conc_rem; auto. eexists _, _, _. split; [reflexivity |].
+    eapply TS_kill_opt; eauto.
+    + intros h E. destruct (adel_last_head a nx k h W E) as (r & H & _). eauto.
+    + intros i. cbn. rewrite app_nil_r. tauto.
+    + intros i. cbn. rewrite in_app_iff. tauto.
+Qed.
+
+
+
+(* ---- stack entries ---- *)
+Record ent_ok (a : astate) (nx : N) (E : stackitem) : Prop := {
+  eo_lt : forall i, In i (st_ins E) \/ In i (st_del E) -> i < nx;
+  eo_dh : forall j, In j (st_del E) -> exists r, is_head a j r false;
+  eo_d3 : forall i j r, In i (st_ins E) -> In j (to_redo_of E) -> has_rt a i r -> has_rt a j r -> False;
+  eo_pos : forall X k n, In X (to_redo_of E) -> In X (aids (achain_of (a_map a) k)) ->
+           In n (st_ins E) -> In n (aids (achain_of (a_map a) k)) ->
+           X < n /\ (forall i, In i (aids (achain_of (a_map a) k)) -> X < i -> i < n -> In i (st_ins E)) /\
+           (forall n', In n' (st_ins E) -> In n' (aids (achain_of (a_map a) k)) -> n < n' -> In n (st_del E));
+  eo_nd : NoDup (st_del E) }.
+
+Fixpoint pdisj (l : list stackitem) : Prop :=
+  match l with
+  | [] => True
+  | E :: r => (forall F i, In F r -> In i (st_del E) -> ~ In i (st_del F)) /\ pdisj r
+  end.
+Definition STK (a : astate) (nx : N) (stk : list stackitem) : Prop := (forall E, In E stk -> ent_ok a nx E) /\ pdisj stk.
+
+Lemma ent_ok_stable X a nx a' nx' E : WF a nx -> WF a' nx' ->
+  AX X a nx a' nx' -> (forall j, In j (st_del E) -> ~ In j X) -> ent_ok a nx E -> ent_ok a' nx' E.
+Proof.
+  intros W W' A NX [p1 p2 p3 p4 p5]. pose proof (ax_nx _ _ _ _ _ A) as LE.
+  assert (OLD : forall i r, i < nx -> has_rt a' i r -> has_rt a i r).
+  { intros i r L H. destruct (ax_rt_new _ _ _ _ _ A i r H); auto. lia. }
+  assert (OLDC : forall k i, i < nx -> In i (aids (achain_of (a_map a') k)) -> In i (aids (achain_of (a_map a) k))).
+  { intros k i L H. destruct (ax_ids _ _ _ _ _ A k) as (extra & EQ & EX). rewrite EQ in H. apply in_app_or in H.
+    destruct H as [H | H]; auto. apply EX in H. lia. }
+  constructor; auto.
+  - intros i Hi. apply p1 in Hi. lia.
+  - intros j Hj. destruct (p2 j Hj) as (r & H). exists r. destruct (ax_heads _ _ _ _ _ A j r H) as [F | H']; auto.
+    destruct (NX j Hj F).
+  - intros i j r Hi Hj H1 H2. apply (p3 i j r Hi Hj); apply OLD; auto.
+    apply in_to_redo in Hj. apply p1. tauto.
+  - intros X0 k n HX IX Hn In'. assert (X0 < nx) by (apply in_to_redo in HX; apply p1; tauto). assert (n < nx) by (apply p1; auto).
+    destruct (p4 X0 k n HX (OLDC k _ H IX) Hn (OLDC k _ H0 In')) as (A1 & A2 & A3). split; auto. split.
+    + intros i Hi L1 L2. apply A2; auto. apply OLDC; [lia | auto].
+    + intros n' Hn' In'' L. apply (A3 n'); auto.
+Qed.
+
+Lemma pdisj_app l1 l2 : pdisj (l1 ++ l2) <->
+  pdisj l1 /\ pdisj l2 /\ (forall E F i, In E l1 -> In F l2 -> In i (st_del E) -> ~ In i (st_del F)).
+Proof.
+  induction l1 as [| E r IH]; cbn.
+  - intuition.
+  - rewrite IH. split.
+    + intros (A & B & C & D). repeat split; auto.
+      * intros F i HF. apply A. apply in_or_app; auto.
+      * intros E0 F i [<- | HE] HF; [apply A; apply in_or_app; auto | eauto].
+    + intros ((A & B) & C & D). repeat split; auto.
+      * intros F i HF. apply in_app_or in HF. destruct HF; [apply A; auto | apply (D E F i); auto].
+      * intros E0 F i HE HF. apply (D E0 F i); auto.
+Qed.
+Lemma pdisj_sym_cross l E : pdisj (E :: l) -> forall F i, In F l -> In i (st_del F) -> ~ In i (st_del E).
+Proof. intros (A & _) F i HF Hi Hi'. apply (A F i HF Hi' Hi). Qed.
+
+(* ---- the content sets behind the two stacks ---- *)
+Fixpoint ulist (a : astate) (us : list stackitem) (S : list N) : list (list N) :=
+  match us with [] => [S] | E :: rest => S :: ulist a rest (tau a E S) end.
+Fixpoint rlist (a : astate) (rs : list stackitem) (S : list N) : list (list N) :=
+  match rs with [] => [] | F :: rest => tau a F S :: rlist a rest (tau a F S) end.
+Definition kex (a : astate) (S : list N) : Prop :=
+  forall k x y, In x (achain_of (a_map a) k) -> In y (achain_of (a_map a) k) -> In (a_rt x) S -> In (a_rt y) S -> a_rt x = a_rt y.
+Definition bounded (nx : N) (S : list N) : Prop := forall r, In r S -> r < nx.
+
+Lemma ulist_length a us S : length (ulist a us S) = Datatypes.S (length us).
+Proof. revert S. induction us as [| E r IH]; intros S; cbn; auto. Qed.
+Lemma rlist_length a rs S : length (rlist a rs S) = length rs.
+Proof. revert S. induction rs as [| E r IH]; intros S; cbn; auto. Qed.
+
+Lemma roots_stable X a nx a' nx' l : WF a nx -> WF a' nx' -> AX X a nx a' nx' -> (forall i, In i l -> i < nx) -> roots a' l = roots a l.
+Proof.
+  intros W W' A HL. unfold roots. apply flat_map_ext_in'. intros i Hi.
+  destruct (rt_of a i) as [r |] eqn:E.
+  - apply rt_of_has in E. apply (ax_rt _ _ _ _ _ A) in E. rewrite (has_rt_of _ _ _ (wf_nodup _ _ W') E). reflexivity.
+  - destruct (rt_of a' i) as [r' |] eqn:E'; auto. exfalso. apply rt_of_has in E'.
+    destruct (ax_rt_new _ _ _ _ _ A i r' E') as [H | H]; [| apply HL in Hi; lia].
+    apply (rt_of_none _ _ E). apply in_a_ids. eauto.
+Qed.
+Lemma tau_stable X a nx a' nx' E S : WF a nx -> WF a' nx' -> AX X a nx a' nx' ->
+  (forall i, In i (st_ins E) \/ In i (st_del E) -> i < nx) -> tau a' E S = tau a E S.
+Proof.
+  intros W W' A HL. unfold tau. rewrite (roots_stable X a nx a' nx' (st_ins E)), (roots_stable X a nx a' nx' (to_redo_of E)); auto.
+  intros i Hi. apply in_to_redo in Hi. apply HL. tauto.
+Qed.
+Lemma ulist_stable X a nx a' nx' us S : WF a nx -> WF a' nx' -> AX X a nx a' nx' ->
+  (forall E i, In E us -> In i (st_ins E) \/ In i (st_del E) -> i < nx) -> ulist a' us S = ulist a us S.
+Proof.
+  intros W W' A. revert S. induction us as [| E r IH]; intros S HL; cbn; auto.
+  rewrite (tau_stable X a nx a' nx'), IH; auto.
+  - intros E0 i HE Hi. apply (HL E0 i); auto. right; auto.
+  - intros i Hi. apply (HL E i); auto. left; auto.
+Qed.
+Lemma rlist_stable X a nx a' nx' rs S : WF a nx -> WF a' nx' -> AX X a nx a' nx' ->
+  (forall E i, In E rs -> In i (st_ins E) \/ In i (st_del E) -> i < nx) -> rlist a' rs S = rlist a rs S.
+Proof.
+  intros W W' A. revert S. induction rs as [| E r IH]; intros S HL; cbn; auto.
+  rewrite (tau_stable X a nx a' nx'), IH; auto.
+  - intros E0 i HE Hi. apply (HL E0 i); auto. right; auto.
+  - intros i Hi. apply (HL E i); auto. left; auto.
+Qed.
+
+Lemma roots_bounded a nx l : WF a nx -> bounded nx (roots a l).
+Proof.
+  intros W r Hr. apply in_roots in Hr. destruct Hr as (i & _ & H). apply rt_of_has in H.
+  apply (wf_rlt _ _ W). apply in_or_app. destruct H as [(b & A & B & C) | (x & A & B & C)]; [left | right]; rewrite <- C; apply in_map; auto.
+Qed.
+Lemma tau_bounded a nx E S : WF a nx -> bounded nx S -> bounded nx (tau a E S).
+Proof.
+  intros W B r Hr. apply in_tau in Hr. destruct Hr as [(Hr & _) | Hr]; auto. eapply roots_bounded; eauto.
+Qed.
+Lemma ulist_bounded a nx us S : WF a nx -> bounded nx S -> forall S', In S' (ulist a us S) -> bounded nx S'.
+Proof.
+  intros W. revert S. induction us as [| E r IH]; intros S B S'; cbn.
+  - intros [<- | []]; auto.
+  - intros [<- | H]; auto. apply (IH (tau a E S)); auto. apply tau_bounded; auto.
+Qed.
+Lemma rlist_bounded a nx rs S : WF a nx -> bounded nx S -> forall S', In S' (rlist a rs S) -> bounded nx S'.
+Proof.
+  intros W. revert S. induction rs as [| E r IH]; intros S B S'; cbn; [intros [] |].
+  intros [<- | H]; [apply tau_bounded; auto |]. apply (IH (tau a E S)); auto. apply tau_bounded; auto.
+Qed.
+Lemma live_bounded a nx : WF a nx -> bounded nx (live a).
+Proof. intros W r. apply live_lt; auto. Qed.
+
+Lemma map_render_seteq a l l' : Forall2 seteq l l' -> map (render a) l = map (render a) l'.
+Proof. induction 1; cbn; auto. rewrite (render_seteq a x y); auto. congruence. Qed.
+Lemma ulist_seteq a us S S' : seteq S S' -> Forall2 seteq (ulist a us S) (ulist a us S').
+Proof.
+  revert S S'. induction us as [| E r IH]; intros S S' H; cbn; constructor; auto. apply IH. apply tau_seteq; auto.
+Qed.
+Lemma rlist_seteq a rs S S' : seteq S S' -> Forall2 seteq (rlist a rs S) (rlist a rs S').
+Proof.
+  revert S S'. induction rs as [| E r IH]; intros S S' H; cbn; constructor; [apply tau_seteq; auto |]. apply IH. apply tau_seteq; auto.
+Qed.
+Lemma map_render_stable X a nx a' nx' l : AX X a nx a' nx' -> (forall S, In S l -> bounded nx S) -> map (render a') l = map (render a) l.
+Proof. intros A H. apply map_ext_in. intros S HS. apply (ax_render _ _ _ _ _ A). apply H; auto. Qed.
+
+Lemma kex_stable X a nx a' nx' S : AX X a nx a' nx' -> bounded nx S -> kex a S -> kex a' S.
+Proof.
+  intros A B K k x y Hx Hy Ix Iy.
+  destruct (ax_crt _ _ _ _ _ A k x Hx (B _ Ix)) as (x0 & Hx0 & Ex). destruct (ax_crt _ _ _ _ _ A k y Hy (B _ Iy)) as (y0 & Hy0 & Ey).
+  rewrite <- Ex, <- Ey. apply (K k); auto; congruence.
+Qed.
+Lemma kex_seteq a S S' : seteq S S' -> kex a S -> kex a S'.
+Proof. intros H K k x y Hx Hy Ix Iy. apply (K k); auto; apply H; auto. Qed.
+Lemma kex_live a nx : WF a nx -> kex a (live a).
+Proof.
+  intros W k x y Hx Hy Ix Iy.
+  destruct (in_dec N.eq_dec k (map fst (a_map a))) as [I | NI]; [| rewrite achain_of_notin in Hx by auto; destruct Hx].
+  apply achain_of_some in I. set (c := achain_of (a_map a) k) in *.
+  assert (LR : forall z, In z c -> In (a_rt z) (live a) -> exists w, In w c /\ a_del w = false /\ a_rt w = a_rt z).
+  { intros z Hz Iz. apply in_live in Iz. destruct Iz as [(b & Hb & _ & E) | (w & Hw & L & E)].
+    - exfalso. apply (wf_rsm _ _ W b z Hb); auto. apply in_aunits; eauto.
+    - apply in_aunits in Hw. destruct Hw as (k' & c' & Hc' & Hw).
+      assert (k' = k) as -> by (eapply (wf_rmap _ _ W); eauto).
+      assert (c' = c) as -> by (rewrite <- (achain_of_in _ _ _ (wf_keys _ _ W) Hc'); reflexivity). eauto. }
+  destruct (LR x Hx Ix) as (w1 & Hw1 & L1 & E1). destruct (LR y Hy Iy) as (w2 & Hw2 & L2 & E2).
+  destruct (live_chain_last _ _ _ _ _ W I Hw1 L1) as (c1 & EC1). destruct (live_chain_last _ _ _ _ _ W I Hw2 L2) as (c2 & EC2).
+  rewrite EC1 in EC2. apply app_inj_tail in EC2. destruct EC2 as (_ & <-). congruence.
+Qed.
+
+Lemma incr_sort_insert x l : incr l -> incr (sort_insert x l).
+Proof.
+  induction l as [| y r IH]; cbn; intros H; [split; auto; intros j [] |].
+  destruct H as (A & B). destruct (x <? y) eqn:L1.
+  - apply N.ltb_lt in L1. cbn. split; [| split; auto]. intros j [<- | Hj]; auto. apply A in Hj. lia.
+  - apply N.ltb_ge in L1. destruct (x =? y) eqn:L2; [cbn; auto |]. apply N.eqb_neq in L2. cbn. split; auto.
+    intros j Hj. apply in_sort_insert in Hj. destruct Hj as [-> | Hj]; [lia | auto].
+Qed.
+Lemma incr_sort_ids l : incr (sort_ids l).
+Proof. induction l as [| x r IH]; cbn; auto. apply incr_sort_insert; auto. Qed.
+Lemma incr_nodup l : incr l -> NoDup l.
+Proof.
+  induction l as [| x r IH]; cbn; intros H; constructor; destruct H as (A & B); auto.
+  intros F. apply A in F. lia.
+Qed.
+
+Definition entry_of_eff (e : ueff) : stackitem := {| st_ins := sort_ids (e_ins e); st_del := sort_ids (e_del e) |}.
+
+Lemma TS_entry X a0 nx0 a nx e : TS X a0 nx0 a nx e ->
+  ent_ok a nx (entry_of_eff e) /\ seteq (tau a (entry_of_eff e) (live a)) (live a0).
+Proof.
+  intros T. pose proof (ts_wf _ _ _ _ _ _ T) as W. pose proof (wf_nodup _ _ W) as ND.
+  assert (OLD : forall j r, has_rt a j r -> ~ In j (e_ins e) -> j < nx0).
+  { intros j r H NI. destruct (N.lt_ge_cases j nx0); auto. exfalso. apply NI. eapply (ts_new _ _ _ _ _ _ T); eauto. }
+  assert (TR : forall j, In j (to_redo_of (entry_of_eff e)) <-> In j (e_del e) /\ ~ In j (e_ins e)).
+  { intros j. rewrite in_to_redo. cbn. rewrite !in_sort_ids. tauto. }
+  split.
+  - constructor.
+    + cbn. intros i [Hi | Hi]; rewrite in_sort_ids in Hi.
+      * apply (ts_in _ _ _ _ _ _ T) in Hi. lia.
+      * destruct (ts_dh _ _ _ _ _ _ T i Hi) as (r & H). apply is_head_has_rt in H. eapply has_rt_lt; eauto.
+    + cbn. intros j Hj. rewrite in_sort_ids in Hj. apply (ts_dh _ _ _ _ _ _ T); auto.
+    + intros i j r Hi Hj H1 H2. cbn in Hi. rewrite in_sort_ids in Hi. apply TR in Hj. destruct Hj as (Hj & NJ).
+      destruct (ts_4 _ _ _ _ _ _ T j Hj NJ) as (r' & H' & L0 & _). assert (r = r') by (eapply has_rt_unique; eauto). subst r'.
+      apply (ts_1 _ _ _ _ _ _ T i r Hi H1 L0).
+    + intros X0 k n HX IX Hn In'. apply TR in HX. destruct HX as (HX & NX). cbn in Hn. rewrite in_sort_ids in Hn.
+      assert (KN : forall i, In i (aids (achain_of (a_map a) k)) -> exists r, has_rt a i r /\ In (k, achain_of (a_map a) k) (a_map a)).
+      { intros i Hi. destruct (in_dec N.eq_dec k (map fst (a_map a))) as [I | NI]; [| rewrite achain_of_notin in Hi by auto; destruct Hi].
+        apply achain_of_some in I. apply in_map_iff in Hi. destruct Hi as (x & <- & Hx). exists (a_rt x). split; auto.
+        right. exists x. split; auto. apply in_aunits; eauto. }
+      destruct (KN X0 IX) as (rX & HrX & Hc). pose proof (OLD X0 rX HrX NX) as LX. pose proof (ts_in _ _ _ _ _ _ T n Hn) as Ln.
+      split; [lia |]. split.
+      * intros i Hi L1 L2. cbn. rewrite in_sort_ids. destruct (N.lt_ge_cases i nx0) as [L | L].
+        -- pose proof (ts_n4 _ _ _ _ _ _ T X0 k HX NX IX i Hi L). lia.
+        -- destruct (KN i Hi) as (ri & Hri & _). eapply (ts_new _ _ _ _ _ _ T); eauto.
+      * intros n' Hn' In'' L. cbn in Hn' |- *. rewrite in_sort_ids in Hn'. rewrite in_sort_ids.
+        apply (ts_c _ _ _ _ _ _ T n Hn). intros r H.
+        destruct H as [(b & Hb & E & _) | (k' & c & Hc' & CH)].
+        -- apply (nodup_app_disj _ _ n ND); [apply in_seq_ids; exists b; split; auto; left; auto |].
+           apply in_map_iff in In'. destruct In' as (x & <- & Hx). apply in_map. apply in_aunits; eauto.
+        -- apply chain_head_in in CH. destruct CH as (x & Hx & E & _ & D). cbn in D.
+           assert (k = k') as <- by (eapply (chain_of_id a k' c n); eauto; [apply (wf_keys _ _ W) | rewrite <- E; apply in_map; auto]).
+           rewrite <- (achain_of_in _ _ _ (wf_keys _ _ W) Hc') in Hx.
+           pose proof (chain_last_max a nx k _ x W Hc Hx D n' In''). lia.
+    + cbn. apply incr_nodup, incr_sort_ids.
+  - intros r. rewrite in_tau. split.
+    + intros [(L & NR) | HR].
+      * destruct (ts_2 _ _ _ _ _ _ T r L) as [H | (i & Hi & H)]; auto. exfalso. apply NR. apply in_roots.
+        exists i. split; [cbn; rewrite in_sort_ids; auto | apply has_rt_of; auto].
+      * apply in_roots in HR. destruct HR as (j & Hj & H). apply TR in Hj. destruct Hj as (Hj & NJ). apply rt_of_has in H.
+        destruct (ts_4 _ _ _ _ _ _ T j Hj NJ) as (r' & H' & L0 & _). assert (r = r') by (eapply has_rt_unique; eauto). congruence.
+    + intros L0. destruct (in_dec N.eq_dec r (live a)) as [L | NL].
+      * left. split; auto. intros HR. apply in_roots in HR. destruct HR as (i & Hi & H). cbn in Hi. rewrite in_sort_ids in Hi.
+        apply rt_of_has in H. apply (ts_1 _ _ _ _ _ _ T i r Hi H L0).
+      * right. destruct (ts_3 _ _ _ _ _ _ T r L0 NL) as (j & Hj & NJ & H). apply in_roots. exists j. split; [apply TR; auto | apply has_rt_of; auto].
+Qed.
+
+
+
+Lemma eff_app_assoc e1 e2 e3 : eff_app (eff_app e1 e2) e3 = eff_app e1 (eff_app e2 e3).
+Proof. unfold eff_app. cbn. rewrite !app_assoc. reflexivity. Qed.
+Lemma eff_app_0_r e : eff_app e eff0 = e.
+Proof. destruct e. unfold eff_app. cbn. rewrite !app_nil_r. reflexivity. Qed.
+Lemma eff_app_0_l e : eff_app eff0 e = e.
+Proof. destruct e. reflexivity. Qed.
+
+Lemma TS_calls X a0 nx0 us rs cs : forall a nx e1 e, TS X a0 nx0 a nx (eff_app e1 e) ->
+  exists a' nx' e', fold_left (fun acc c => let '(s1, e1) := acc in let '(s2, e2) := do_call s1 c in (s2, eff_app e1 e2)) cs (conc a nx us rs, e)
+                    = (conc a' nx' us rs, e') /\ TS X a0 nx0 a' nx' (eff_app e1 e').
+Proof.
+  induction cs as [| c r IH]; intros a nx e1 e T; cbn [fold_left].
+  - eauto.
+  - destruct (TS_do_call X a0 nx0 a nx (eff_app e1 e) us rs c T) as (a' & nx' & e2 & EQ & T'). rewrite EQ.
+    apply IH. rewrite <- eff_app_assoc. auto.
+Qed.
+Lemma TS_txns X a0 nx0 us rs txns : forall a nx e, TS X a0 nx0 a nx e ->
+  exists a' nx' e', fold_left (fun acc cs => let '(s1, e1) := acc in let '(s2, e2) := do_txn s1 cs in (s2, eff_app e1 e2)) txns (conc a nx us rs, e)
+                    = (conc a' nx' us rs, e') /\ TS X a0 nx0 a' nx' e'.
+Proof.
+  induction txns as [| cs r IH]; intros a nx e T; cbn [fold_left].
+  - eauto.
+  - unfold do_txn. destruct (TS_calls X a0 nx0 us rs cs a nx e eff0) as (a' & nx' & e2 & EQ & T'); [rewrite eff_app_0_r; auto |].
+    rewrite EQ. apply IH. auto.
+Qed.
+
+Lemma tracked_step_spec a nx us rs txns : WF a nx ->
+  exists a' nx' e, TS [] a nx a' nx' e /\
+    tracked_step (conc a nx us rs) txns =
+    if eff_empty e then conc a' nx' us rs else conc a' nx' (entry_of_eff e :: us) [].
+Proof.
+  intros W. destruct (TS_txns [] a nx us rs txns a nx eff0 (TS_init a nx W)) as (a' & nx' & e & EQ & T).
+  exists a', nx', e. split; auto. unfold tracked_step. rewrite EQ. destruct (eff_empty e); reflexivity.
+Qed.
+
+Lemma eff_empty_true e : eff_empty e = true -> e_ins e = [] /\ e_del e = [].
+Proof. unfold eff_empty. destruct (e_ins e), (e_del e); try discriminate; auto. Qed.
+
+(* an effect-free transaction leaves the live set unchanged *)
+Lemma TS_empty_live X a0 nx0 a nx e : TS X a0 nx0 a nx e -> e_ins e = [] -> e_del e = [] -> seteq (live a) (live a0).
+Proof.
+  intros T E1 E2 r. split.
+  - intros H. destruct (ts_2 _ _ _ _ _ _ T r H) as [H' | (i & Hi & _)]; auto. rewrite E1 in Hi. destruct Hi.
+  - intros H. destruct (in_dec N.eq_dec r (live a)) as [I | NI]; auto.
+    destruct (ts_3 _ _ _ _ _ _ T r H NI) as (j & Hj & _). rewrite E2 in Hj. destruct Hj.
+Qed.
+
+(* ---- the invariant of the run ---- *)
+Definition INV (s : ustate) (m : mirror) : Prop :=
+  exists a nx us rs, s = conc a nx us rs /\ WF a nx /\ STK a nx (us ++ rs) /\
+    rev (mu m) = map (render a) (ulist a us (live a)) /\
+    rev (mr m) = map (render a) (rlist a rs (live a)) /\
+    (forall S, In S (ulist a us (live a) ++ rlist a rs (live a)) -> kex a S).
+
+Lemma tok_list_eqb_refl l : tok_list_eqb l l = true.
+Proof. unfold tok_list_eqb. destruct (list_eq_dec N.eq_dec l l); auto. Qed.
+Lemma entries_eqb_refl l : entries_eqb l l = true.
+Proof. induction l as [| [k v] r IH]; cbn; auto. rewrite !N.eqb_refl, IH. reflexivity. Qed.
+Lemma cont_eqb_refl c : cont_eqb c c = true.
+Proof. unfold cont_eqb. rewrite tok_list_eqb_refl, entries_eqb_refl. reflexivity. Qed.
+Lemma entries_eqb_eq l l' : entries_eqb l l' = true -> l = l'.
+Proof.
+  revert l'. induction l as [| [k v] r IH]; intros [| [k' v'] r']; cbn; try discriminate; auto.
+  intros H. apply andb_true_iff in H. destruct H as (H & H3). apply andb_true_iff in H. destruct H as (H1 & H2).
+  apply N.eqb_eq in H1, H2. subst. f_equal. auto.
+Qed.
+Lemma cont_eqb_eq c c' : cont_eqb c c' = true -> c = c'.
+Proof.
+  destruct c as [a b], c' as [a' b']. unfold cont_eqb. cbn. intros H. apply andb_true_iff in H. destruct H as (H1 & H2).
+  apply entries_eqb_eq in H2. unfold tok_list_eqb in H1. destruct (list_eq_dec N.eq_dec a a'); [| discriminate]. congruence.
+Qed.
+
+Lemma inv_init : INV ustate0 mirror0.
+Proof.
+  exists {| a_seq := []; a_map := [] |}, 0, [], []. split; [reflexivity |]. split.
+  - constructor; cbn; try (intros; contradiction); try constructor; try (intros; contradiction).
+  - split; [split; [intros E [] | exact I] |]. cbn. split; [reflexivity |]. split; [reflexivity |].
+    intros S [<- | []]. intros k x y [].
+Qed.
+
+Lemma Forall2_in_l {X Y} (R : X -> Y -> Prop) l l' x : Forall2 R l l' -> In x l -> exists y, In y l' /\ R x y.
+Proof.
+  induction 1; intros H'; [destruct H' |]. destruct H' as [<- | H']; [eexists; split; [left; reflexivity | auto] |].
+  destruct (IHForall2 H') as (y' & A & B). exists y'. split; [right; auto | auto].
+Qed.
+Lemma Forall2_app {X Y} (R : X -> Y -> Prop) l1 l1' l2 l2' : Forall2 R l1 l1' -> Forall2 R l2 l2' -> Forall2 R (l1 ++ l2) (l1' ++ l2').
+Proof. induction 1; cbn; auto. Qed.
+Lemma bounded_seteq nx S S' : seteq S' S -> bounded nx S -> bounded nx S'.
+Proof. intros H B r Hr. apply B. apply H. auto. Qed.
+
+Lemma sets_transport X a nx a' nx' us rs S S' : WF a nx -> WF a' nx' -> AX X a nx a' nx' ->
+  (forall E i, In E (us ++ rs) -> In i (st_ins E) \/ In i (st_del E) -> i < nx) ->
+  seteq S' S -> bounded nx S ->
+  map (render a') (ulist a' us S') = map (render a) (ulist a us S) /\
+  map (render a') (rlist a' rs S') = map (render a) (rlist a rs S) /\
+  ((forall T, In T (ulist a us S ++ rlist a rs S) -> kex a T) -> (forall T, In T (ulist a' us S' ++ rlist a' rs S') -> kex a' T)).
+Proof.
+  intros W W' A HL SE B. pose proof (bounded_seteq _ _ _ SE B) as B'.
+  rewrite (ulist_stable X a nx a' nx') by (auto; intros; eapply HL; eauto; apply in_or_app; auto).
+  rewrite (rlist_stable X a nx a' nx') by (auto; intros; eapply HL; eauto; apply in_or_app; auto).
+  split; [| split].
+  - rewrite (map_render_stable X a nx a' nx') by (auto; intros; eapply ulist_bounded; eauto).
+    apply map_render_seteq. apply ulist_seteq; auto.
+  - rewrite (map_render_stable X a nx a' nx') by (auto; intros; eapply rlist_bounded; eauto).
+    apply map_render_seteq. apply rlist_seteq; auto.
+  - intros K T HT.
+    assert (F2 : Forall2 seteq (ulist a us S' ++ rlist a rs S') (ulist a us S ++ rlist a rs S)) by (apply Forall2_app; [apply ulist_seteq | apply rlist_seteq]; auto).
+    destruct (Forall2_in_l _ _ _ _ F2 HT) as (T0 & HT0 & SE0).
+    eapply kex_stable; eauto.
+    + apply in_app_or in HT. destruct HT as [HT | HT]; [eapply ulist_bounded | eapply rlist_bounded]; eauto.
+    + eapply kex_seteq; [apply seteq_sym; eauto | auto].
+Qed.
+
+Lemma STK_lt a nx stk : STK a nx stk -> forall E i, In E stk -> In i (st_ins E) \/ In i (st_del E) -> i < nx.
+Proof. intros (H & _) E i HE Hi. apply (eo_lt _ _ _ (H E HE)); auto. Qed.
+
+Lemma STK_stable X a nx a' nx' stk : WF a nx -> WF a' nx' -> AX X a nx a' nx' ->
+  (forall E j, In E stk -> In j (st_del E) -> ~ In j X) -> STK a nx stk -> STK a' nx' stk.
+Proof.
+  intros W W' A NX (H & PD). split; auto. intros E HE. apply (ent_ok_stable X a nx a' nx' E W W' A); auto. intros j Hj. apply (NX E j); auto.
+Qed.
+
+Lemma mu_length us m a S0 : rev (mu m) = map (render a) (ulist a us S0) -> length (mu m) = Datatypes.S (length us).
+Proof. intros H. rewrite <- rev_length, H, map_length, ulist_length. reflexivity. Qed.
+Lemma mr_length rs m a S0 : rev (mr m) = map (render a) (rlist a rs S0) -> length (mr m) = length rs.
+Proof. intros H. rewrite <- rev_length, H, map_length, rlist_length. reflexivity. Qed.
+
+Lemma inv_step_astep s m txns : INV s m -> exists s' m', mirror_step s m (AStep txns) = Some (s', m') /\ INV s' m'.
+Proof.
+  intros (a & nx & us & rs & -> & W & ST & MU & MR & KX).
+  destruct (tracked_step_spec a nx us rs txns W) as (a' & nx' & e & T & EQ).
+  pose proof (ts_wf _ _ _ _ _ _ T) as W'. pose proof (ts_ax _ _ _ _ _ _ T) as A.
+  pose proof (mu_length _ _ _ _ MU) as LU.
+  unfold mirror_step. cbn [uact]. rewrite EQ.
+  destruct (eff_empty e) eqn:EE.
+  - (* nothing captured *)
+    apply eff_empty_true in EE. destruct EE as (E1 & E2).
+    pose proof (TS_empty_live _ _ _ _ _ _ T E1 E2) as SE.
+    destruct (sets_transport [] a nx a' nx' us rs (live a) (live a') W W' A (STK_lt _ _ _ ST) SE (live_bounded _ _ W)) as (TU & TR & TK).
+    cbn [ustack rstack conc]. rewrite Nat.eqb_refl.
+    assert (Nat.eqb (length us) (Datatypes.S (length us)) = false) as -> by (apply Nat.eqb_neq; lia).
+    assert (CE : cont (conc a' nx' us rs) = cont (conc a nx us rs)).
+    { rewrite !(cont_render _ _ _ _ W'), !(cont_render _ _ _ _ W) by auto.
+      rewrite (render_seteq a' _ _ SE). apply (ax_render _ _ _ _ _ A). apply live_bounded; auto. }
+    rewrite CE, cont_eqb_refl. eexists _, _. split; [reflexivity |].
+    exists a', nx', us, rs. split; [reflexivity |]. split; auto. split.
+    + apply (STK_stable [] a nx a' nx' _ W W' A); auto.
+    + rewrite TU, TR. auto.
+  - (* a new entry *)
+    cbn [ustack rstack conc length]. rewrite Nat.eqb_refl. cbn [Nat.eqb].
+    eexists _, _. split; [reflexivity |].
+    destruct (TS_entry _ _ _ _ _ _ T) as (EO & TA).
+    destruct (sets_transport [] a nx a' nx' us rs (live a) (tau a' (entry_of_eff e) (live a')) W W' A (STK_lt _ _ _ ST) TA (live_bounded _ _ W)) as (TU & TR & TK).
+    exists a', nx', (entry_of_eff e :: us), []. cbn [mu mr]. split; [reflexivity |]. split; auto. split; [| split; [| split]].
+    + rewrite app_nil_r. destruct ST as (SO & PD). split.
+      * intros E [<- | HE]; auto. apply (ent_ok_stable [] a nx a' nx' E W W' A); [intros j _ [] | apply SO; apply in_or_app; auto].
+      * cbn. apply pdisj_app in PD. destruct PD as (PD & _ & _). split; auto.
+        intros F i HF Hi Hi'. cbn in Hi. rewrite in_sort_ids in Hi.
+        assert (OF : ent_ok a nx F) by (apply SO; apply in_or_app; auto).
+        destruct (eo_dh _ _ _ OF i Hi') as (r & HD).
+        destruct (in_dec N.eq_dec i (e_ins e)) as [I | NI].
+        -- apply (ts_in _ _ _ _ _ _ T) in I. assert (i < nx) by (apply (eo_lt _ _ _ OF); auto). lia.
+        -- destruct (ts_4 _ _ _ _ _ _ T i Hi NI) as (r' & HR & L0 & _).
+           assert (r' = r).
+           { pose proof (ax_rt _ _ _ _ _ A i r (is_head_has_rt _ _ _ _ HD)). eapply has_rt_unique; eauto. apply (wf_nodup _ _ W'). }
+           subst r'. apply (live_is_head _ _ _ W) in L0. destruct L0 as (h & HL).
+           destruct (is_head_unique_root _ _ _ _ _ _ _ W HD HL). discriminate.
+    + rewrite firstn_all2 by lia. rewrite rev_app_distr. cbn [rev app ulist map]. rewrite MU, TU.
+      rewrite (cont_render _ _ _ _ W'). reflexivity.
+    + reflexivity.
+    + intros S0 HS0. rewrite app_nil_r in HS0. cbn [ulist] in HS0. destruct HS0 as [<- | HS0].
+      * apply (kex_live _ _ W').
+      * apply TK; auto. apply in_or_app; auto.
+Qed.
+
+
+
+(* ---- the walk to the right succeeds ---- *)
+Lemma right_of_app_notin p l i : ~ In i (ids p) -> right_of (p ++ l) i = right_of l i.
+Proof.
+  induction p as [| y r IH]; cbn; intros H; auto. destruct (u_id y =? i) eqn:E.
+  - apply N.eqb_eq in E. exfalso. apply H. left; auto.
+  - apply IH. intros F. apply H. right; auto.
+Qed.
+Lemma right_of_cchain l1 xc z t : NoDup (aids (l1 ++ xc :: z :: t)) ->
+  right_of (cchain (l1 ++ xc :: z :: t)) (a_id xc) = Some (cunit z (next_same (a_rt z) t)).
+Proof.
+  intros ND. destruct (cchain_suffix l1 (xc :: z :: t)) as (p & -> & EP).
+  rewrite right_of_app_notin.
+  - cbn [cchain right_of]. rewrite u_id_mk, N.eqb_refl. reflexivity.
+  - rewrite EP. rewrite map_app in ND. intros F. apply (nodup_app_disj _ _ (a_id xc) ND); auto. left; auto.
+Qed.
+Lemma right_of_cchain_last l1 xc : NoDup (aids (l1 ++ [xc])) -> right_of (cchain (l1 ++ [xc])) (a_id xc) = None.
+Proof.
+  intros ND. destruct (cchain_suffix l1 [xc]) as (p & -> & EP).
+  rewrite right_of_app_notin.
+  - cbn [cchain right_of]. rewrite u_id_mk, N.eqb_refl. reflexivity.
+  - rewrite EP. rewrite map_app in ND. intros F. apply (nodup_app_disj _ _ (a_id xc) ND); auto. left; auto.
+Qed.
+
+Lemma follow_in_cchain c l1 x l2 w : NoDup (aids c) -> c = l1 ++ x :: l2 -> lastu (a_rt x) (x :: l2) = Some w ->
+  ufollow (S (length (cchain c))) (cchain c) (a_id x) = Some (cunit w None).
+Proof.
+  intros ND E LU. eapply (follow_chain (cchain c) c); [| reflexivity | exact E | exact LU |].
+  - intros y Hy. apply ufind_nodup; auto. rewrite cchain_ids. auto.
+  - rewrite cchain_length, E, app_length. cbn. lia.
+Qed.
+
+Lemma passable_dead td s1 s2 y : u_del y = true -> passable td s1 s2 y = true.
+Proof. intros H. unfold passable. rewrite H. destruct (u_red y); reflexivity. Qed.
+Lemma passable_td td s1 s2 y : In (u_id y) td -> passable td s1 s2 y = true.
+Proof.
+  intros H. unfold passable. apply umem_iff in H. rewrite H. destruct (u_red y), (u_del y); reflexivity.
+Qed.
+
+Lemma lastu_some_of r x t : a_rt x = r -> exists w, lastu r (x :: t) = Some w.
+Proof. intros E. cbn. destruct (lastu r t); eauto. rewrite E, N.eqb_refl. eauto. Qed.
+
+Lemma walk_all_dead c td s1 s2 : NoDup (aids c) -> (forall z, In z c -> a_del z = true) ->
+  forall n l1 xc l2, length l2 = n -> c = l1 ++ xc :: l2 ->
+  forall f, (n < f)%nat -> walk_right f (cchain c) (a_id xc) td s1 s2 = true.
+Proof.
+  intros ND DEAD n. induction n as [n IH] using lt_wf_ind. intros l1 xc l2 Ln EC f Lf.
+  destruct f as [| f]; [lia |]. cbn [walk_right].
+  destruct l2 as [| z t].
+  - rewrite EC, right_of_cchain_last; auto. rewrite <- EC; auto.
+  - rewrite EC at 1. rewrite right_of_cchain by (rewrite <- EC; auto).
+    rewrite passable_dead by (rewrite u_del_cunit; apply DEAD; rewrite EC; apply in_or_app; right; right; left; auto).
+    rewrite u_id_cunit.
+    destruct (lastu_some_of (a_rt z) z t eq_refl) as (w & LU).
+    rewrite (follow_in_cchain c (l1 ++ [xc]) z t w ND) by (auto; rewrite EC, <- app_assoc; reflexivity).
+    rewrite u_id_cunit.
+    destruct (lastu_split _ _ _ LU) as (m1 & m2 & EM & _ & _).
+    assert (Lm : (length m2 < n)%nat).
+    { rewrite <- Ln. cbn [length]. assert (length (z :: t) = length (m1 ++ w :: m2)) by congruence.
+      rewrite app_length in H. cbn [length] in H. lia. }
+    apply (IH (length m2) Lm ((l1 ++ [xc]) ++ m1) w m2 eq_refl).
+    + rewrite EC, <- !app_assoc. cbn [app]. rewrite EM. reflexivity.
+    + lia.
+Qed.
+
+Lemma incr_app_lt l1 l2 : incr (l1 ++ l2) -> forall i j, In i l1 -> In j l2 -> i < j.
+Proof.
+  induction l1 as [| x t IH]; cbn; intros H i j Hi Hj; [destruct Hi |]. destruct H as (A & B).
+  destruct Hi as [<- | Hi]; [apply A; apply in_or_app; auto | eapply IH; eauto].
+Qed.
+Lemma incr_app_r l1 l2 : incr (l1 ++ l2) -> incr l2.
+Proof. induction l1 as [| x t IH]; cbn; auto. intros (_ & B). auto. Qed.
+
+Lemma walk_caseB c td s1 s2 c0 w Nm : NoDup (aids c) -> incr (aids c) -> c = c0 ++ [w] ->
+  In Nm c -> a_rt Nm = a_rt w -> In (a_id Nm) td ->
+  forall l2 l1 xc, c = l1 ++ xc :: l2 -> In Nm l2 ->
+  (forall z, In z l2 -> a_id z < a_id Nm -> In (a_id z) td /\ lastu (a_rt z) c = Some z) ->
+  forall f, (length l2 < f)%nat -> walk_right f (cchain c) (a_id xc) td s1 s2 = true.
+Proof.
+  intros ND INC EC HN RN TN. induction l2 as [| z t IH]; intros l1 xc E1 HNm H3 f Lf; [destruct HNm |].
+  destruct f as [| f]; [cbn in Lf; lia |]. cbn [walk_right].
+  rewrite E1 at 1. rewrite right_of_cchain by (rewrite <- E1; auto). rewrite u_id_cunit.
+  assert (LW : lastu (a_rt w) c = Some w).
+  { rewrite EC, lastu_app. cbn [lastu]. rewrite N.eqb_refl. reflexivity. }
+  destruct (N.eq_dec (a_id z) (a_id Nm)) as [EZ | NZ].
+  - assert (z = Nm) as ->.
+    { eapply (nodup_map_unique a_id); eauto. rewrite E1. apply in_or_app; right; right; left; auto. }
+    rewrite passable_td by (rewrite u_id_cunit; auto).
+    assert (LU : lastu (a_rt Nm) (Nm :: t) = Some w).
+    { rewrite RN. rewrite E1 in LW. rewrite <- RN in LW. change (l1 ++ xc :: Nm :: t) with (l1 ++ [xc] ++ Nm :: t) in LW.
+      rewrite app_assoc, lastu_app in LW. destruct (lastu_some_of (a_rt Nm) Nm t eq_refl) as (w' & LU'). rewrite LU' in LW. rewrite <- RN. congruence. }
+    rewrite (follow_in_cchain c (l1 ++ [xc]) Nm t w ND) by (auto; rewrite E1, <- app_assoc; reflexivity).
+    rewrite u_id_cunit. destruct f as [| f]; [cbn in Lf; lia |]. cbn [walk_right].
+    rewrite EC, right_of_cchain_last; auto. rewrite <- EC; auto.
+  - assert (LZ : a_id z < a_id Nm).
+    { destruct HNm as [<- | HNm]; [contradiction |].
+      rewrite E1 in INC. rewrite map_app in INC. apply incr_app_r in INC. cbn in INC. destruct INC as (_ & INC & _).
+      apply INC. apply in_map; auto. }
+    destruct (H3 z (or_introl eq_refl) LZ) as (TZ & LUZ).
+    rewrite passable_td by (rewrite u_id_cunit; auto).
+    assert (LU : lastu (a_rt z) (z :: t) = Some z).
+    { rewrite E1 in LUZ. change (l1 ++ xc :: z :: t) with (l1 ++ [xc] ++ z :: t) in LUZ.
+      rewrite app_assoc, lastu_app in LUZ. destruct (lastu_some_of (a_rt z) z t eq_refl) as (w' & LU'). rewrite LU' in LUZ. congruence. }
+    rewrite (follow_in_cchain c (l1 ++ [xc]) z t z ND) by (auto; rewrite E1, <- app_assoc; reflexivity).
+    rewrite u_id_cunit. apply (IH (l1 ++ [xc]) z).
+    + rewrite E1, <- app_assoc. reflexivity.
+    + destruct HNm as [<- | HNm]; [contradiction | auto].
+    + intros z' Hz' L'. apply H3; auto. right; auto.
+    + cbn in Lf. lia.
+Qed.
+
+Lemma walk_ok a nx E k l1 x l2 s1 s2 :
+  let c := l1 ++ x :: l2 in
+  WF a nx -> ent_ok a nx E -> kex a (tau a E (live a)) -> In (k, c) (a_map a) ->
+  In (a_id x) (to_redo_of E) -> a_del x = true -> (forall z, In z l2 -> a_rt z <> a_rt x) ->
+  walk_right (S (length (cchain c))) (cchain c) (a_id x) (st_ins E) s1 s2 = true.
+Proof.
+  intros c W EO KX Hc HX DX HL.
+  pose proof (wf_keys _ _ W) as NK. pose proof (wf_nodup _ _ W) as ND.
+  assert (NDc : NoDup (aids c)) by (eapply nodup_chain_in; [apply nodup_map_ids; eauto | eauto]).
+  pose proof (wf_incr _ _ W k c Hc) as INC.
+  pose proof (achain_of_in _ _ _ NK Hc) as ECH.
+  destruct (list_last_case c) as [EN | (c0 & w & EC)]; [unfold c in EN; destruct l1; discriminate |].
+  destruct (a_del w) eqn:DW.
+  - (* everything is dead *)
+    apply (walk_all_dead c _ s1 s2 NDc) with (n := length l2) (l1 := l1) (l2 := l2); auto.
+    + intros z Hz. rewrite EC in Hz. apply in_app_or in Hz. destruct Hz as [Hz | [<- | []]]; auto.
+      apply in_split in Hz. destruct Hz as (m1 & m2 & ->).
+      apply (wf_clive _ _ W k c m1 z (m2 ++ [w]) Hc); [rewrite EC, <- app_assoc; reflexivity | destruct m2; discriminate].
+    + rewrite cchain_length. unfold c. rewrite app_length. cbn. lia.
+  - (* the last unit is live: its lineage was inserted by the step that is being undone *)
+    assert (Hw : In w c) by (rewrite EC; apply in_or_app; right; left; auto).
+    assert (Hx : In x c) by (unfold c; apply in_or_app; right; left; auto).
+    assert (Lq : In (a_rt w) (live a)) by (apply in_live; right; exists w; split; [apply in_aunits; eauto | auto]).
+    assert (Rx : has_rt a (a_id x) (a_rt x)) by (right; exists x; split; [apply in_aunits; eauto | auto]).
+    assert (Q : In (a_rt w) (roots a (st_ins E))).
+    { destruct (in_dec N.eq_dec (a_rt w) (roots a (st_ins E))) as [I | NI]; auto. exfalso.
+      assert (E1 : a_rt w = a_rt x).
+      { apply (KX k); try (rewrite ECH; auto).
+        - apply in_tau. left. auto.
+        - apply in_tau. right. apply in_roots. exists (a_id x). split; auto. apply has_rt_of; auto. }
+      unfold c in EC. destruct (list_last_case l2) as [-> | (l2' & w' & ->)].
+      - apply app_inj_tail in EC. destruct EC as (_ & ->). congruence.
+      - rewrite app_comm_cons, app_assoc in EC. apply app_inj_tail in EC. destruct EC as (_ & ->).
+        apply (HL w); auto. apply in_or_app; right; left; auto. }
+    apply in_roots in Q. destruct Q as (i & Hi & Ri). apply rt_of_has in Ri.
+    assert (exists Nm, In Nm c /\ a_id Nm = i /\ a_rt Nm = a_rt w) as (Nm & HN & EN & RN).
+    { destruct Ri as [(b & Hb & _ & R) | (y & Hy & EI & R)].
+      - exfalso. apply (wf_rsm _ _ W b w Hb); auto. apply in_aunits; eauto.
+      - apply in_aunits in Hy. destruct Hy as (k' & c' & Hc' & Hy).
+        assert (k' = k) as -> by (apply (wf_rmap _ _ W k' c' k c y w); auto).
+        assert (c' = c) as -> by (rewrite <- (achain_of_in _ _ _ NK Hc'); auto). eauto. }
+    assert (IXc : In (a_id x) (aids (achain_of (a_map a) k))) by (rewrite ECH; apply in_map; auto).
+    assert (INc : In i (aids (achain_of (a_map a) k))) by (rewrite ECH, <- EN; apply in_map; auto).
+    destruct (eo_pos _ _ _ EO (a_id x) k i HX IXc Hi INc) as (N1 & N2 & _).
+    assert (HN2 : In Nm l2).
+    { unfold c in HN, INC. apply in_app_or in HN. destruct HN as [HN | [<- | HN]]; auto.
+      - rewrite map_app in INC. cbn [map] in INC. pose proof (incr_app_lt _ _ INC (a_id Nm) (a_id x) (in_map a_id _ _ HN) (or_introl eq_refl)). lia.
+      - lia. }
+    apply (walk_caseB c _ s1 s2 c0 w Nm NDc INC EC HN RN) with (l1 := l1) (l2 := l2); auto; [rewrite EN; auto | |].
+    + intros z Hz LZ.
+      assert (LXZ : a_id x < a_id z).
+      { unfold c in INC. rewrite map_app in INC. apply incr_app_r in INC. cbn in INC. destruct INC as (INC & _). apply INC. apply in_map; auto. }
+      assert (Hzc : In z c) by (unfold c; apply in_or_app; right; right; auto).
+      assert (IZc : In (a_id z) (aids (achain_of (a_map a) k))) by (rewrite ECH; apply in_map; auto).
+      assert (TZ : In (a_id z) (st_ins E)) by (apply N2; auto; lia).
+      split; auto.
+      destruct (eo_pos _ _ _ EO (a_id x) k (a_id z) HX IXc TZ IZc) as (_ & _ & N3).
+      assert (DZ : In (a_id z) (st_del E)) by (apply (N3 i); auto; lia).
+      destruct (eo_dh _ _ _ EO _ DZ) as (r & [(b & Hb & EB & _) | (k' & c' & Hc' & CH)]).
+      * exfalso. apply (nodup_app_disj _ _ (a_id z) ND); [apply in_seq_ids; exists b; split; auto; left; auto |].
+        apply in_map. apply in_aunits; eauto.
+      * pose proof (chain_head_in _ _ _ _ CH) as (z' & Hz' & EZ' & _).
+        assert (k = k') as <- by (eapply (chain_of_id a k' c' (a_id z)); eauto; rewrite <- EZ'; apply in_map; auto).
+        assert (c' = c) as -> by (rewrite <- (achain_of_in _ _ _ NK Hc'); auto).
+        apply chain_head_lastu in CH. destruct CH as (z'' & LU & EZ'' & _).
+        pose proof (lastu_in _ _ _ LU) as (Hz'' & RZ'').
+        assert (z'' = z) as -> by (eapply (nodup_map_unique a_id); eauto). rewrite RZ''. exact LU.
+    + rewrite cchain_length. unfold c. rewrite app_length. cbn. lia.
+Qed.
+
+
+
+(* ---- the deletion phase of uprocess ---- *)
+Lemma live_head_dec a nx h : WF a nx -> {exists r, is_head a h r true} + {forall r, ~ is_head a h r true}.
+Proof.
+  intros W. destruct (in_dec N.eq_dec h (live_ids (conc a nx [] []))) as [I | NI].
+  - left. apply live_ids_iff in I. apply (livein_conc _ _ _ _ _ W) in I. exact I.
+  - right. intros r H. apply NI. apply live_ids_iff. apply (livein_conc _ _ _ _ _ W). eauto.
+Qed.
+
+Lemma kill_fold X a0 nx0 us rs L : forall at_ nt et, TS X a0 nx0 at_ nt et ->
+  exists at', fold_left delete_id L (conc at_ nt us rs) = conc at' nt us rs /\
+    (forall e', (forall i, In i (e_ins e') <-> In i (e_ins et)) ->
+                (forall i, In i (e_del e') <-> In i (e_del et) \/ (In i L /\ exists r, is_head at_ i r true)) -> TS X a0 nx0 at' nt e') /\
+    (forall r, In r (live at') <-> In r (live at_) /\ forall h, In h L -> ~ is_head at_ h r true) /\
+    (forall h r lv, is_head at_ h r lv -> exists lv', is_head at' h r lv').
+Proof.
+  induction L as [| h L IH]; intros at_ nt et T; cbn [fold_left].
+  - exists at_. split; auto. split; [| split].
+    + intros e' EI ED. eapply TS_eff_equiv; eauto. intros i. rewrite ED. split; [intros [H | ([] & _)]; auto | auto].
+    + intros r. split; [intros H; split; auto; intros h [] | tauto].
+    + eauto.
+  - pose proof (ts_wf _ _ _ _ _ _ T) as W. rewrite conc_delete_id by apply (wf_nodup _ _ W).
+    destruct (live_head_dec at_ nt h W) as [(rh & HH) | NH].
+    + assert (T1 : TS X a0 nx0 (akill_id at_ h) nt {| e_ins := e_ins et; e_del := e_del et ++ [h] |}).
+      { eapply TS_kill; eauto; intros i; cbn; [tauto | rewrite in_app_iff; cbn; intuition]. }
+      destruct (IH _ _ _ T1) as (at' & EQ & TE & LV & HD). exists at'. split; auto. split; [| split].
+      * intros e' EI ED. apply TE; auto. intros i. rewrite ED. cbn [e_del]. rewrite in_app_iff. cbn [In]. split.
+        -- intros [H | ([<- | H] & (r & H'))]; auto. destruct (N.eq_dec i h) as [-> | NE]; auto.
+           right. split; auto. exists r. apply is_head_kill. left. auto.
+        -- intros [[H | [<- | []]] | (H & (r & H'))]; auto; [right; split; eauto |].
+           apply is_head_kill in H'. destruct H' as [(H' & _) | (_ & F & _)]; [| discriminate]. right. split; eauto.
+      * intros r. rewrite LV, (kill_live _ _ _ _ W HH). split.
+        -- intros ((Lr & NE) & K). split; auto. intros h' [<- | Hh'] F.
+           ++ destruct (is_head_unique_id _ _ _ _ _ _ _ W HH F). congruence.
+           ++ apply (K h' Hh'). apply is_head_kill. left. split; auto. intros ->.
+              destruct (is_head_unique_id _ _ _ _ _ _ _ W HH F). congruence.
+        -- intros (Lr & K). split; [split; auto |].
+           ++ intros ->. apply (K h); [left; auto | auto].
+           ++ intros h' Hh' F. apply is_head_kill in F. destruct F as [(F & _) | (_ & F & _)]; [| discriminate].
+              apply (K h'); [right; auto | auto].
+      * intros h' r lv H. destruct (N.eq_dec h' h) as [-> | NE].
+        -- apply (HD h r false). apply is_head_kill. right. eauto.
+        -- apply (HD h' r lv). apply is_head_kill. left. auto.
+    + rewrite (akill_noop _ _ _ W NH). destruct (IH _ _ _ T) as (at' & EQ & TE & LV & HD). exists at'. split; auto. split; [| split]; auto.
+      * intros e' EI ED. apply TE; auto. intros i. rewrite ED. cbn [In]. split.
+        -- intros [H | ([<- | H] & (r & H'))]; auto; [destruct (NH _ H') | right; eauto].
+        -- intros [H | (H & H')]; auto.
+      * intros r. rewrite LV. split.
+        -- intros (Lr & K). split; auto. intros h' [<- | Hh']; auto.
+        -- intros (Lr & K). split; auto. intros h' Hh'. apply K. right; auto.
+Qed.
+
+(* the ids uprocess deletes: the live heads of the lineages of the tracked insertions *)
+Lemma ufollow_unknown f items i : ~ In i (ids items) -> ufollow f items i = None.
+Proof.
+  intros H. destruct f; cbn; auto. destruct (ufind items i) as [y |] eqn:E; auto.
+  apply ufind_in in E. destruct E as (A & B). exfalso. apply H. rewrite <- B. apply in_map; auto.
+Qed.
+Lemma to_delete_spec a nx us rs l h : WF a nx ->
+  (In h (flat_map (fun i => match ufollow (S (length (all_items (conc a nx us rs)))) (all_items (conc a nx us rs)) i with
+                            | Some y => if u_del y then [] else [u_id y]
+                            | None => []
+                            end) l) <->
+   exists i r, In i l /\ has_rt a i r /\ is_head a h r true).
+Proof.
+  intros W. rewrite in_flat_map. split.
+  - intros (i & Hi & H). destruct (rt_of a i) as [r |] eqn:R.
+    + apply rt_of_has in R. destruct (follow_conc a nx us rs i r (wf_nodup _ _ W) R) as (h' & lv & w & HH & F & E1 & E2).
+      rewrite F, E2 in H. destruct lv; cbn in H; [| destruct H]. destruct H as [<- | []]. exists i, r. rewrite E1. auto.
+    + rewrite ufollow_unknown in H; [destruct H |]. change (ids (all_items (conc a nx us rs))) with (all_ids (conc a nx us rs)).
+      rewrite conc_all_ids. apply rt_of_none; auto.
+  - intros (i & r & Hi & R & HH). exists i. split; auto.
+    destruct (follow_conc a nx us rs i r (wf_nodup _ _ W) R) as (h' & lv & w & HH' & F & E1 & E2).
+    destruct (is_head_unique_root _ _ _ _ _ _ _ W HH HH') as (<- & <-). rewrite F, E2. cbn. left; auto.
+Qed.
+
+Lemma live_now_iff a nx us rs i : WF a nx ->
+  (match ufind (all_items (conc a nx us rs)) i with Some y => negb (u_del y) | None => false end = true <-> exists r, is_head a i r true).
+Proof.
+  intros W. rewrite <- (livein_conc a nx us rs i W). split.
+  - destruct (ufind _ i) as [y |] eqn:E; [| discriminate]. intros H. apply ufind_in in E. destruct E as (A & B).
+    exists y. repeat split; auto. apply negb_true_iff; auto.
+  - intros (y & A & B & C). rewrite <- B, ufind_conc by (auto; apply (wf_nodup _ _ W)). rewrite C. reflexivity.
+Qed.
+
+
+
+(* ---- the re-creation phase of uprocess ---- *)
+Record PH1 (a : astate) (nx : N) (E : stackitem) (done : list N) (at_ : astate) (nt : N) (et : ueff) : Prop := {
+  p1_ts : TS done a nx at_ nt et;
+  p1_chain : forall k, (forall j, In j done -> ~ In j (aids (achain_of (a_map a) k))) -> achain_of (a_map at_) k = achain_of (a_map a) k;
+  p1_lb : forall r, In r (live a) -> ~ In r (roots a (st_ins E)) -> In r (live at_);
+  p1_lc : forall j r, In j done -> has_rt a j r -> In r (live at_);
+  p1_hd : forall h r lv, is_head a h r lv -> In r (roots a (st_ins E)) -> exists lv', is_head at_ h r lv';
+  p1_ins : forall i r, In i (e_ins et) -> has_rt at_ i r -> exists j, In j done /\ has_rt a j r;
+  p1_ne : done = [] \/ e_ins et <> [] }.
+
+Lemma PH1_init a nx E : WF a nx -> PH1 a nx E [] a nx eff0.
+Proof.
+  intros W. constructor; auto.
+  - apply TS_init; auto.
+  - intros j r [].
+  - eauto.
+  - intros i r [].
+Qed.
+
+(* facts about an id that is about to be re-created *)
+Lemma redo_id_facts a nx E done at_ nt et j :
+  WF a nx -> ent_ok a nx E -> PH1 a nx E done at_ nt et -> In j (to_redo_of E) -> ~ In j done ->
+  exists r, is_head a j r false /\ is_head at_ j r false /\ ~ In r (live a) /\ ~ In r (live at_) /\
+            ~ In r (roots a (st_ins E)) /\ ~ In j (e_del et) /\ j < nx.
+Proof.
+  intros W EO P HJ ND. pose proof (p1_ts _ _ _ _ _ _ _ P) as T. pose proof (ts_wf _ _ _ _ _ _ T) as Wt.
+  pose proof (ts_ax _ _ _ _ _ _ T) as A.
+  assert (HD : In j (st_del E)) by (apply in_to_redo in HJ; tauto).
+  destruct (eo_dh _ _ _ EO j HD) as (r & H). exists r.
+  assert (Ht : is_head at_ j r false) by (destruct (ax_heads _ _ _ _ _ A j r H); [contradiction | auto]).
+  assert (NL : ~ In r (live a)).
+  { intros F. apply (live_is_head _ _ _ W) in F. destruct F as (h & F). destruct (is_head_unique_root _ _ _ _ _ _ _ W H F). discriminate. }
+  assert (NLt : ~ In r (live at_)).
+  { intros F. apply (live_is_head _ _ _ Wt) in F. destruct F as (h & F). destruct (is_head_unique_root _ _ _ _ _ _ _ Wt Ht F). discriminate. }
+  assert (Lj : j < nx) by (apply (eo_lt _ _ _ EO); auto).
+  repeat split; auto.
+  - intros F. apply in_roots in F. destruct F as (i & Hi & Ri). apply rt_of_has in Ri.
+    apply (eo_d3 _ _ _ EO i j r Hi HJ Ri). eapply is_head_has_rt; eauto.
+  - intros F. assert (NI : ~ In j (e_ins et)) by (intros G; apply (ts_in _ _ _ _ _ _ T) in G; lia).
+    destruct (ts_4 _ _ _ _ _ _ T j F NI) as (r' & HR & L0 & _).
+    assert (r' = r) by (eapply has_rt_unique; [apply (wf_nodup _ _ Wt) | eauto | eapply is_head_has_rt; eauto]). subst. contradiction.
+Qed.
+
+Lemma PH1_step_seq a nx E s1 s2 us rs done at_ nt et j r :
+  WF a nx -> ent_ok a nx E -> PH1 a nx E done at_ nt et ->
+  is_head a j r false -> seq_head (a_seq at_) j r false -> ~ In r (live a) -> ~ In r (live at_) ->
+  ~ In r (roots a (st_ins E)) -> ~ In j (e_del et) ->
+  exists at' e2, redo_item (conc at_ nt us rs) j (st_ins E) s1 s2 = (conc at' (nt + 1) us rs, true, e2) /\
+                 PH1 a nx E (done ++ [j]) at' (nt + 1) (eff_app et e2).
+Proof.
+  intros W EO P H SH NL NLt NR ND. pose proof (p1_ts _ _ _ _ _ _ _ P) as T. pose proof (ts_wf _ _ _ _ _ _ T) as Wt.
+  rewrite (conc_redo_seq at_ nt us rs j _ s1 s2 (wf_nodup _ _ Wt)) by eauto.
+  eexists _, _. split; [reflexivity |].
+  assert (W' : WF (acopy_seq at_ j nt) (nt + 1)) by (apply WF_acopy_seq; auto; destruct SH as (b & Hb & E1 & _); eauto).
+  pose proof (birth_acopy_seq at_ nt j r Wt SH) as B.
+  pose proof (birth_live _ _ _ _ _ Wt W' B NLt) as BL.
+  assert (T' : TS (done ++ [j]) a nx (acopy_seq at_ j nt) (nt + 1) (eff_app et {| e_ins := [nt]; e_del := [] |})).
+  { eapply (TS_birth done [j]); eauto.
+    - apply AX_acopy_seq.
+    - intros j' [<- | []]; auto.
+    - intros i. cbn. rewrite in_app_iff. cbn. intuition.
+    - intros i. cbn. rewrite app_nil_r. tauto. }
+  destruct B as (BH & BR).
+  constructor; auto.
+  - intros k HK. cbn [a_map acopy_seq]. apply (p1_chain _ _ _ _ _ _ _ P). intros j' Hj'. apply HK. apply in_or_app; auto.
+  - intros r' L NR'. apply BL. left. apply (p1_lb _ _ _ _ _ _ _ P); auto.
+  - intros j' r' Hj' HR. apply BL. apply in_app_or in Hj'. destruct Hj' as [Hj' | [<- | []]].
+    + left. eapply (p1_lc _ _ _ _ _ _ _ P); eauto.
+    + right. eapply has_rt_unique; [apply (wf_nodup _ _ W) | eauto | eapply is_head_has_rt; eauto].
+  - intros h r' lv H' R'. destruct (p1_hd _ _ _ _ _ _ _ P h r' lv H' R') as (lv' & H''). exists lv'. apply BH. left. split; auto. intros ->. contradiction.
+  - intros i r' Hi HR. cbn in Hi. apply in_app_or in Hi. apply BR in HR. destruct HR as [HR | (-> & ->)].
+    + destruct Hi as [Hi | [<- | []]]; [| apply (has_rt_lt _ _ _ _ Wt) in HR; lia].
+      destruct (p1_ins _ _ _ _ _ _ _ P i r' Hi HR) as (j' & Hj' & HR'). exists j'. split; auto. apply in_or_app; auto.
+    + exists j. split; [apply in_or_app; right; left; auto | eapply is_head_has_rt; eauto].
+  - right. cbn. destruct (e_ins et); discriminate.
+Qed.
+
+Lemma live_last_in_ins a nx E k c j r h rh :
+  WF a nx -> kex a (tau a E (live a)) -> In (k, c) (a_map a) ->
+  chain_head c j r false -> In j (to_redo_of E) -> chain_head c h rh true -> In rh (roots a (st_ins E)).
+Proof.
+  intros W KX Hc CJ HJ CH. destruct (in_dec N.eq_dec rh (roots a (st_ins E))) as [I | NI]; auto. exfalso.
+  pose proof (achain_of_in _ _ _ (wf_keys _ _ W) Hc) as EC.
+  assert (HJ' : is_head a j r false) by (right; exists k, c; auto).
+  assert (HH' : is_head a h rh true) by (right; exists k, c; auto).
+  pose proof (chain_head_in _ _ _ _ CJ) as (x & Hx & E1 & R1 & _). pose proof (chain_head_in _ _ _ _ CH) as (w & Hw & E2 & R2 & _).
+  assert (EQ : a_rt w = a_rt x).
+  { apply (KX k); try (rewrite EC; auto).
+    - apply in_tau. left. rewrite R2. split; auto. apply (live_is_head _ _ _ W). eauto.
+    - apply in_tau. right. apply in_roots. exists j. split; auto. apply has_rt_of; [apply (wf_nodup _ _ W) |]. rewrite R1. eapply is_head_has_rt; eauto. }
+  assert (ERR : rh = r) by congruence. rewrite ERR in HH'. destruct (is_head_unique_root _ _ _ _ _ _ _ W HJ' HH'). discriminate.
+Qed.
+
+Lemma achain_akill_opt_in a nx k x : WF a nx -> In x (achain_of (a_map a) k) ->
+  exists y, In y (achain_of (a_map (akill_opt a (snd (adel_last (achain_of (a_map a) k))))) k) /\
+            a_rt y = a_rt x /\ a_val y = a_val x /\ a_id y = a_id x.
+Proof.
+  intros W Hx. destruct (snd (adel_last (achain_of (a_map a) k))) as [h |]; cbn [akill_opt]; [| eauto].
+  unfold akill_id. cbn [a_map]. rewrite achain_of_map_amark.
+  exists (if a_id x =? h then akill x else x). split; [apply in_amark; eauto |]. destruct (a_id x =? h); auto.
+Qed.
+
+Lemma PH1_step_map a nx E s1 s2 us rs done at_ nt et j r :
+  WF a nx -> ent_ok a nx E -> kex a (tau a E (live a)) -> PH1 a nx E done at_ nt et ->
+  In j (to_redo_of E) -> ~ In j done -> (forall j', In j' done -> In j' (to_redo_of E)) ->
+  is_head a j r false -> map_head (a_map at_) j r false -> ~ In r (live a) -> ~ In r (live at_) ->
+  ~ In r (roots a (st_ins E)) -> ~ In j (e_del et) -> j < nx ->
+  exists at' e2, redo_item (conc at_ nt us rs) j (st_ins E) s1 s2 = (conc at' (nt + 1) us rs, true, e2) /\
+                 PH1 a nx E (done ++ [j]) at' (nt + 1) (eff_app et e2).
+Proof.
+  intros W EO KX P HJ NDone DR H MH NL NLt NR ND Lj.
+  pose proof (p1_ts _ _ _ _ _ _ _ P) as T. pose proof (ts_wf _ _ _ _ _ _ T) as Wt. pose proof (ts_ax _ _ _ _ _ _ T) as A.
+  pose proof (wf_keys _ _ Wt) as NKt. pose proof (wf_nodup _ _ Wt) as NDt.
+  destruct MH as (k & c & Hc & CH).
+  pose proof (achain_of_in _ _ _ NKt Hc) as ECt.
+  pose proof (chain_head_in _ _ _ _ CH) as (x0 & Hx0 & EX0 & RX0 & _).
+  (* j lies in the chain of k in a as well *)
+  assert (JA : In j (aids (achain_of (a_map a) k))).
+  { destruct (ax_ids _ _ _ _ _ A k) as (extra & EQ & EX). rewrite ECt in EQ.
+    assert (In j (aids c)) as I by (rewrite <- EX0; apply in_map; auto). rewrite EQ in I. apply in_app_or in I.
+    destruct I as [I | I]; auto. apply EX in I. lia. }
+  (* no id re-created so far lies in that chain *)
+  assert (CA : achain_of (a_map a) k = c).
+  { rewrite <- ECt. symmetry. apply (p1_chain _ _ _ _ _ _ _ P). intros j' Hj' F.
+    pose proof (DR j' Hj') as TJ'. assert (DJ' : In j' (st_del E)) by (apply in_to_redo in TJ'; tauto).
+    destruct (eo_dh _ _ _ EO j' DJ') as (r' & H').
+    apply in_map_iff in JA. destruct JA as (y & EY & Hy). apply in_map_iff in F. destruct F as (y' & EY' & Hy').
+    assert (KA : In (k, achain_of (a_map a) k) (a_map a)).
+    { apply achain_of_some. destruct (in_dec N.eq_dec k (map fst (a_map a))); auto. rewrite achain_of_notin in Hy by auto. destruct Hy. }
+    assert (RY : a_rt y = r).
+    { eapply has_rt_unique; [apply (wf_nodup _ _ W) | | eapply is_head_has_rt; eauto]. right. exists y. split; auto. apply in_aunits; eauto. }
+    assert (RY' : a_rt y' = r').
+    { eapply has_rt_unique; [apply (wf_nodup _ _ W) | | eapply is_head_has_rt; eauto]. right. exists y'. split; auto. apply in_aunits; eauto. }
+    assert (ERR : r = r').
+    { rewrite <- RY, <- RY'. apply (KX k); auto.
+      - apply in_tau. right. apply in_roots. exists j. split; auto. apply has_rt_of; [apply (wf_nodup _ _ W) |]. rewrite RY. eapply is_head_has_rt; eauto.
+      - apply in_tau. right. apply in_roots. exists j'. split; auto. apply has_rt_of; [apply (wf_nodup _ _ W) |]. rewrite RY'. eapply is_head_has_rt; eauto. }
+    assert (H'' : is_head a j' r false) by (rewrite ERR; exact H').
+    destruct (is_head_unique_root _ _ _ _ _ _ _ W H H'') as (EJ & _). apply NDone. rewrite EJ. exact Hj'. }
+  assert (KA : In (k, c) (a_map a)).
+  { rewrite <- CA. apply achain_of_some. destruct (in_dec N.eq_dec k (map fst (a_map a))); auto. rewrite achain_of_notin in JA by auto. destruct JA. }
+  destruct CH as (l1 & x & l2 & EC & EX & RX & DX & HL). cbn in DX. subst c.
+  (* the walk succeeds *)
+  assert (WK : walk_right (S (length (cchain (l1 ++ x :: l2)))) (cchain (l1 ++ x :: l2)) (a_id x) (st_ins E) s1 s2 = true).
+  { apply (walk_ok a nx E k l1 x l2 s1 s2); auto; [rewrite EX; auto | intros z Hz; rewrite RX; auto]. }
+  destruct (conc_redo_map at_ nt us rs (st_ins E) s1 s2 k l1 x l2 NDt NKt Hc) as (e2 & EQ & EI2 & ED2); auto; [intros z Hz; rewrite RX; auto |].
+  rewrite EX in EQ. rewrite EQ. set (c := l1 ++ x :: l2) in *. set (o := snd (adel_last c)) in *.
+  set (a1 := akill_opt at_ o) in *. set (cp := copyunit x nt) in *. set (at' := aappend a1 k cp) in *.
+  exists at', e2. split; [reflexivity |].
+  assert (HO : forall h, o = Some h -> exists rh, is_head at_ h rh true /\ chain_head c h rh true).
+  { intros h EO'. unfold o in EO'. rewrite <- ECt in EO'. destruct (adel_last_head at_ nt k h Wt EO') as (rh & A1 & A2). rewrite ECt in A2. eauto. }
+  assert (T1 : TS done a nx a1 nt {| e_ins := e_ins et; e_del := e_del et ++ dels o |}).
+  { apply (TS_kill_opt done a nx at_ nt et o); auto.
+    - intros h EO'. destruct (HO h EO') as (rh & A1 & _). eauto.
+    - intros i. cbn. tauto.
+    - intros i. cbn. rewrite in_app_iff. tauto. }
+  pose proof (ts_wf _ _ _ _ _ _ T1) as W1.
+  assert (DEAD1 : forall y, In y (achain_of (a_map a1) k) -> a_del y = true).
+  { unfold a1, o. rewrite <- ECt. apply (akill_opt_dead at_ nt k Wt). }
+  assert (RT1 : exists y, In y (achain_of (a_map a1) k) /\ a_rt y = a_rt cp /\ a_val y = a_val cp).
+  { assert (Hx : In x (achain_of (a_map at_) k)) by (rewrite ECt; unfold c; apply in_or_app; right; left; auto).
+    destruct (achain_akill_opt_in at_ nt k x Wt Hx) as (y & Hy & A1 & A2 & _). rewrite ECt in Hy. exists y. auto. }
+  assert (W' : WF at' (nt + 1)) by (apply WF_aappend; auto).
+  assert (NL1 : ~ In r (live a1)).
+  { intros F. apply NLt. unfold a1 in F. destruct o as [h |]; cbn [akill_opt] in F; auto.
+    destruct (HO h eq_refl) as (rh & A1 & _). apply (kill_live _ _ _ _ Wt A1) in F. tauto. }
+  assert (B : birth a1 nt at' r).
+  { rewrite <- RX. apply (birth_aappend a1 nt k cp W1); auto. destruct RT1 as (y & Hy & A1 & _). eauto. }
+  pose proof (birth_live _ _ _ _ _ W1 W' B NL1) as BL.
+  assert (HJ1 : forall h', is_head a1 h' r false -> h' = j).
+  { intros h' F. assert (exists lv0, is_head at_ h' r lv0) as (lv0 & F0).
+    { unfold a1 in F. destruct o as [h |]; cbn [akill_opt] in F; [| eauto]. apply is_head_kill in F. destruct F as [(F & _) | (_ & _ & lv0 & F)]; eauto. }
+    assert (Ht : is_head at_ j r false).
+    { right. exists k, c. split; auto. exists l1, x, l2. repeat split; auto; intros z Hz; rewrite <- RX; auto. }
+    destruct (is_head_unique_root _ _ _ _ _ _ _ Wt Ht F0). auto. }
+  (* what the integration of the copy deleted *)
+  assert (ED : forall i, In i (e_del e2) <-> In i (dels o)).
+  { intros i. rewrite ED2. fold c o a1 cp at'. rewrite (livein_conc _ _ _ _ _ Wt), (livein_conc _ _ _ _ _ W'). destruct B as (BH & _). split.
+    - intros ((ri & Hi) & NA). destruct o as [h |] eqn:EO'.
+      + destruct (N.eq_dec i h) as [-> | NE]; [left; auto |]. exfalso. apply NA. exists ri. apply BH. left. split.
+        * unfold a1. cbn [akill_opt]. apply is_head_kill. left. auto.
+        * intros ->. apply NLt. apply (live_is_head _ _ _ Wt). eauto.
+      + exfalso. apply NA. exists ri. apply BH. left. split; auto. intros ->. apply NLt. apply (live_is_head _ _ _ Wt). eauto.
+    - intros Hi. destruct o as [h |] eqn:EO'; [| destruct Hi]. destruct Hi as [<- | []].
+      destruct (HO h eq_refl) as (rh & A1 & _). split; [eauto |]. intros (ri & F). apply BH in F.
+      destruct F as [(F & _) | (F & _)].
+      + unfold a1 in F. cbn [akill_opt] in F. apply is_head_kill in F. destruct F as [(_ & F) | (_ & F & _)]; [contradiction | discriminate].
+      + apply is_head_has_rt in A1. apply (has_rt_lt _ _ _ _ Wt) in A1. lia. }
+  assert (T' : TS (done ++ [j]) a nx at' (nt + 1) (eff_app et e2)).
+  { eapply (TS_birth done [j] a nx a1 nt _ at' r); [apply T1 | auto | | auto | auto | auto | | |].
+    - apply AX_aappend; [apply (wf_keys _ _ W1) | reflexivity | right; auto |]. cbn [a_rt cp copyunit]. rewrite RX. intros h' F. left. symmetry. auto.
+    - intros j' [<- | []]. cbn [e_del]. intros F. apply in_app_or in F. destruct F as [F | F]; [contradiction |].
+      destruct o as [h |] eqn:EO'; [| destruct F]. destruct F as [<- | []].
+      destruct (HO h eq_refl) as (rh & A1 & _).
+      assert (Ht : is_head at_ h r false) by (right; exists k, c; split; auto; exists l1, x, l2; repeat split; auto; intros z Hz; rewrite <- RX; auto).
+      destruct (is_head_unique_id _ _ _ _ _ _ _ Wt A1 Ht). discriminate.
+    - intros i. cbn. rewrite EI2, in_app_iff. cbn. intuition.
+    - intros i. cbn. rewrite !in_app_iff, ED. tauto. }
+  destruct B as (BH & BR).
+  assert (EAT : at' = {| a_seq := a_seq at_; a_map := aset_chain (a_map at_) k (fst (adel_last c) ++ [cp]) |}).
+  { unfold at', a1, o. rewrite <- ECt. apply aappend_kill_eq; auto. }
+  assert (RHI : forall h rh, o = Some h -> is_head at_ h rh true -> In rh (roots a (st_ins E))).
+  { intros h rh EO' A1. destruct (HO h EO') as (rh' & A1' & A2). destruct (is_head_unique_id _ _ _ _ _ _ _ Wt A1 A1') as (-> & _).
+    apply (live_last_in_ins a nx E k c j r h rh' W KX KA); auto. exists l1, x, l2. repeat split; auto; intros z Hz; rewrite <- RX; auto. }
+  assert (LV1 : forall r', In r' (live at_) -> (forall h rh, o = Some h -> is_head at_ h rh true -> r' <> rh) -> In r' (live at')).
+  { intros r' L NE. apply BL. left. unfold a1. destruct o as [h |] eqn:EO'; cbn [akill_opt]; auto.
+    destruct (HO h eq_refl) as (rh & A1 & _). apply (kill_live _ _ _ _ Wt A1). split; auto. apply (NE h rh); auto. }
+  constructor; auto.
+  - intros k' HK. assert (k' <> k). { intros ->. apply (HK j); [apply in_or_app; right; left; auto | auto]. }
+    rewrite EAT. cbn [a_map]. rewrite achain_of_aset_other by auto. apply (p1_chain _ _ _ _ _ _ _ P). intros j' Hj'. apply HK. apply in_or_app; auto.
+  - intros r' L NR'. apply LV1; [apply (p1_lb _ _ _ _ _ _ _ P); auto |]. intros h rh EO' A1 ->. apply NR'. eapply RHI; eauto.
+  - intros j' r' Hj' HR. apply in_app_or in Hj'. destruct Hj' as [Hj' | [<- | []]].
+    + apply LV1; [eapply (p1_lc _ _ _ _ _ _ _ P); eauto |]. intros h rh EO' A1 ->.
+      pose proof (RHI h rh EO' A1) as RI. apply in_roots in RI. destruct RI as (i & Hi & Ri). apply rt_of_has in Ri.
+      apply (eo_d3 _ _ _ EO i j' rh Hi (DR j' Hj') Ri HR).
+    + apply BL. right. eapply has_rt_unique; [apply (wf_nodup _ _ W) | eauto | eapply is_head_has_rt; eauto].
+  - intros h r' lv H' R'. destruct (p1_hd _ _ _ _ _ _ _ P h r' lv H' R') as (lv' & H'').
+    assert (exists lv1, is_head a1 h r' lv1) as (lv1 & H1).
+    { unfold a1. destruct o as [h0 |]; cbn [akill_opt]; [| eauto]. destruct (N.eq_dec h h0) as [-> | NE].
+      - exists false. apply is_head_kill. right. eauto.
+      - exists lv'. apply is_head_kill. left. auto. }
+    exists lv1. apply BH. left. split; auto. intros ->. contradiction.
+  - intros i r' Hi HR. cbn in Hi. rewrite EI2 in Hi. apply in_app_or in Hi. apply BR in HR. destruct HR as [HR | (-> & ->)].
+    + assert (HRt : has_rt at_ i r').
+      { unfold a1 in HR. destruct o as [h |]; cbn [akill_opt] in HR; auto. apply has_rt_kill in HR. auto. }
+      destruct Hi as [Hi | [<- | []]]; [| apply (has_rt_lt _ _ _ _ Wt) in HRt; lia].
+      destruct (p1_ins _ _ _ _ _ _ _ P i r' Hi HRt) as (j' & Hj' & HR'). exists j'. split; auto. apply in_or_app; auto.
+    + exists j. split; [apply in_or_app; right; left; auto | eapply is_head_has_rt; eauto].
+  - right. cbn. rewrite EI2. destruct (e_ins et); discriminate.
+Qed.
+
+
+
+Lemma PH1_fold a nx E s1 s2 us rs : WF a nx -> ent_ok a nx E -> kex a (tau a E (live a)) ->
+  forall Q done at_ nt et c0, PH1 a nx E done at_ nt et -> NoDup Q ->
+  (forall j, In j Q -> In j (to_redo_of E) /\ ~ In j done) -> (forall j', In j' done -> In j' (to_redo_of E)) ->
+  exists at' nt' et', redo_fold (st_ins E) s1 s2 Q (conc at_ nt us rs, c0, et) =
+                      (conc at' nt' us rs, c0 || match Q with [] => false | _ => true end, et') /\
+                      PH1 a nx E (done ++ Q) at' nt' et'.
+Proof.
+  intros W EO KX Q. induction Q as [| j Q IH]; intros done at_ nt et c0 P NDQ HQ HD.
+  - exists at_, nt, et. rewrite app_nil_r, orb_false_r. auto.
+  - apply NoDup_cons_iff in NDQ. destruct NDQ as (NJQ & H3). destruct (HQ j (or_introl eq_refl)) as (HJ & NJ).
+    destruct (redo_id_facts a nx E done at_ nt et j W EO P HJ NJ) as (r & H & Ht & NL & NLt & NR & ND & Lj).
+    assert (exists at' e2, redo_item (conc at_ nt us rs) j (st_ins E) s1 s2 = (conc at' (nt + 1) us rs, true, e2) /\
+                           PH1 a nx E (done ++ [j]) at' (nt + 1) (eff_app et e2)) as (at' & e2 & EQ & P').
+    { destruct Ht as [SH | MH]; [eapply PH1_step_seq; eauto | eapply PH1_step_map; eauto]. }
+    cbn [redo_fold fold_left]. rewrite EQ. fold (redo_fold (st_ins E) s1 s2 Q (conc at' (nt + 1) us rs, c0 || true, eff_app et e2)).
+    destruct (IH (done ++ [j]) at' (nt + 1) (eff_app et e2) (c0 || true) P' H3) as (at'' & nt'' & et'' & EQ' & P'').
+    + intros j' Hj'. destruct (HQ j' (or_intror Hj')) as (A & B). split; auto. intros F. apply in_app_or in F.
+      destruct F as [F | [<- | []]]; auto.
+    + intros j' Hj'. apply in_app_or in Hj'. destruct Hj' as [Hj' | [<- | []]]; auto.
+    + exists at'', nt'', et''. rewrite EQ'. rewrite <- app_assoc in P''. split; auto. f_equal. f_equal.
+      destruct c0, Q; reflexivity.
+Qed.
+
+Lemma to_redo_nodup E : NoDup (st_del E) -> NoDup (to_redo_of E).
+Proof. intros H. unfold to_redo_of. apply NoDup_filter. auto. Qed.
+
+(* ---- one stack entry processed ---- *)
+Definition to_delete_of (s : ustate) (E : stackitem) : list N :=
+  flat_map (fun i => match ufollow (S (length (all_items s))) (all_items s) i with
+                     | Some y => if u_del y then [] else [u_id y]
+                     | None => []
+                     end) (st_ins E).
+Definition nonnil {X} (l : list X) : bool := match l with [] => false | _ => true end.
+
+Lemma eff_nonempty e : (exists i, In i (e_ins e)) \/ (exists i, In i (e_del e)) -> eff_empty e = false.
+Proof. unfold eff_empty. intros [(i & H) | (i & H)]; destruct (e_ins e), (e_del e); auto; destruct H. Qed.
+
+Lemma uprocess_gen a nx E s1 s2 us rs :
+  WF a nx -> ent_ok a nx E -> kex a (tau a E (live a)) ->
+  exists a' nx' e X,
+    uprocess (conc a nx us rs) E s1 s2 =
+      (conc a' nx' us rs, nonnil (to_redo_of E) || nonnil (to_delete_of (conc a nx us rs) E), e) /\
+    TS X a nx a' nx' e /\ (forall j, In j X -> In j (st_del E)) /\
+    seteq (live a') (tau a E (live a)) /\
+    (nonnil (to_redo_of E) || nonnil (to_delete_of (conc a nx us rs) E) = true -> eff_empty e = false).
+Proof.
+  intros W EO KX. rewrite uprocess_unfold. cbv zeta. fold (to_redo_of E). fold (to_delete_of (conc a nx us rs) E).
+  set (L0 := to_delete_of (conc a nx us rs) E).
+  assert (L0S : forall h, In h L0 <-> exists i r, In i (st_ins E) /\ has_rt a i r /\ is_head a h r true) by (intros h; apply to_delete_spec; auto).
+  destruct (PH1_fold a nx E s1 s2 us rs W EO KX (to_redo_of E) [] a nx eff0 false (PH1_init a nx E W) (to_redo_nodup E (eo_nd _ _ _ EO)))
+    as (asa & nsa & ea & EQ & P); [intros j Hj; split; auto | intros j' [] |].
+  rewrite EQ. cbn [fst snd app orb] in *.
+  pose proof (p1_ts _ _ _ _ _ _ _ P) as Ta. pose proof (ts_wf _ _ _ _ _ _ Ta) as Wa.
+  destruct (kill_fold (to_redo_of E) a nx us rs (rev L0) asa nsa ea Ta) as (a' & EQ2 & TE & LV & HD).
+  rewrite EQ2.
+  set (newly := filter _ (rev L0)).
+  assert (NW : forall i, In i newly <-> In i (rev L0) /\ exists r, is_head asa i r true).
+  { intros i. unfold newly. rewrite filter_In. rewrite (live_now_iff asa nsa us rs i Wa). tauto. }
+  set (e := {| e_ins := e_ins ea; e_del := e_del ea ++ newly |}).
+  assert (T : TS (to_redo_of E) a nx a' nsa e).
+  { apply TE; [intros i; cbn; tauto |]. intros i. cbn. rewrite in_app_iff, NW. tauto. }
+  assert (L0H : forall h, In h L0 -> exists r, In r (roots a (st_ins E)) /\ is_head a h r true /\ exists lv', is_head asa h r lv').
+  { intros h Hh. apply L0S in Hh. destruct Hh as (i & r & Hi & HR & HH). exists r.
+    assert (In r (roots a (st_ins E))) by (apply in_roots; exists i; split; auto; apply has_rt_of; auto; apply (wf_nodup _ _ W)).
+    split; auto. split; auto. eapply (p1_hd _ _ _ _ _ _ _ P); eauto. }
+  assert (SE : seteq (live a') (tau a E (live a))).
+  { intros r. rewrite LV, in_tau. split.
+    - intros (La & K).
+      destruct (ts_2 _ _ _ _ _ _ Ta r La) as [L | (i & Hi & HR)].
+      + left. split; auto. intros RI. apply (live_is_head _ _ _ W) in L. destruct L as (h & HH).
+        assert (Hh : In h L0). { apply L0S. apply in_roots in RI. destruct RI as (i & Hi & Ri). apply rt_of_has in Ri. eauto. }
+        destruct (p1_hd _ _ _ _ _ _ _ P h r true HH RI) as (lv' & HA).
+        apply (live_is_head _ _ _ Wa) in La. destruct La as (h2 & HA2).
+        destruct (is_head_unique_root _ _ _ _ _ _ _ Wa HA HA2) as (<- & ->).
+        apply (K h); [apply in_rev; rewrite rev_involutive; auto | auto].
+      + right. destruct (p1_ins _ _ _ _ _ _ _ P i r Hi HR) as (j & Hj & HRj). apply in_roots. exists j. split; auto.
+        apply has_rt_of; auto. apply (wf_nodup _ _ W).
+    - intros [(L & NR) | RR].
+      + split; [apply (p1_lb _ _ _ _ _ _ _ P); auto |]. intros h Hh F. apply in_rev in Hh.
+        destruct (L0H h Hh) as (r' & RI & _ & lv' & HA). destruct (is_head_unique_id _ _ _ _ _ _ _ Wa HA F) as (<- & _). contradiction.
+      + apply in_roots in RR. destruct RR as (j & Hj & Rj). apply rt_of_has in Rj.
+        split; [eapply (p1_lc _ _ _ _ _ _ _ P); eauto |]. intros h Hh F. apply in_rev in Hh.
+        destruct (L0H h Hh) as (r' & RI & _ & lv' & HA). destruct (is_head_unique_id _ _ _ _ _ _ _ Wa HA F) as (<- & _).
+        apply in_roots in RI. destruct RI as (i & Hi & Ri). apply rt_of_has in Ri. apply (eo_d3 _ _ _ EO i j r' Hi Hj Ri Rj). }
+  exists a', nsa, e, (to_redo_of E).
+  split.
+  { f_equal. f_equal. unfold nonnil. destruct (to_redo_of E), L0; reflexivity. }
+  split; auto. split; [intros j Hj; apply in_to_redo in Hj; tauto |]. split; auto.
+  intros CH. apply eff_nonempty. apply orb_true_iff in CH. destruct CH as [CH | CH].
+  - left. cbn [e e_ins]. destruct (p1_ne _ _ _ _ _ _ _ P) as [F | F]; [rewrite F in CH; discriminate |].
+    destruct (e_ins ea) as [| i l]; [contradiction | exists i; left; auto].
+  - right. cbn [e e_del]. destruct L0 as [| h0 L1] eqn:EL; [discriminate |].
+    destruct (L0H h0 (or_introl eq_refl)) as (r & RI & HH & lv' & HA). destruct lv'.
+    + exists h0. apply in_or_app. right. apply NW. split; [apply in_rev; rewrite rev_involutive; left; auto | eauto].
+    + destruct (ts_3 _ _ _ _ _ _ Ta r) as (j & Hj & _).
+      * apply (live_is_head _ _ _ W). eauto.
+      * intros F. apply (live_is_head _ _ _ Wa) in F. destruct F as (h2 & F). destruct (is_head_unique_root _ _ _ _ _ _ _ Wa HA F). discriminate.
+      * exists j. apply in_or_app. auto.
+Qed.
+
+Lemma uprocess_spec a nx E s1 s2 us rs :
+  WF a nx -> ent_ok a nx E -> kex a (tau a E (live a)) ->
+  exists a' nx' ch e X,
+    uprocess (conc a nx us rs) E s1 s2 = (conc a' nx' us rs, ch, e) /\
+    TS X a nx a' nx' e /\ (forall j, In j X -> In j (st_del E)) /\
+    seteq (live a') (tau a E (live a)) /\
+    (ch = false -> a' = a /\ nx' = nx) /\
+    (ch = true -> eff_empty e = false).
+Proof.
+  intros W EO KX.
+  destruct (nonnil (to_redo_of E) || nonnil (to_delete_of (conc a nx us rs) E)) eqn:CH.
+  - destruct (uprocess_gen a nx E s1 s2 us rs W EO KX) as (a' & nx' & e & X & EQ & T & HX & SE & NE).
+    rewrite CH in *. exists a', nx', true, e, X. split; auto. split; auto. split; auto. split; auto. split; [discriminate | auto].
+  - apply orb_false_iff in CH. destruct CH as (C1 & C2).
+    assert (L0S : forall h, In h (to_delete_of (conc a nx us rs) E) <-> exists i r, In i (st_ins E) /\ has_rt a i r /\ is_head a h r true) by (intros h; apply to_delete_spec; auto).
+    rewrite uprocess_unfold. cbv zeta. fold (to_redo_of E). fold (to_delete_of (conc a nx us rs) E).
+    destruct (to_redo_of E) as [| j0 Q0] eqn:ER; [| discriminate]. destruct (to_delete_of (conc a nx us rs) E) as [| h0 L1] eqn:EL; [| discriminate].
+    cbn [redo_fold fold_left fst snd rev filter app e_ins e_del eff0 orb negb].
+    exists a, nx, false, {| e_ins := []; e_del := [] |}, []. split; [reflexivity |]. split; [apply TS_init; auto |].
+    split; [intros j [] |]. split; [| split; [auto | discriminate]].
+    intros r. rewrite in_tau, ER. cbn [roots flat_map]. split.
+    + intros L. left. split; auto. intros RI. apply (live_is_head _ _ _ W) in L. destruct L as (h & HH).
+      assert (Hh : In h []) by (apply L0S; apply in_roots in RI; destruct RI as (i & Hi & Ri); apply rt_of_has in Ri; eauto). destruct Hh.
+    + intros [(L & _) | []]; auto.
+Qed.
+
+
+
+(* ---- the pop loops ---- *)
+Lemma STK_tail a nx E l : STK a nx (E :: l) -> STK a nx l.
+Proof. intros (H & PD). split; [intros F HF; apply H; right; auto | destruct PD; auto]. Qed.
+
+Lemma ulist_hd a us S0 : exists t, ulist a us S0 = S0 :: t.
+Proof. destruct us; cbn; eauto. Qed.
+
+Lemma pop_undo_spec fuel : forall a nx us rs S0, WF a nx -> STK a nx (us ++ rs) ->
+  seteq S0 (live a) -> (forall S, In S (ulist a us S0) -> kex a S) -> (length us < fuel)%nat ->
+  (fst (pop_undo fuel (conc a nx us rs)) = conc a nx [] rs /\ (forall S, In S (ulist a us S0) -> seteq S (live a)))
+  \/ (exists skipped E rest a' nx' e X,
+        us = skipped ++ E :: rest /\ (forall S, In S (ulist a skipped S0) -> seteq S (live a)) /\
+        fst (pop_undo fuel (conc a nx us rs)) = conc a' nx' rest (entry_of_eff e :: rs) /\
+        TS X a nx a' nx' e /\ (forall j, In j X -> In j (st_del E)) /\ seteq (live a') (tau a E (live a))).
+Proof.
+  induction fuel as [| f IH]; intros a nx us rs S0 W ST SE KX LF; [lia |].
+  destruct us as [| E rest].
+  - left. cbn. split; auto. intros S [<- | []]; auto.
+  - cbn [pop_undo ustack rstack conc].
+    assert (EO : ent_ok a nx E) by (apply (proj1 ST); left; auto).
+    assert (KE : kex a (tau a E (live a))).
+    { eapply kex_seteq; [apply tau_seteq; eauto |]. apply KX. cbn. right. destruct (ulist_hd a rest (tau a E S0)) as (t & ->). left; auto. }
+    destruct (uprocess_spec a nx E rest rs (E :: rest) rs W EO KE) as (a' & nx' & ch & e & X & EQ & T & HX & SL & CF & CT).
+    rewrite EQ. destruct ch.
+    + right. exists [], E, rest, a', nx', e, X. cbn [app fst]. rewrite (CT eq_refl). cbn [andb negb].
+      split; auto. split; [intros S [<- | []]; auto |]. split; [reflexivity |]. auto.
+    + destruct (CF eq_refl) as (-> & ->). cbn [andb seqc mapc unext conc].
+      change {| seqc := cseq (a_seq a); mapc := cmap (a_map a); unext := nx; ustack := rest; rstack := rs |} with (conc a nx rest rs).
+      assert (SE' : seteq (tau a E S0) (live a)).
+      { eapply seteq_trans; [apply tau_seteq; eauto | apply seteq_sym; auto]. }
+      destruct (IH a nx rest rs (tau a E S0) W (STK_tail _ _ _ _ ST) SE') as [(EQ' & AL) | (sk & E1 & rest' & a1 & nx1 & e1 & X1 & EU & AL & EQ' & T1 & HX1 & SL1)].
+      * intros S HS. apply KX. cbn. right; auto.
+      * cbn in LF. lia.
+      * left. split; auto. intros S [<- | HS]; auto.
+      * right. exists (E :: sk), E1, rest', a1, nx1, e1, X1. split; [rewrite EU; reflexivity |].
+        split; [intros S [<- | HS]; auto |]. auto.
+Qed.
+
+Lemma pop_redo_spec fuel : forall a nx us rs S0, WF a nx -> STK a nx (us ++ rs) ->
+  seteq S0 (live a) -> (forall S, In S (ulist a rs S0) -> kex a S) -> (length rs < fuel)%nat ->
+  (fst (pop_redo fuel (conc a nx us rs)) = conc a nx us [] /\ (forall S, In S (ulist a rs S0) -> seteq S (live a)))
+  \/ (exists skipped E rest a' nx' e X,
+        rs = skipped ++ E :: rest /\ (forall S, In S (ulist a skipped S0) -> seteq S (live a)) /\
+        fst (pop_redo fuel (conc a nx us rs)) = conc a' nx' (entry_of_eff e :: us) rest /\
+        TS X a nx a' nx' e /\ (forall j, In j X -> In j (st_del E)) /\ seteq (live a') (tau a E (live a))).
+Proof.
+  induction fuel as [| f IH]; intros a nx us rs S0 W ST SE KX LF; [lia |].
+  destruct rs as [| E rest].
+  - left. cbn. split; auto. intros S [<- | []]; auto.
+  - cbn [pop_redo ustack rstack conc].
+    assert (EO : ent_ok a nx E) by (apply (proj1 ST); apply in_or_app; right; left; auto).
+    assert (KE : kex a (tau a E (live a))).
+    { eapply kex_seteq; [apply tau_seteq; eauto |]. apply KX. cbn. right. destruct (ulist_hd a rest (tau a E S0)) as (t & ->). left; auto. }
+    destruct (uprocess_spec a nx E rest us us (E :: rest) W EO KE) as (a' & nx' & ch & e & X & EQ & T & HX & SL & CF & CT).
+    rewrite EQ. destruct ch.
+    + right. exists [], E, rest, a', nx', e, X. cbn [app fst]. rewrite (CT eq_refl). cbn [andb negb].
+      split; auto. split; [intros S [<- | []]; auto |]. split; [reflexivity |]. auto.
+    + destruct (CF eq_refl) as (-> & ->). cbn [andb seqc mapc unext conc].
+      change {| seqc := cseq (a_seq a); mapc := cmap (a_map a); unext := nx; ustack := us; rstack := rest |} with (conc a nx us rest).
+      assert (SE' : seteq (tau a E S0) (live a)).
+      { eapply seteq_trans; [apply tau_seteq; eauto | apply seteq_sym; auto]. }
+      assert (ST' : STK a nx (us ++ rest)).
+      { destruct ST as (SO & PD). split; [intros F HF; apply SO; apply in_app_or in HF; apply in_or_app; destruct HF; [left | right; right]; auto |].
+        apply pdisj_app in PD. destruct PD as (P1 & (P2a & P2) & P3). apply pdisj_app. split; auto. split; auto.
+        intros E0 F i HE HF. apply (P3 E0 F i); auto. right; auto. }
+      destruct (IH a nx us rest (tau a E S0) W ST' SE') as [(EQ' & AL) | (sk & E1 & rest' & a1 & nx1 & e1 & X1 & EU & AL & EQ' & T1 & HX1 & SL1)].
+      * intros S HS. apply KX. cbn. right; auto.
+      * cbn in LF. lia.
+      * left. split; auto. intros S [<- | HS]; auto.
+      * right. exists (E :: sk), E1, rest', a1, nx1, e1, X1. split; [rewrite EU; reflexivity |].
+        split; [intros S [<- | HS]; auto |]. auto.
+Qed.
+
+
+
+(* ---- list bookkeeping for the mirror ---- *)
+Fixpoint heads (a : astate) (l : list stackitem) (S0 : list N) : list (list N) :=
+  match l with [] => [] | E :: r => S0 :: heads a r (tau a E S0) end.
+Fixpoint ufold (a : astate) (l : list stackitem) (S0 : list N) : list N :=
+  match l with [] => S0 | E :: r => ufold a r (tau a E S0) end.
+Lemma ulist_app a l1 l2 S0 : ulist a (l1 ++ l2) S0 = heads a l1 S0 ++ ulist a l2 (ufold a l1 S0).
+Proof. revert S0. induction l1 as [| E r IH]; intros S0; cbn; auto. rewrite IH. reflexivity. Qed.
+Lemma ulist_heads a l S0 : ulist a l S0 = heads a l S0 ++ [ufold a l S0].
+Proof. rewrite <- (app_nil_r l) at 1. rewrite ulist_app. reflexivity. Qed.
+Lemma heads_length a l S0 : length (heads a l S0) = length l.
+Proof. revert S0. induction l as [| E r IH]; intros S0; cbn; auto. Qed.
+Lemma ulist_rlist a l S0 : ulist a l S0 = S0 :: rlist a l S0.
+Proof. revert S0. induction l as [| E r IH]; intros S0; cbn; auto. rewrite IH. reflexivity. Qed.
+
+Lemma all_same_as_prev_true l : forall n lo, (forall j, (lo <= j < lo + n)%nat -> nth_cont l j = nth_cont l (pred j)) -> all_same_as_prev l lo n = true.
+Proof.
+  induction n as [| n IH]; intros lo H; cbn; auto. rewrite H by lia. rewrite cont_eqb_refl. cbn. apply IH. intros j Hj. apply H. lia.
+Qed.
+Lemma all_eq_from_true l c : forall n lo, (forall j, (lo <= j < lo + n)%nat -> nth_cont l j = c) -> all_eq_from l lo n c = true.
+Proof.
+  induction n as [| n IH]; intros lo H; cbn; auto. rewrite H by lia. rewrite cont_eqb_refl. cbn. apply IH. intros j Hj. apply H. lia.
+Qed.
+
+(* mu = rev B ++ rev A where every element of A is c0 *)
+Lemma nth_revB (A B : list ucont) j : (j < length B)%nat -> nth_cont (rev B ++ rev A) j = nth_cont B (length B - Datatypes.S j).
+Proof. intros H. unfold nth_cont. rewrite app_nth1 by (rewrite rev_length; auto). apply rev_nth. auto. Qed.
+Lemma nth_revA (A B : list ucont) c0 j : (forall x, In x A -> x = c0) -> (length B <= j < length B + length A)%nat ->
+  nth_cont (rev B ++ rev A) j = c0.
+Proof.
+  intros HA H. unfold nth_cont. rewrite app_nth2 by (rewrite rev_length; lia). apply HA. apply in_rev. apply nth_In. rewrite !rev_length. lia.
+Qed.
+Lemma firstn_revB (A B : list ucont) : firstn (length B) (rev B ++ rev A) = rev B.
+Proof. rewrite <- (rev_length B). rewrite firstn_app, Nat.sub_diag, firstn_all. cbn. apply app_nil_r. Qed.
+Lemma rev_eq_app {X} (l A B : list X) : rev l = A ++ B -> l = rev B ++ rev A.
+Proof. intros H. rewrite <- (rev_involutive l), H, rev_app_distr. reflexivity. Qed.
+
+Lemma map_all_eq a (l : list (list N)) : (forall S, In S l -> seteq S (live a)) -> forall x, In x (map (render a) l) -> x = render a (live a).
+Proof. intros H x Hx. apply in_map_iff in Hx. destruct Hx as (S & <- & HS). apply render_seteq. auto. Qed.
+
+Lemma pdisj_perm l l' : Permutation l l' -> pdisj l -> pdisj l'.
+Proof.
+  induction 1; cbn; auto.
+  - intros (A & B). split; auto. intros F i HF. apply A. eapply Permutation_in; [apply Permutation_sym; eauto | auto].
+  - intros (A & B & C). split; [| split; [| exact C]].
+    + intros F i [<- | HF] Hi Hi'; [apply (A x i (or_introl eq_refl) Hi' Hi) | apply (B F i HF Hi Hi')].
+    + intros F i HF. apply A. right; auto.
+Qed.
+Lemma STK_perm a nx l l' : Permutation l l' -> STK a nx l -> STK a nx l'.
+Proof.
+  intros P (A & B). split; [| eapply pdisj_perm; eauto]. intros E HE. apply A. eapply Permutation_in; [apply Permutation_sym; eauto | auto].
+Qed.
+
+Lemma new_entry_disj X a nx a' nx' e F : WF a nx -> TS X a nx a' nx' e -> ent_ok a nx F ->
+  forall i, In i (e_del e) -> ~ In i (st_del F).
+Proof.
+  intros W T OF i Hi Hi'. pose proof (ts_wf _ _ _ _ _ _ T) as W'. pose proof (ts_ax _ _ _ _ _ _ T) as A.
+  destruct (eo_dh _ _ _ OF i Hi') as (r & HD).
+  destruct (in_dec N.eq_dec i (e_ins e)) as [I | NI].
+  - apply (ts_in _ _ _ _ _ _ T) in I. assert (i < nx) by (apply (eo_lt _ _ _ OF); auto). lia.
+  - destruct (ts_4 _ _ _ _ _ _ T i Hi NI) as (r' & HR & L0 & _).
+    assert (r' = r).
+    { pose proof (ax_rt _ _ _ _ _ A i r (is_head_has_rt _ _ _ _ HD)). eapply has_rt_unique; eauto. apply (wf_nodup _ _ W'). }
+    subst r'. apply (live_is_head _ _ _ W) in L0. destruct L0 as (h & HL).
+    destruct (is_head_unique_root _ _ _ _ _ _ _ W HD HL). discriminate.
+Qed.
+
+Lemma STK_post X a nx a' nx' e E l : WF a nx -> TS X a nx a' nx' e -> (forall j, In j X -> In j (st_del E)) ->
+  STK a nx (E :: l) -> STK a' nx' (entry_of_eff e :: l).
+Proof.
+  intros W T HX (SO & PD). pose proof (ts_wf _ _ _ _ _ _ T) as W'. pose proof (ts_ax _ _ _ _ _ _ T) as A.
+  destruct PD as (PD1 & PD2). split.
+  - intros F [<- | HF]; [apply (TS_entry _ _ _ _ _ _ T) |].
+    apply (ent_ok_stable X a nx a' nx' F W W' A); [| apply SO; right; auto].
+    intros j Hj Fj. apply (PD1 F j HF (HX j Fj) Hj).
+  - split; auto. intros F i HF Hi. cbn in Hi. rewrite in_sort_ids in Hi.
+    apply (new_entry_disj X a nx a' nx' e F W T); auto. apply SO. right; auto.
+Qed.
+
+
+
+Lemma cont_conc_stacks a nx us rs us' rs' : cont (conc a nx us rs) = cont (conc a nx us' rs').
+Proof. reflexivity. Qed.
+
+Lemma all_c0_nth (l : list ucont) c0 j : (forall x, In x l -> x = c0) -> (j < length l)%nat -> nth_cont l j = c0.
+Proof. intros H L. apply H. apply nth_In. auto. Qed.
+
+Lemma inv_step_undo s m : INV s m -> exists s' m', mirror_step s m AUndo = Some (s', m') /\ INV s' m'.
+Proof.
+  intros (a & nx & us & rs & -> & W & ST & MU & MR & KX).
+  pose proof (mu_length _ _ _ _ MU) as LMU. pose proof (mr_length _ _ _ _ MR) as LMR.
+  set (c0 := render a (live a)).
+  assert (C0 : cont (conc a nx us rs) = c0) by (apply cont_render; auto).
+  unfold mirror_step. cbn [uact]. unfold undo. cbn [ustack rstack conc].
+  destruct (pop_undo_spec (S (length us)) a nx us rs (live a) W ST (seteq_refl _)) as [(EQ & AL) | (sk & E & rest & a' & nx' & e & X & EU & AL & EQ & T & HX & SL)];
+    [intros S HS; apply KX; apply in_or_app; auto | lia | |].
+  - (* every entry was passed over (or the stack was empty) *)
+    rewrite EQ. cbn [ustack rstack conc length]. rewrite (cont_conc_stacks a nx [] rs us rs), C0.
+    assert (ALL : forall x, In x (mu m) -> x = c0).
+    { intros x Hx. apply in_rev in Hx. rewrite MU in Hx. eapply map_all_eq; eauto. }
+    assert (Nat.ltb (length us) 0 = false) as -> by (apply Nat.ltb_ge; lia).
+    rewrite (all_c0_nth (mu m) c0 0 ALL) by lia. rewrite cont_eqb_refl. cbn [negb].
+    rewrite all_same_as_prev_true.
+    2:{ intros j Hj. rewrite !(all_c0_nth (mu m) c0) by (auto; lia). reflexivity. }
+    cbn [negb]. assert (Nat.eqb (length rs) (S (length rs)) = false) as -> by (apply Nat.eqb_neq; lia).
+    rewrite Nat.eqb_refl. eexists _, _. split; [reflexivity |].
+    exists a, nx, [], rs. split; [reflexivity |]. split; auto. split; [| split; [| split]].
+    + destruct ST as (SO & PD). split; [intros F HF; apply SO; apply in_or_app; auto |]. apply pdisj_app in PD. tauto.
+    + cbn [mu ulist map]. destruct (mu m) as [| x t] eqn:EM; [cbn in LMU; lia |]. cbn. rewrite (ALL x) by (left; auto). reflexivity.
+    + cbn [mr]. exact MR.
+    + intros S HS. cbn [ulist app] in HS. destruct HS as [<- | HS]; [apply (kex_live _ _ W) | apply KX; apply in_or_app; auto].
+  - (* entry E performed a change *)
+    rewrite EQ. cbn [ustack rstack conc length].
+    pose proof (ts_wf _ _ _ _ _ _ T) as W'. pose proof (ts_ax _ _ _ _ _ _ T) as A.
+    set (Sp := ufold a sk (live a)) in *. set (p := length sk).
+    assert (ESp : seteq Sp (live a)). { apply AL. rewrite ulist_heads. apply in_or_app. right. left. reflexivity. }
+    (* the shape of mu *)
+    assert (UL : ulist a us (live a) = ulist a sk (live a) ++ ulist a rest (tau a E Sp)).
+    { rewrite EU, ulist_app. cbn [ulist]. rewrite (ulist_heads a sk), <- app_assoc. reflexivity. }
+    set (A0 := map (render a) (ulist a sk (live a))). set (B := map (render a) (ulist a rest (tau a E Sp))).
+    assert (EMU : mu m = rev B ++ rev A0) by (apply rev_eq_app; rewrite MU, UL, map_app; reflexivity).
+    assert (HA0 : forall x, In x A0 -> x = c0) by (apply map_all_eq; auto).
+    assert (LB : length B = S (length rest)) by (unfold B; rewrite map_length, ulist_length; reflexivity).
+    assert (LA0 : length A0 = S p) by (unfold A0; rewrite map_length, ulist_length; reflexivity).
+    assert (LUS : length us = (p + S (length rest))%nat) by (rewrite EU, app_length; reflexivity).
+    (* the content after the call *)
+    assert (SE1 : seteq (live a') (tau a E Sp)).
+    { eapply seteq_trans; [apply SL | apply tau_seteq, seteq_sym; auto]. }
+    assert (BSp : bounded nx (tau a E Sp)) by (apply tau_bounded; auto; eapply bounded_seteq; eauto; apply live_bounded; auto).
+    assert (CUR : cont (conc a' nx' rest (entry_of_eff e :: rs)) = nth_cont B 0).
+    { rewrite (cont_render _ _ _ _ W'). rewrite (render_seteq a' _ _ SE1), (ax_render _ _ _ _ _ A) by auto.
+      unfold B. destruct (ulist_hd a rest (tau a E Sp)) as (t & ->). reflexivity. }
+    rewrite CUR, C0.
+    assert (Nat.ltb (length us) (length rest) = false) as -> by (apply Nat.ltb_ge; lia).
+    rewrite EMU. rewrite (nth_revB A0 B (length rest)) by lia. rewrite LB, Nat.sub_diag, cont_eqb_refl. cbn [negb].
+    rewrite all_same_as_prev_true.
+    2:{ intros j Hj. rewrite !(nth_revA A0 B c0) by (auto; lia). reflexivity. }
+    cbn [negb]. rewrite Nat.eqb_refl.
+    eexists _, _. split; [reflexivity |].
+    exists a', nx', rest, (entry_of_eff e :: rs). cbn [mu mr]. split; [reflexivity |]. split; auto.
+    assert (STE : STK a nx (E :: rest ++ rs)).
+    { destruct ST as (SO & PD). rewrite EU in SO, PD. rewrite <- app_assoc in SO, PD. apply pdisj_app in PD. destruct PD as (_ & PD & _).
+      split; auto. intros F HF. apply SO. apply in_or_app. right. auto. }
+    destruct (TS_entry _ _ _ _ _ _ T) as (EO' & TA).
+    assert (LT : forall F i, In F (rest ++ rs) -> In i (st_ins F) \/ In i (st_del F) -> i < nx).
+    { intros F i HF. apply (STK_lt _ _ _ STE). right; auto. }
+    destruct (sets_transport X a nx a' nx' rest [] (tau a E Sp) (live a') W W' A) as (TU & _ & TK1); auto;
+      [intros F i HF; apply LT; rewrite app_nil_r in HF; apply in_or_app; auto |].
+    destruct (sets_transport X a nx a' nx' rs [] (live a) (tau a' (entry_of_eff e) (live a')) W W' A) as (TR & _ & TK2); auto;
+      [intros F i HF; apply LT; rewrite app_nil_r in HF; apply in_or_app; auto | apply live_bounded; auto |].
+    split; [| split; [| split]].
+    + apply (STK_perm _ _ (entry_of_eff e :: rest ++ rs)); [apply Permutation_middle |]. apply (STK_post X a nx a' nx' e E (rest ++ rs) W T HX STE).
+    + rewrite <- LB, firstn_revB, rev_involutive. unfold B. symmetry. exact TU.
+    + rewrite firstn_all2 by lia. rewrite rev_app_distr. cbn [rev app].
+      rewrite (nth_revA A0 B c0) by (auto; lia). cbn [rlist map]. rewrite MR.
+      rewrite ulist_rlist in TR. cbn [map] in TR. rewrite ulist_rlist in TR. cbn [map] in TR. inversion TR. unfold c0. congruence.
+    + intros S HS. apply in_app_or in HS. destruct HS as [HS | HS].
+      * apply TK1; [| apply in_or_app; left; auto]. intros S' HS'. rewrite app_nil_r in HS'. apply KX. apply in_or_app. left.
+        rewrite UL. apply in_or_app. right. auto.
+      * cbn [rlist] in HS. apply TK2; [| rewrite app_nil_r, ulist_rlist; exact HS].
+        intros S' HS'. rewrite app_nil_r, ulist_rlist in HS'. destruct HS' as [<- | HS']; [apply (kex_live _ _ W) | apply KX; apply in_or_app; auto].
+Qed.
+
+Lemma inv_step_redo s m : INV s m -> exists s' m', mirror_step s m ARedo = Some (s', m') /\ INV s' m'.
+Proof.
+  intros (a & nx & us & rs & -> & W & ST & MU & MR & KX).
+  pose proof (mu_length _ _ _ _ MU) as LMU. pose proof (mr_length _ _ _ _ MR) as LMR.
+  set (c0 := render a (live a)).
+  assert (C0 : cont (conc a nx us rs) = c0) by (apply cont_render; auto).
+  unfold mirror_step. cbn [uact]. unfold redo. cbn [ustack rstack conc].
+  destruct (pop_redo_spec (S (length rs)) a nx us rs (live a) W ST (seteq_refl _)) as [(EQ & AL) | (sk & E & rest & a' & nx' & e & X & EU & AL & EQ & T & HX & SL)];
+    [intros S HS; rewrite ulist_rlist in HS; destruct HS as [<- | HS]; [apply (kex_live _ _ W) | apply KX; apply in_or_app; auto] | lia | |].
+  - (* every redo entry was passed over (or the redo stack was empty) *)
+    rewrite EQ. cbn [ustack rstack conc length]. rewrite (cont_conc_stacks a nx us [] us rs), C0.
+    assert (ALL : forall x, In x (mr m) -> x = c0).
+    { intros x Hx. apply in_rev in Hx. rewrite MR in Hx. apply (map_all_eq a (rlist a rs (live a))); auto. intros S HS. apply AL. rewrite ulist_rlist. right; auto. }
+    assert (Nat.ltb (length rs) 0 = false) as -> by (apply Nat.ltb_ge; lia).
+    rewrite cont_eqb_refl, Nat.eqb_refl. cbn [andb negb].
+    destruct rs as [| F0 rs0].
+    + cbn [length Nat.eqb]. eexists _, _. split; [reflexivity |].
+      exists a, nx, us, []. split; [reflexivity |]. auto 10.
+    + cbn [length Nat.eqb].
+      assert (Nat.eqb (length us) (S (length us)) = false) as -> by (apply Nat.eqb_neq; lia).
+      rewrite all_eq_from_true.
+      2:{ intros j Hj. apply (all_c0_nth (mr m) c0); auto. cbn [length] in LMR. lia. }
+      cbn [negb]. eexists _, _. split; [reflexivity |].
+      exists a, nx, us, []. split; [reflexivity |]. split; auto. split; [| split; [| split]].
+      * destruct ST as (SO & PD). rewrite app_nil_r. split; [intros F HF; apply SO; apply in_or_app; auto |]. apply pdisj_app in PD. tauto.
+      * exact MU.
+      * reflexivity.
+      * intros S HS. rewrite app_nil_r in HS. apply KX. apply in_or_app; auto.
+  - (* entry E performed a change *)
+    rewrite EQ. cbn [ustack rstack conc length].
+    pose proof (ts_wf _ _ _ _ _ _ T) as W'. pose proof (ts_ax _ _ _ _ _ _ T) as A.
+    set (Sp := ufold a sk (live a)) in *. set (p := length sk).
+    assert (ESp : seteq Sp (live a)). { apply AL. rewrite ulist_heads. apply in_or_app. right. left. reflexivity. }
+    assert (UL : rlist a rs (live a) = rlist a sk (live a) ++ ulist a rest (tau a E Sp)).
+    { assert (ulist a rs (live a) = ulist a sk (live a) ++ ulist a rest (tau a E Sp)) as UL0.
+      { rewrite EU, ulist_app. cbn [ulist]. rewrite (ulist_heads a sk), <- app_assoc. reflexivity. }
+      rewrite (ulist_rlist a rs), (ulist_rlist a sk) in UL0. cbn [app] in UL0. inversion UL0. reflexivity. }
+    set (A0 := map (render a) (rlist a sk (live a))). set (B := map (render a) (ulist a rest (tau a E Sp))).
+    assert (EMR : mr m = rev B ++ rev A0) by (apply rev_eq_app; rewrite MR, UL, map_app; reflexivity).
+    assert (HA0 : forall x, In x A0 -> x = c0).
+    { apply map_all_eq. intros S HS. apply AL. rewrite ulist_rlist. right; auto. }
+    assert (LB : length B = S (length rest)) by (unfold B; rewrite map_length, ulist_length; reflexivity).
+    assert (LA0 : length A0 = p) by (unfold A0; rewrite map_length, rlist_length; reflexivity).
+    assert (LRS : length rs = (p + S (length rest))%nat) by (rewrite EU, app_length; reflexivity).
+    assert (SE1 : seteq (live a') (tau a E Sp)).
+    { eapply seteq_trans; [apply SL | apply tau_seteq, seteq_sym; auto]. }
+    assert (BSp : bounded nx (tau a E Sp)) by (apply tau_bounded; auto; eapply bounded_seteq; eauto; apply live_bounded; auto).
+    assert (CUR : cont (conc a' nx' (entry_of_eff e :: us) rest) = nth_cont B 0).
+    { rewrite (cont_render _ _ _ _ W'). rewrite (render_seteq a' _ _ SE1), (ax_render _ _ _ _ _ A) by auto.
+      unfold B. destruct (ulist_hd a rest (tau a E Sp)) as (t & ->). reflexivity. }
+    rewrite C0.
+    assert (Nat.ltb (length rs) (length rest) = false) as -> by (apply Nat.ltb_ge; lia).
+    assert (Nat.eqb (length rs) (length rest) = false) as -> by (apply Nat.eqb_neq; lia).
+    rewrite Nat.eqb_refl.
+    assert (CB : cont_eqb (cont (conc a' nx' (entry_of_eff e :: us) rest)) (nth_cont (mr m) (length rest)) = true).
+    { rewrite CUR, EMR. rewrite (nth_revB A0 B (length rest)) by lia. rewrite LB, Nat.sub_diag. apply cont_eqb_refl. }
+    assert (AE : all_eq_from (mr m) (S (length rest)) (length rs - length rest - 1) c0 = true).
+    { rewrite EMR. apply all_eq_from_true. intros j Hj. apply (nth_revA A0 B c0); auto. lia. }
+    rewrite CB, AE. cbn [negb]. eexists _, _. split; [reflexivity |].
+    exists a', nx', (entry_of_eff e :: us), rest. cbn [mu mr]. split; [reflexivity |]. split; auto.
+    assert (STE : STK a nx (E :: us ++ rest)).
+    { assert (P0 : Permutation (us ++ rs) (sk ++ E :: us ++ rest)).
+      { rewrite EU. eapply perm_trans; [apply Permutation_app_swap_app |]. apply Permutation_app_head. apply Permutation_sym, Permutation_middle. }
+      apply (STK_perm _ _ _ _ P0) in ST. destruct ST as (SO & PD). apply pdisj_app in PD. destruct PD as (_ & PD & _).
+      split; auto. intros F HF. apply SO. apply in_or_app. right. auto. }
+    destruct (TS_entry _ _ _ _ _ _ T) as (EO' & TA).
+    assert (LT : forall F i, In F (us ++ rest) -> In i (st_ins F) \/ In i (st_del F) -> i < nx).
+    { intros F i HF. apply (STK_lt _ _ _ STE). right; auto. }
+    destruct (sets_transport X a nx a' nx' [] rest (tau a E Sp) (live a') W W' A) as (_ & TR & TK1); auto;
+      [intros F i HF; apply LT; cbn [app] in HF; apply in_or_app; auto |].
+    destruct (sets_transport X a nx a' nx' us [] (live a) (tau a' (entry_of_eff e) (live a')) W W' A) as (TU & _ & TK2); auto;
+      [intros F i HF; apply LT; rewrite app_nil_r in HF; apply in_or_app; auto | apply live_bounded; auto |].
+    assert (EB : B = nth_cont B 0 :: map (render a) (rlist a rest (tau a E Sp))).
+    { unfold B. rewrite ulist_rlist. reflexivity. }
+    split; [| split; [| split]].
+    + apply (STK_post X a nx a' nx' e E (us ++ rest) W T HX STE).
+    + rewrite firstn_all2 by lia. rewrite rev_app_distr. cbn [rev app ulist map]. rewrite MU, TU, CUR.
+      rewrite (cont_render _ _ _ _ W') in CUR. rewrite <- CUR. reflexivity.
+    + rewrite EMR, EB. cbn [rev]. rewrite <- app_assoc.
+      assert (length rest = length (rev (map (render a) (rlist a rest (tau a E Sp))))) as -> by (rewrite rev_length, map_length, rlist_length; reflexivity).
+      rewrite firstn_app, Nat.sub_diag, firstn_all. cbn [firstn]. rewrite app_nil_r, rev_involutive. symmetry. exact TR.
+    + intros S HS. apply in_app_or in HS. destruct HS as [HS | HS].
+      * cbn [ulist] in HS. destruct HS as [<- | HS]; [apply (kex_live _ _ W') |].
+        apply TK2; [| rewrite app_nil_r; exact HS]. intros S' HS'. rewrite app_nil_r in HS'. apply KX. apply in_or_app; auto.
+      * apply TK1; [| cbn [ulist app]; right; exact HS]. intros S' HS'. cbn [ulist app] in HS'. destruct HS' as [<- | HS'].
+        -- apply KX. apply in_or_app. right. rewrite UL. apply in_or_app. right. destruct (ulist_hd a rest (tau a E Sp)) as (t & ->). left; auto.
+        -- apply KX. apply in_or_app. right. rewrite UL. apply in_or_app. right. rewrite ulist_rlist. right; auto.
+Qed.
+
+
+
+(* ---- A. the inverse law, unbounded ---- *)
+Lemma inv_step s m a : INV s m -> (match a with AOther _ => false | _ => true end) = true ->
+  exists s' m', mirror_step s m a = Some (s', m') /\ INV s' m'.
+Proof.
+  intros I H. destruct a as [txns | cs | |]; [apply inv_step_astep | discriminate | apply inv_step_undo | apply inv_step_redo]; auto.
+Qed.
+
+Lemma inv_run p : forall s m, INV s m -> only_tracked p = true -> mirror_run s m p = true.
+Proof.
+  induction p as [| a r IH]; intros s m I H; [reflexivity |].
+  unfold only_tracked in H. cbn [forallb] in H. apply andb_true_iff in H. destruct H as (H1 & H2).
+  destruct (inv_step s m a I H1) as (s' & m' & EQ & I'). cbn [mirror_run]. rewrite EQ. apply IH; auto.
+Qed.
+
+Theorem inverse_law_holds : inverse_law.
+Proof. intros p H. apply inv_run; auto. apply inv_init. Qed.
+
+(* the invariant is an invariant of every tracked run: a corollary that exposes what was proved along the way *)
+Corollary tracked_run_invariant p : only_tracked p = true ->
+  exists a nx us rs, urun ustate0 p = conc a nx us rs /\ WF a nx /\ cont (urun ustate0 p) = render a (live a).
+Proof.
+  intros H. assert (G : forall p s m, INV s m -> only_tracked p = true -> exists m', INV (urun s p) m').
+  { clear. induction p as [| a r IH]; intros s m I H; [exists m; auto |].
+    unfold only_tracked in H. cbn [forallb] in H. apply andb_true_iff in H. destruct H as (H1 & H2).
+    destruct (inv_step s m a I H1) as (s' & m' & EQ & I'). cbn [urun fold_left].
+    assert (s' = uact s a) as ->.
+    { unfold mirror_step in EQ. destruct a as [t | c | |]; try discriminate;
+        repeat match type of EQ with context [if ?b then _ else _] => destruct b end; try discriminate; inversion EQ; reflexivity. }
+    apply (IH _ m'); auto. }
+  destruct (G p ustate0 mirror0 inv_init H) as (m' & a & nx & us & rs & E & W & _).
+  exists a, nx, us, rs. split; auto. split; auto. rewrite E. apply cont_render; auto.
+Qed.
+
+
+
+(* ---------------------------------------------------------------------------------------------- *)
+Print Assumptions inverse_law_holds.
 Print Assumptions inverse_law_bounded.
+Print Assumptions tracked_run_invariant.
+Print Assumptions undo_redo_keep_foreign_units.
+Print Assumptions undo_never_touches_other_keys_or_values.
